@@ -1,5467 +1,2 @@
-(* GENERATED by tools/genlocks from log.go, log_io.go, entry/entry_map.go - do not edit.
-   Lock/access skeleton of every method of *IPFSLog (ops: exported entry points, helpers:
-   unexported functions that are only reached inlined) and of *OrderedMap (omap_ops). *)
-From Coq Require Import List String.
-From IpfsLog Require Import Model.Conc.
-Import ListNotations.
-Open Scope string_scope.
-
-Definition ops : list (string * list path) := [
-  ("Append", [
-    (* Append #0 *) [B (Acq LSelf W);
-      B (Hook "append.locked");
-      B (PtrRd "heads");
-      B (ObjRd "heads");
-      B (PtrRd "Clock");
-      B (PtrWr "Clock");
-      B (PtrRd "Entries");
-      B (ObjRd "Entries");
-      B (PtrRd "Identity");
-      B (Hook "append.before-publish");
-      B (PtrRd "Entries");
-      B (ObjWr "Entries");
-      B (PtrRd "Next");
-      B (ObjWr "Next");
-      B (PtrWr "heads");
-      B (Rel LSelf W)];
-    (* Append #1 *) [B (Acq LSelf W);
-      B (Hook "append.locked");
-      B (PtrRd "heads");
-      B (ObjRd "heads");
-      B (PtrRd "Clock");
-      B (PtrWr "Clock");
-      B (PtrRd "Entries");
-      B (ObjRd "Entries");
-      B (PtrRd "Identity");
-      B (Hook "append.before-publish");
-      B (PtrRd "Entries");
-      B (ObjWr "Entries");
-      B (PtrWr "heads");
-      B (Rel LSelf W)];
-    (* Append #2 *) [B (Acq LSelf W);
-      B (Hook "append.locked");
-      B (PtrRd "heads");
-      B (ObjRd "heads");
-      B (PtrRd "Clock");
-      B (PtrWr "Clock");
-      B (PtrRd "Entries");
-      B (ObjRd "Entries");
-      B (PtrRd "Identity");
-      B (Rel LSelf W)];
-    (* Append #3 *) [B (Acq LSelf W);
-      B (Hook "append.locked");
-      B (PtrRd "heads");
-      B (ObjRd "heads");
-      B (PtrRd "Clock");
-      B (PtrWr "Clock");
-      B (PtrRd "Entries");
-      B (ObjRd "Entries");
-      B (Rel LSelf W)];
-    (* Append #4 *) [B (Acq LSelf W);
-      B (Hook "append.locked");
-      B (PtrRd "heads");
-      B (ObjRd "heads");
-      B (PtrRd "Clock");
-      B (PtrWr "Clock");
-      B (PtrRd "Identity");
-      B (Hook "append.before-publish");
-      B (PtrRd "Entries");
-      B (ObjWr "Entries");
-      B (PtrRd "Next");
-      B (ObjWr "Next");
-      B (PtrWr "heads");
-      B (Rel LSelf W)];
-    (* Append #5 *) [B (Acq LSelf W);
-      B (Hook "append.locked");
-      B (PtrRd "heads");
-      B (ObjRd "heads");
-      B (PtrRd "Clock");
-      B (PtrWr "Clock");
-      B (PtrRd "Identity");
-      B (Hook "append.before-publish");
-      B (PtrRd "Entries");
-      B (ObjWr "Entries");
-      B (PtrWr "heads");
-      B (Rel LSelf W)];
-    (* Append #6 *) [B (Acq LSelf W);
-      B (Hook "append.locked");
-      B (PtrRd "heads");
-      B (ObjRd "heads");
-      B (PtrRd "Clock");
-      B (PtrWr "Clock");
-      B (PtrRd "Identity");
-      B (Rel LSelf W)];
-    (* Append #7 *) [B (Acq LSelf W);
-      B (Hook "append.locked");
-      B (PtrRd "heads");
-      B (ObjRd "heads");
-      B (PtrRd "Clock");
-      B (PtrWr "Clock");
-      B (Rel LSelf W)]
-  ]);
-  ("Get", [
-    (* Get #0 *) [B (Acq LSelf R);
-      B (PtrRd "Entries");
-      B (ObjRd "Entries");
-      B (Rel LSelf R)]
-  ]);
-  ("GetEntries", [
-    (* GetEntries #0 *) [B (Acq LSelf R);
-      B (PtrRd "Entries");
-      B (ObjRd "Entries");
-      B (Rel LSelf R)]
-  ]);
-  ("GetID", [
-    (* GetID #0 *) []
-  ]);
-  ("Has", [
-    (* Has #0 *) [B (Acq LSelf R);
-      B (PtrRd "Entries");
-      B (ObjRd "Entries");
-      B (Rel LSelf R)]
-  ]);
-  ("Heads", [
-    (* Heads #0 *) [B (Acq LSelf R);
-      B (PtrRd "heads");
-      B (ObjRd "heads");
-      B (Rel LSelf R)]
-  ]);
-  ("IO", [
-    (* IO #0 *) []
-  ]);
-  ("Iterator", [
-    (* Iterator #0 *) [];
-    (* Iterator #1 *) [B (Acq LSelf R);
-      B (Hook "iterator.locked");
-      B (PtrRd "heads");
-      B (ObjRd "heads");
-      B (PtrRd "Entries");
-      B (ObjRd "Entries");
-      B (Rel LSelf R)];
-    (* Iterator #2 *) [B (Acq LSelf R);
-      B (Hook "iterator.locked");
-      B (PtrRd "heads");
-      B (ObjRd "heads");
-      B (PtrRd "Entries");
-      B (ObjRd "Entries");
-      B (Rel LSelf R);
-      B (Close "output")];
-    (* Iterator #3 *) [B (Acq LSelf R);
-      B (Hook "iterator.locked");
-      B (PtrRd "heads");
-      B (ObjRd "heads");
-      B (PtrRd "Entries");
-      B (ObjRd "Entries");
-      B (Rel LSelf R);
-      B (Send "output");
-      B (Close "output")];
-    (* Iterator #4 *) [B (Acq LSelf R);
-      B (Hook "iterator.locked");
-      B (PtrRd "heads");
-      B (ObjRd "heads");
-      B (Rel LSelf R)];
-    (* Iterator #5 *) [B (Acq LSelf R);
-      B (Hook "iterator.locked");
-      B (PtrRd "heads");
-      B (ObjRd "heads");
-      B (Rel LSelf R);
-      B (Close "output")];
-    (* Iterator #6 *) [B (Acq LSelf R);
-      B (Hook "iterator.locked");
-      B (PtrRd "heads");
-      B (ObjRd "heads");
-      B (Rel LSelf R);
-      B (Send "output");
-      B (Close "output")];
-    (* Iterator #7 *) [B (Close "output")]
-  ]);
-  ("Join", [
-    (* Join #0 *) [];
-    (* Join #1 *) [B (Foreign "GetID")];
-    (* Join #2 *) [B (Foreign "GetID");
-      B (Hook "join.before-heads");
-      B (Foreign "RawHeads");
-      B (Hook "join.before-entries");
-      B (Foreign "GetEntries");
-      B (Acq LSelf W);
-      B (Hook "join.locked");
-      B (ForeignObjRd "RawHeads");
-      B (Hook "join.diffed");
-      Spawn [[Acq (LLocal "errLock") W; CapWr "err"; Rel (LLocal "errLock") W];
-        [PtrRd "Identity"];
-        [PtrRd "Identity"; Acq (LLocal "errLock") W; CapWr "err"; Rel (LLocal "errLock") W]];
-      Spawn [[Acq (LLocal "errLock") W; CapWr "err"; Rel (LLocal "errLock") W];
-        [PtrRd "Identity"];
-        [PtrRd "Identity"; Acq (LLocal "errLock") W; CapWr "err"; Rel (LLocal "errLock") W]];
-      WaitChildren;
-      B (CapRd "err");
-      B (PtrRd "Entries");
-      B (ObjWr "Entries");
-      B (PtrRd "heads");
-      B (ForeignObjRd "RawHeads");
-      B (ObjRd "heads");
-      B (PtrRd "Next");
-      B (ObjRd "Next");
-      B (PtrWr "heads");
-      B (ObjRd "Entries");
-      B (PtrWr "Entries");
-      B (PtrRd "Clock");
-      B (PtrWr "Clock");
-      B (Rel LSelf W)];
-    (* Join #3 *) [B (Foreign "GetID");
-      B (Hook "join.before-heads");
-      B (Foreign "RawHeads");
-      B (Hook "join.before-entries");
-      B (Foreign "GetEntries");
-      B (Acq LSelf W);
-      B (Hook "join.locked");
-      B (ForeignObjRd "RawHeads");
-      B (Hook "join.diffed");
-      Spawn [[Acq (LLocal "errLock") W; CapWr "err"; Rel (LLocal "errLock") W];
-        [PtrRd "Identity"];
-        [PtrRd "Identity"; Acq (LLocal "errLock") W; CapWr "err"; Rel (LLocal "errLock") W]];
-      Spawn [[Acq (LLocal "errLock") W; CapWr "err"; Rel (LLocal "errLock") W];
-        [PtrRd "Identity"];
-        [PtrRd "Identity"; Acq (LLocal "errLock") W; CapWr "err"; Rel (LLocal "errLock") W]];
-      WaitChildren;
-      B (CapRd "err");
-      B (PtrRd "Entries");
-      B (ObjWr "Entries");
-      B (PtrRd "heads");
-      B (ForeignObjRd "RawHeads");
-      B (ObjRd "heads");
-      B (PtrRd "Next");
-      B (ObjRd "Next");
-      B (PtrWr "heads");
-      B (PtrRd "Clock");
-      B (PtrWr "Clock");
-      B (Rel LSelf W)];
-    (* Join #4 *) [B (Foreign "GetID");
-      B (Hook "join.before-heads");
-      B (Foreign "RawHeads");
-      B (Hook "join.before-entries");
-      B (Foreign "GetEntries");
-      B (Acq LSelf W);
-      B (Hook "join.locked");
-      B (ForeignObjRd "RawHeads");
-      B (Hook "join.diffed");
-      Spawn [[Acq (LLocal "errLock") W; CapWr "err"; Rel (LLocal "errLock") W];
-        [PtrRd "Identity"];
-        [PtrRd "Identity"; Acq (LLocal "errLock") W; CapWr "err"; Rel (LLocal "errLock") W]];
-      Spawn [[Acq (LLocal "errLock") W; CapWr "err"; Rel (LLocal "errLock") W];
-        [PtrRd "Identity"];
-        [PtrRd "Identity"; Acq (LLocal "errLock") W; CapWr "err"; Rel (LLocal "errLock") W]];
-      WaitChildren;
-      B (CapRd "err");
-      B (PtrRd "Entries");
-      B (ObjWr "Entries");
-      B (PtrRd "heads");
-      B (ForeignObjRd "RawHeads");
-      B (ObjRd "heads");
-      B (PtrRd "Next");
-      B (ObjRd "Next");
-      B (PtrWr "heads");
-      B (PtrWr "Entries");
-      B (PtrRd "Clock");
-      B (PtrWr "Clock");
-      B (Rel LSelf W)];
-    (* Join #5 *) [B (Foreign "GetID");
-      B (Hook "join.before-heads");
-      B (Foreign "RawHeads");
-      B (Hook "join.before-entries");
-      B (Foreign "GetEntries");
-      B (Acq LSelf W);
-      B (Hook "join.locked");
-      B (ForeignObjRd "RawHeads");
-      B (Hook "join.diffed");
-      Spawn [[Acq (LLocal "errLock") W; CapWr "err"; Rel (LLocal "errLock") W];
-        [PtrRd "Identity"];
-        [PtrRd "Identity"; Acq (LLocal "errLock") W; CapWr "err"; Rel (LLocal "errLock") W]];
-      Spawn [[Acq (LLocal "errLock") W; CapWr "err"; Rel (LLocal "errLock") W];
-        [PtrRd "Identity"];
-        [PtrRd "Identity"; Acq (LLocal "errLock") W; CapWr "err"; Rel (LLocal "errLock") W]];
-      WaitChildren;
-      B (CapRd "err");
-      B (PtrRd "Entries");
-      B (ObjWr "Entries");
-      B (PtrRd "heads");
-      B (ForeignObjRd "RawHeads");
-      B (ObjRd "heads");
-      B (PtrWr "heads");
-      B (ObjRd "Entries");
-      B (PtrWr "Entries");
-      B (PtrRd "Clock");
-      B (PtrWr "Clock");
-      B (Rel LSelf W)];
-    (* Join #6 *) [B (Foreign "GetID");
-      B (Hook "join.before-heads");
-      B (Foreign "RawHeads");
-      B (Hook "join.before-entries");
-      B (Foreign "GetEntries");
-      B (Acq LSelf W);
-      B (Hook "join.locked");
-      B (ForeignObjRd "RawHeads");
-      B (Hook "join.diffed");
-      Spawn [[Acq (LLocal "errLock") W; CapWr "err"; Rel (LLocal "errLock") W];
-        [PtrRd "Identity"];
-        [PtrRd "Identity"; Acq (LLocal "errLock") W; CapWr "err"; Rel (LLocal "errLock") W]];
-      Spawn [[Acq (LLocal "errLock") W; CapWr "err"; Rel (LLocal "errLock") W];
-        [PtrRd "Identity"];
-        [PtrRd "Identity"; Acq (LLocal "errLock") W; CapWr "err"; Rel (LLocal "errLock") W]];
-      WaitChildren;
-      B (CapRd "err");
-      B (PtrRd "Entries");
-      B (ObjWr "Entries");
-      B (PtrRd "heads");
-      B (ForeignObjRd "RawHeads");
-      B (ObjRd "heads");
-      B (PtrWr "heads");
-      B (PtrRd "Clock");
-      B (PtrWr "Clock");
-      B (Rel LSelf W)];
-    (* Join #7 *) [B (Foreign "GetID");
-      B (Hook "join.before-heads");
-      B (Foreign "RawHeads");
-      B (Hook "join.before-entries");
-      B (Foreign "GetEntries");
-      B (Acq LSelf W);
-      B (Hook "join.locked");
-      B (ForeignObjRd "RawHeads");
-      B (Hook "join.diffed");
-      Spawn [[Acq (LLocal "errLock") W; CapWr "err"; Rel (LLocal "errLock") W];
-        [PtrRd "Identity"];
-        [PtrRd "Identity"; Acq (LLocal "errLock") W; CapWr "err"; Rel (LLocal "errLock") W]];
-      Spawn [[Acq (LLocal "errLock") W; CapWr "err"; Rel (LLocal "errLock") W];
-        [PtrRd "Identity"];
-        [PtrRd "Identity"; Acq (LLocal "errLock") W; CapWr "err"; Rel (LLocal "errLock") W]];
-      WaitChildren;
-      B (CapRd "err");
-      B (PtrRd "Entries");
-      B (ObjWr "Entries");
-      B (PtrRd "heads");
-      B (ForeignObjRd "RawHeads");
-      B (ObjRd "heads");
-      B (PtrWr "heads");
-      B (PtrWr "Entries");
-      B (PtrRd "Clock");
-      B (PtrWr "Clock");
-      B (Rel LSelf W)];
-    (* Join #8 *) [B (Foreign "GetID");
-      B (Hook "join.before-heads");
-      B (Foreign "RawHeads");
-      B (Hook "join.before-entries");
-      B (Foreign "GetEntries");
-      B (Acq LSelf W);
-      B (Hook "join.locked");
-      B (ForeignObjRd "RawHeads");
-      B (Hook "join.diffed");
-      Spawn [[Acq (LLocal "errLock") W; CapWr "err"; Rel (LLocal "errLock") W];
-        [PtrRd "Identity"];
-        [PtrRd "Identity"; Acq (LLocal "errLock") W; CapWr "err"; Rel (LLocal "errLock") W]];
-      Spawn [[Acq (LLocal "errLock") W; CapWr "err"; Rel (LLocal "errLock") W];
-        [PtrRd "Identity"];
-        [PtrRd "Identity"; Acq (LLocal "errLock") W; CapWr "err"; Rel (LLocal "errLock") W]];
-      WaitChildren;
-      B (CapRd "err");
-      B (PtrRd "Next");
-      B (ObjWr "Next");
-      B (PtrRd "Entries");
-      B (ObjWr "Entries");
-      B (PtrRd "heads");
-      B (ForeignObjRd "RawHeads");
-      B (ObjRd "heads");
-      B (ObjRd "Next");
-      B (PtrWr "heads");
-      B (ObjRd "Entries");
-      B (PtrWr "Entries");
-      B (PtrRd "Clock");
-      B (PtrWr "Clock");
-      B (Rel LSelf W)];
-    (* Join #9 *) [B (Foreign "GetID");
-      B (Hook "join.before-heads");
-      B (Foreign "RawHeads");
-      B (Hook "join.before-entries");
-      B (Foreign "GetEntries");
-      B (Acq LSelf W);
-      B (Hook "join.locked");
-      B (ForeignObjRd "RawHeads");
-      B (Hook "join.diffed");
-      Spawn [[Acq (LLocal "errLock") W; CapWr "err"; Rel (LLocal "errLock") W];
-        [PtrRd "Identity"];
-        [PtrRd "Identity"; Acq (LLocal "errLock") W; CapWr "err"; Rel (LLocal "errLock") W]];
-      Spawn [[Acq (LLocal "errLock") W; CapWr "err"; Rel (LLocal "errLock") W];
-        [PtrRd "Identity"];
-        [PtrRd "Identity"; Acq (LLocal "errLock") W; CapWr "err"; Rel (LLocal "errLock") W]];
-      WaitChildren;
-      B (CapRd "err");
-      B (PtrRd "Next");
-      B (ObjWr "Next");
-      B (PtrRd "Entries");
-      B (ObjWr "Entries");
-      B (PtrRd "heads");
-      B (ForeignObjRd "RawHeads");
-      B (ObjRd "heads");
-      B (ObjRd "Next");
-      B (PtrWr "heads");
-      B (PtrRd "Clock");
-      B (PtrWr "Clock");
-      B (Rel LSelf W)];
-    (* Join #10 *) [B (Foreign "GetID");
-      B (Hook "join.before-heads");
-      B (Foreign "RawHeads");
-      B (Hook "join.before-entries");
-      B (Foreign "GetEntries");
-      B (Acq LSelf W);
-      B (Hook "join.locked");
-      B (ForeignObjRd "RawHeads");
-      B (Hook "join.diffed");
-      Spawn [[Acq (LLocal "errLock") W; CapWr "err"; Rel (LLocal "errLock") W];
-        [PtrRd "Identity"];
-        [PtrRd "Identity"; Acq (LLocal "errLock") W; CapWr "err"; Rel (LLocal "errLock") W]];
-      Spawn [[Acq (LLocal "errLock") W; CapWr "err"; Rel (LLocal "errLock") W];
-        [PtrRd "Identity"];
-        [PtrRd "Identity"; Acq (LLocal "errLock") W; CapWr "err"; Rel (LLocal "errLock") W]];
-      WaitChildren;
-      B (CapRd "err");
-      B (PtrRd "Next");
-      B (ObjWr "Next");
-      B (PtrRd "Entries");
-      B (ObjWr "Entries");
-      B (PtrRd "heads");
-      B (ForeignObjRd "RawHeads");
-      B (ObjRd "heads");
-      B (ObjRd "Next");
-      B (PtrWr "heads");
-      B (PtrWr "Entries");
-      B (PtrRd "Clock");
-      B (PtrWr "Clock");
-      B (Rel LSelf W)];
-    (* Join #11 *) [B (Foreign "GetID");
-      B (Hook "join.before-heads");
-      B (Foreign "RawHeads");
-      B (Hook "join.before-entries");
-      B (Foreign "GetEntries");
-      B (Acq LSelf W);
-      B (Hook "join.locked");
-      B (ForeignObjRd "RawHeads");
-      B (Hook "join.diffed");
-      Spawn [[Acq (LLocal "errLock") W; CapWr "err"; Rel (LLocal "errLock") W];
-        [PtrRd "Identity"];
-        [PtrRd "Identity"; Acq (LLocal "errLock") W; CapWr "err"; Rel (LLocal "errLock") W]];
-      Spawn [[Acq (LLocal "errLock") W; CapWr "err"; Rel (LLocal "errLock") W];
-        [PtrRd "Identity"];
-        [PtrRd "Identity"; Acq (LLocal "errLock") W; CapWr "err"; Rel (LLocal "errLock") W]];
-      WaitChildren;
-      B (CapRd "err");
-      B (PtrRd "Next");
-      B (ObjWr "Next");
-      B (PtrRd "Entries");
-      B (ObjWr "Entries");
-      B (PtrRd "heads");
-      B (ForeignObjRd "RawHeads");
-      B (ObjRd "heads");
-      B (PtrWr "heads");
-      B (ObjRd "Entries");
-      B (PtrWr "Entries");
-      B (PtrRd "Clock");
-      B (PtrWr "Clock");
-      B (Rel LSelf W)];
-    (* Join #12 *) [B (Foreign "GetID");
-      B (Hook "join.before-heads");
-      B (Foreign "RawHeads");
-      B (Hook "join.before-entries");
-      B (Foreign "GetEntries");
-      B (Acq LSelf W);
-      B (Hook "join.locked");
-      B (ForeignObjRd "RawHeads");
-      B (Hook "join.diffed");
-      Spawn [[Acq (LLocal "errLock") W; CapWr "err"; Rel (LLocal "errLock") W];
-        [PtrRd "Identity"];
-        [PtrRd "Identity"; Acq (LLocal "errLock") W; CapWr "err"; Rel (LLocal "errLock") W]];
-      Spawn [[Acq (LLocal "errLock") W; CapWr "err"; Rel (LLocal "errLock") W];
-        [PtrRd "Identity"];
-        [PtrRd "Identity"; Acq (LLocal "errLock") W; CapWr "err"; Rel (LLocal "errLock") W]];
-      WaitChildren;
-      B (CapRd "err");
-      B (PtrRd "Next");
-      B (ObjWr "Next");
-      B (PtrRd "Entries");
-      B (ObjWr "Entries");
-      B (PtrRd "heads");
-      B (ForeignObjRd "RawHeads");
-      B (ObjRd "heads");
-      B (PtrWr "heads");
-      B (PtrRd "Clock");
-      B (PtrWr "Clock");
-      B (Rel LSelf W)];
-    (* Join #13 *) [B (Foreign "GetID");
-      B (Hook "join.before-heads");
-      B (Foreign "RawHeads");
-      B (Hook "join.before-entries");
-      B (Foreign "GetEntries");
-      B (Acq LSelf W);
-      B (Hook "join.locked");
-      B (ForeignObjRd "RawHeads");
-      B (Hook "join.diffed");
-      Spawn [[Acq (LLocal "errLock") W; CapWr "err"; Rel (LLocal "errLock") W];
-        [PtrRd "Identity"];
-        [PtrRd "Identity"; Acq (LLocal "errLock") W; CapWr "err"; Rel (LLocal "errLock") W]];
-      Spawn [[Acq (LLocal "errLock") W; CapWr "err"; Rel (LLocal "errLock") W];
-        [PtrRd "Identity"];
-        [PtrRd "Identity"; Acq (LLocal "errLock") W; CapWr "err"; Rel (LLocal "errLock") W]];
-      WaitChildren;
-      B (CapRd "err");
-      B (PtrRd "Next");
-      B (ObjWr "Next");
-      B (PtrRd "Entries");
-      B (ObjWr "Entries");
-      B (PtrRd "heads");
-      B (ForeignObjRd "RawHeads");
-      B (ObjRd "heads");
-      B (PtrWr "heads");
-      B (PtrWr "Entries");
-      B (PtrRd "Clock");
-      B (PtrWr "Clock");
-      B (Rel LSelf W)];
-    (* Join #14 *) [B (Foreign "GetID");
-      B (Hook "join.before-heads");
-      B (Foreign "RawHeads");
-      B (Hook "join.before-entries");
-      B (Foreign "GetEntries");
-      B (Acq LSelf W);
-      B (Hook "join.locked");
-      B (ForeignObjRd "RawHeads");
-      B (Hook "join.diffed");
-      Spawn [[Acq (LLocal "errLock") W; CapWr "err"; Rel (LLocal "errLock") W];
-        [PtrRd "Identity"];
-        [PtrRd "Identity"; Acq (LLocal "errLock") W; CapWr "err"; Rel (LLocal "errLock") W]];
-      Spawn [[Acq (LLocal "errLock") W; CapWr "err"; Rel (LLocal "errLock") W];
-        [PtrRd "Identity"];
-        [PtrRd "Identity"; Acq (LLocal "errLock") W; CapWr "err"; Rel (LLocal "errLock") W]];
-      WaitChildren;
-      B (CapRd "err");
-      B (PtrRd "heads");
-      B (ForeignObjRd "RawHeads");
-      B (ObjRd "heads");
-      B (PtrRd "Next");
-      B (ObjRd "Next");
-      B (PtrWr "heads");
-      B (PtrRd "Clock");
-      B (PtrWr "Clock");
-      B (Rel LSelf W)];
-    (* Join #15 *) [B (Foreign "GetID");
-      B (Hook "join.before-heads");
-      B (Foreign "RawHeads");
-      B (Hook "join.before-entries");
-      B (Foreign "GetEntries");
-      B (Acq LSelf W);
-      B (Hook "join.locked");
-      B (ForeignObjRd "RawHeads");
-      B (Hook "join.diffed");
-      Spawn [[Acq (LLocal "errLock") W; CapWr "err"; Rel (LLocal "errLock") W];
-        [PtrRd "Identity"];
-        [PtrRd "Identity"; Acq (LLocal "errLock") W; CapWr "err"; Rel (LLocal "errLock") W]];
-      Spawn [[Acq (LLocal "errLock") W; CapWr "err"; Rel (LLocal "errLock") W];
-        [PtrRd "Identity"];
-        [PtrRd "Identity"; Acq (LLocal "errLock") W; CapWr "err"; Rel (LLocal "errLock") W]];
-      WaitChildren;
-      B (CapRd "err");
-      B (PtrRd "heads");
-      B (ForeignObjRd "RawHeads");
-      B (ObjRd "heads");
-      B (PtrRd "Next");
-      B (ObjRd "Next");
-      B (PtrWr "heads");
-      B (PtrRd "Entries");
-      B (ObjRd "Entries");
-      B (PtrWr "Entries");
-      B (PtrRd "Clock");
-      B (PtrWr "Clock");
-      B (Rel LSelf W)];
-    (* Join #16 *) [B (Foreign "GetID");
-      B (Hook "join.before-heads");
-      B (Foreign "RawHeads");
-      B (Hook "join.before-entries");
-      B (Foreign "GetEntries");
-      B (Acq LSelf W);
-      B (Hook "join.locked");
-      B (ForeignObjRd "RawHeads");
-      B (Hook "join.diffed");
-      Spawn [[Acq (LLocal "errLock") W; CapWr "err"; Rel (LLocal "errLock") W];
-        [PtrRd "Identity"];
-        [PtrRd "Identity"; Acq (LLocal "errLock") W; CapWr "err"; Rel (LLocal "errLock") W]];
-      Spawn [[Acq (LLocal "errLock") W; CapWr "err"; Rel (LLocal "errLock") W];
-        [PtrRd "Identity"];
-        [PtrRd "Identity"; Acq (LLocal "errLock") W; CapWr "err"; Rel (LLocal "errLock") W]];
-      WaitChildren;
-      B (CapRd "err");
-      B (PtrRd "heads");
-      B (ForeignObjRd "RawHeads");
-      B (ObjRd "heads");
-      B (PtrRd "Next");
-      B (ObjRd "Next");
-      B (PtrWr "heads");
-      B (PtrWr "Entries");
-      B (PtrRd "Clock");
-      B (PtrWr "Clock");
-      B (Rel LSelf W)];
-    (* Join #17 *) [B (Foreign "GetID");
-      B (Hook "join.before-heads");
-      B (Foreign "RawHeads");
-      B (Hook "join.before-entries");
-      B (Foreign "GetEntries");
-      B (Acq LSelf W);
-      B (Hook "join.locked");
-      B (ForeignObjRd "RawHeads");
-      B (Hook "join.diffed");
-      Spawn [[Acq (LLocal "errLock") W; CapWr "err"; Rel (LLocal "errLock") W];
-        [PtrRd "Identity"];
-        [PtrRd "Identity"; Acq (LLocal "errLock") W; CapWr "err"; Rel (LLocal "errLock") W]];
-      Spawn [[Acq (LLocal "errLock") W; CapWr "err"; Rel (LLocal "errLock") W];
-        [PtrRd "Identity"];
-        [PtrRd "Identity"; Acq (LLocal "errLock") W; CapWr "err"; Rel (LLocal "errLock") W]];
-      WaitChildren;
-      B (CapRd "err");
-      B (PtrRd "heads");
-      B (ForeignObjRd "RawHeads");
-      B (ObjRd "heads");
-      B (PtrWr "heads");
-      B (PtrRd "Clock");
-      B (PtrWr "Clock");
-      B (Rel LSelf W)];
-    (* Join #18 *) [B (Foreign "GetID");
-      B (Hook "join.before-heads");
-      B (Foreign "RawHeads");
-      B (Hook "join.before-entries");
-      B (Foreign "GetEntries");
-      B (Acq LSelf W);
-      B (Hook "join.locked");
-      B (ForeignObjRd "RawHeads");
-      B (Hook "join.diffed");
-      Spawn [[Acq (LLocal "errLock") W; CapWr "err"; Rel (LLocal "errLock") W];
-        [PtrRd "Identity"];
-        [PtrRd "Identity"; Acq (LLocal "errLock") W; CapWr "err"; Rel (LLocal "errLock") W]];
-      Spawn [[Acq (LLocal "errLock") W; CapWr "err"; Rel (LLocal "errLock") W];
-        [PtrRd "Identity"];
-        [PtrRd "Identity"; Acq (LLocal "errLock") W; CapWr "err"; Rel (LLocal "errLock") W]];
-      WaitChildren;
-      B (CapRd "err");
-      B (PtrRd "heads");
-      B (ForeignObjRd "RawHeads");
-      B (ObjRd "heads");
-      B (PtrWr "heads");
-      B (PtrRd "Entries");
-      B (ObjRd "Entries");
-      B (PtrWr "Entries");
-      B (PtrRd "Clock");
-      B (PtrWr "Clock");
-      B (Rel LSelf W)];
-    (* Join #19 *) [B (Foreign "GetID");
-      B (Hook "join.before-heads");
-      B (Foreign "RawHeads");
-      B (Hook "join.before-entries");
-      B (Foreign "GetEntries");
-      B (Acq LSelf W);
-      B (Hook "join.locked");
-      B (ForeignObjRd "RawHeads");
-      B (Hook "join.diffed");
-      Spawn [[Acq (LLocal "errLock") W; CapWr "err"; Rel (LLocal "errLock") W];
-        [PtrRd "Identity"];
-        [PtrRd "Identity"; Acq (LLocal "errLock") W; CapWr "err"; Rel (LLocal "errLock") W]];
-      Spawn [[Acq (LLocal "errLock") W; CapWr "err"; Rel (LLocal "errLock") W];
-        [PtrRd "Identity"];
-        [PtrRd "Identity"; Acq (LLocal "errLock") W; CapWr "err"; Rel (LLocal "errLock") W]];
-      WaitChildren;
-      B (CapRd "err");
-      B (PtrRd "heads");
-      B (ForeignObjRd "RawHeads");
-      B (ObjRd "heads");
-      B (PtrWr "heads");
-      B (PtrWr "Entries");
-      B (PtrRd "Clock");
-      B (PtrWr "Clock");
-      B (Rel LSelf W)];
-    (* Join #20 *) [B (Foreign "GetID");
-      B (Hook "join.before-heads");
-      B (Foreign "RawHeads");
-      B (Hook "join.before-entries");
-      B (Foreign "GetEntries");
-      B (Acq LSelf W);
-      B (Hook "join.locked");
-      B (ForeignObjRd "RawHeads");
-      B (Hook "join.diffed");
-      Spawn [[Acq (LLocal "errLock") W; CapWr "err"; Rel (LLocal "errLock") W];
-        [PtrRd "Identity"];
-        [PtrRd "Identity"; Acq (LLocal "errLock") W; CapWr "err"; Rel (LLocal "errLock") W]];
-      Spawn [[Acq (LLocal "errLock") W; CapWr "err"; Rel (LLocal "errLock") W];
-        [PtrRd "Identity"];
-        [PtrRd "Identity"; Acq (LLocal "errLock") W; CapWr "err"; Rel (LLocal "errLock") W]];
-      WaitChildren;
-      B (CapRd "err");
-      B (Rel LSelf W)];
-    (* Join #21 *) [B (Foreign "GetID");
-      B (Hook "join.before-heads");
-      B (Foreign "RawHeads");
-      B (Hook "join.before-entries");
-      B (Foreign "GetEntries");
-      B (Acq LSelf W);
-      B (Hook "join.locked");
-      B (ForeignObjRd "RawHeads");
-      B (Hook "join.diffed");
-      WaitChildren;
-      B (CapRd "err");
-      B (PtrRd "Entries");
-      B (ObjWr "Entries");
-      B (PtrRd "heads");
-      B (ForeignObjRd "RawHeads");
-      B (ObjRd "heads");
-      B (PtrRd "Next");
-      B (ObjRd "Next");
-      B (PtrWr "heads");
-      B (ObjRd "Entries");
-      B (PtrWr "Entries");
-      B (PtrRd "Clock");
-      B (PtrWr "Clock");
-      B (Rel LSelf W)];
-    (* Join #22 *) [B (Foreign "GetID");
-      B (Hook "join.before-heads");
-      B (Foreign "RawHeads");
-      B (Hook "join.before-entries");
-      B (Foreign "GetEntries");
-      B (Acq LSelf W);
-      B (Hook "join.locked");
-      B (ForeignObjRd "RawHeads");
-      B (Hook "join.diffed");
-      WaitChildren;
-      B (CapRd "err");
-      B (PtrRd "Entries");
-      B (ObjWr "Entries");
-      B (PtrRd "heads");
-      B (ForeignObjRd "RawHeads");
-      B (ObjRd "heads");
-      B (PtrRd "Next");
-      B (ObjRd "Next");
-      B (PtrWr "heads");
-      B (PtrRd "Clock");
-      B (PtrWr "Clock");
-      B (Rel LSelf W)];
-    (* Join #23 *) [B (Foreign "GetID");
-      B (Hook "join.before-heads");
-      B (Foreign "RawHeads");
-      B (Hook "join.before-entries");
-      B (Foreign "GetEntries");
-      B (Acq LSelf W);
-      B (Hook "join.locked");
-      B (ForeignObjRd "RawHeads");
-      B (Hook "join.diffed");
-      WaitChildren;
-      B (CapRd "err");
-      B (PtrRd "Entries");
-      B (ObjWr "Entries");
-      B (PtrRd "heads");
-      B (ForeignObjRd "RawHeads");
-      B (ObjRd "heads");
-      B (PtrRd "Next");
-      B (ObjRd "Next");
-      B (PtrWr "heads");
-      B (PtrWr "Entries");
-      B (PtrRd "Clock");
-      B (PtrWr "Clock");
-      B (Rel LSelf W)];
-    (* Join #24 *) [B (Foreign "GetID");
-      B (Hook "join.before-heads");
-      B (Foreign "RawHeads");
-      B (Hook "join.before-entries");
-      B (Foreign "GetEntries");
-      B (Acq LSelf W);
-      B (Hook "join.locked");
-      B (ForeignObjRd "RawHeads");
-      B (Hook "join.diffed");
-      WaitChildren;
-      B (CapRd "err");
-      B (PtrRd "Entries");
-      B (ObjWr "Entries");
-      B (PtrRd "heads");
-      B (ForeignObjRd "RawHeads");
-      B (ObjRd "heads");
-      B (PtrWr "heads");
-      B (ObjRd "Entries");
-      B (PtrWr "Entries");
-      B (PtrRd "Clock");
-      B (PtrWr "Clock");
-      B (Rel LSelf W)];
-    (* Join #25 *) [B (Foreign "GetID");
-      B (Hook "join.before-heads");
-      B (Foreign "RawHeads");
-      B (Hook "join.before-entries");
-      B (Foreign "GetEntries");
-      B (Acq LSelf W);
-      B (Hook "join.locked");
-      B (ForeignObjRd "RawHeads");
-      B (Hook "join.diffed");
-      WaitChildren;
-      B (CapRd "err");
-      B (PtrRd "Entries");
-      B (ObjWr "Entries");
-      B (PtrRd "heads");
-      B (ForeignObjRd "RawHeads");
-      B (ObjRd "heads");
-      B (PtrWr "heads");
-      B (PtrRd "Clock");
-      B (PtrWr "Clock");
-      B (Rel LSelf W)];
-    (* Join #26 *) [B (Foreign "GetID");
-      B (Hook "join.before-heads");
-      B (Foreign "RawHeads");
-      B (Hook "join.before-entries");
-      B (Foreign "GetEntries");
-      B (Acq LSelf W);
-      B (Hook "join.locked");
-      B (ForeignObjRd "RawHeads");
-      B (Hook "join.diffed");
-      WaitChildren;
-      B (CapRd "err");
-      B (PtrRd "Entries");
-      B (ObjWr "Entries");
-      B (PtrRd "heads");
-      B (ForeignObjRd "RawHeads");
-      B (ObjRd "heads");
-      B (PtrWr "heads");
-      B (PtrWr "Entries");
-      B (PtrRd "Clock");
-      B (PtrWr "Clock");
-      B (Rel LSelf W)];
-    (* Join #27 *) [B (Foreign "GetID");
-      B (Hook "join.before-heads");
-      B (Foreign "RawHeads");
-      B (Hook "join.before-entries");
-      B (Foreign "GetEntries");
-      B (Acq LSelf W);
-      B (Hook "join.locked");
-      B (ForeignObjRd "RawHeads");
-      B (Hook "join.diffed");
-      WaitChildren;
-      B (CapRd "err");
-      B (PtrRd "Next");
-      B (ObjWr "Next");
-      B (PtrRd "Entries");
-      B (ObjWr "Entries");
-      B (PtrRd "heads");
-      B (ForeignObjRd "RawHeads");
-      B (ObjRd "heads");
-      B (ObjRd "Next");
-      B (PtrWr "heads");
-      B (ObjRd "Entries");
-      B (PtrWr "Entries");
-      B (PtrRd "Clock");
-      B (PtrWr "Clock");
-      B (Rel LSelf W)];
-    (* Join #28 *) [B (Foreign "GetID");
-      B (Hook "join.before-heads");
-      B (Foreign "RawHeads");
-      B (Hook "join.before-entries");
-      B (Foreign "GetEntries");
-      B (Acq LSelf W);
-      B (Hook "join.locked");
-      B (ForeignObjRd "RawHeads");
-      B (Hook "join.diffed");
-      WaitChildren;
-      B (CapRd "err");
-      B (PtrRd "Next");
-      B (ObjWr "Next");
-      B (PtrRd "Entries");
-      B (ObjWr "Entries");
-      B (PtrRd "heads");
-      B (ForeignObjRd "RawHeads");
-      B (ObjRd "heads");
-      B (ObjRd "Next");
-      B (PtrWr "heads");
-      B (PtrRd "Clock");
-      B (PtrWr "Clock");
-      B (Rel LSelf W)];
-    (* Join #29 *) [B (Foreign "GetID");
-      B (Hook "join.before-heads");
-      B (Foreign "RawHeads");
-      B (Hook "join.before-entries");
-      B (Foreign "GetEntries");
-      B (Acq LSelf W);
-      B (Hook "join.locked");
-      B (ForeignObjRd "RawHeads");
-      B (Hook "join.diffed");
-      WaitChildren;
-      B (CapRd "err");
-      B (PtrRd "Next");
-      B (ObjWr "Next");
-      B (PtrRd "Entries");
-      B (ObjWr "Entries");
-      B (PtrRd "heads");
-      B (ForeignObjRd "RawHeads");
-      B (ObjRd "heads");
-      B (ObjRd "Next");
-      B (PtrWr "heads");
-      B (PtrWr "Entries");
-      B (PtrRd "Clock");
-      B (PtrWr "Clock");
-      B (Rel LSelf W)];
-    (* Join #30 *) [B (Foreign "GetID");
-      B (Hook "join.before-heads");
-      B (Foreign "RawHeads");
-      B (Hook "join.before-entries");
-      B (Foreign "GetEntries");
-      B (Acq LSelf W);
-      B (Hook "join.locked");
-      B (ForeignObjRd "RawHeads");
-      B (Hook "join.diffed");
-      WaitChildren;
-      B (CapRd "err");
-      B (PtrRd "Next");
-      B (ObjWr "Next");
-      B (PtrRd "Entries");
-      B (ObjWr "Entries");
-      B (PtrRd "heads");
-      B (ForeignObjRd "RawHeads");
-      B (ObjRd "heads");
-      B (PtrWr "heads");
-      B (ObjRd "Entries");
-      B (PtrWr "Entries");
-      B (PtrRd "Clock");
-      B (PtrWr "Clock");
-      B (Rel LSelf W)];
-    (* Join #31 *) [B (Foreign "GetID");
-      B (Hook "join.before-heads");
-      B (Foreign "RawHeads");
-      B (Hook "join.before-entries");
-      B (Foreign "GetEntries");
-      B (Acq LSelf W);
-      B (Hook "join.locked");
-      B (ForeignObjRd "RawHeads");
-      B (Hook "join.diffed");
-      WaitChildren;
-      B (CapRd "err");
-      B (PtrRd "Next");
-      B (ObjWr "Next");
-      B (PtrRd "Entries");
-      B (ObjWr "Entries");
-      B (PtrRd "heads");
-      B (ForeignObjRd "RawHeads");
-      B (ObjRd "heads");
-      B (PtrWr "heads");
-      B (PtrRd "Clock");
-      B (PtrWr "Clock");
-      B (Rel LSelf W)];
-    (* Join #32 *) [B (Foreign "GetID");
-      B (Hook "join.before-heads");
-      B (Foreign "RawHeads");
-      B (Hook "join.before-entries");
-      B (Foreign "GetEntries");
-      B (Acq LSelf W);
-      B (Hook "join.locked");
-      B (ForeignObjRd "RawHeads");
-      B (Hook "join.diffed");
-      WaitChildren;
-      B (CapRd "err");
-      B (PtrRd "Next");
-      B (ObjWr "Next");
-      B (PtrRd "Entries");
-      B (ObjWr "Entries");
-      B (PtrRd "heads");
-      B (ForeignObjRd "RawHeads");
-      B (ObjRd "heads");
-      B (PtrWr "heads");
-      B (PtrWr "Entries");
-      B (PtrRd "Clock");
-      B (PtrWr "Clock");
-      B (Rel LSelf W)];
-    (* Join #33 *) [B (Foreign "GetID");
-      B (Hook "join.before-heads");
-      B (Foreign "RawHeads");
-      B (Hook "join.before-entries");
-      B (Foreign "GetEntries");
-      B (Acq LSelf W);
-      B (Hook "join.locked");
-      B (ForeignObjRd "RawHeads");
-      B (Hook "join.diffed");
-      WaitChildren;
-      B (CapRd "err");
-      B (PtrRd "heads");
-      B (ForeignObjRd "RawHeads");
-      B (ObjRd "heads");
-      B (PtrRd "Next");
-      B (ObjRd "Next");
-      B (PtrWr "heads");
-      B (PtrRd "Clock");
-      B (PtrWr "Clock");
-      B (Rel LSelf W)];
-    (* Join #34 *) [B (Foreign "GetID");
-      B (Hook "join.before-heads");
-      B (Foreign "RawHeads");
-      B (Hook "join.before-entries");
-      B (Foreign "GetEntries");
-      B (Acq LSelf W);
-      B (Hook "join.locked");
-      B (ForeignObjRd "RawHeads");
-      B (Hook "join.diffed");
-      WaitChildren;
-      B (CapRd "err");
-      B (PtrRd "heads");
-      B (ForeignObjRd "RawHeads");
-      B (ObjRd "heads");
-      B (PtrRd "Next");
-      B (ObjRd "Next");
-      B (PtrWr "heads");
-      B (PtrRd "Entries");
-      B (ObjRd "Entries");
-      B (PtrWr "Entries");
-      B (PtrRd "Clock");
-      B (PtrWr "Clock");
-      B (Rel LSelf W)];
-    (* Join #35 *) [B (Foreign "GetID");
-      B (Hook "join.before-heads");
-      B (Foreign "RawHeads");
-      B (Hook "join.before-entries");
-      B (Foreign "GetEntries");
-      B (Acq LSelf W);
-      B (Hook "join.locked");
-      B (ForeignObjRd "RawHeads");
-      B (Hook "join.diffed");
-      WaitChildren;
-      B (CapRd "err");
-      B (PtrRd "heads");
-      B (ForeignObjRd "RawHeads");
-      B (ObjRd "heads");
-      B (PtrRd "Next");
-      B (ObjRd "Next");
-      B (PtrWr "heads");
-      B (PtrWr "Entries");
-      B (PtrRd "Clock");
-      B (PtrWr "Clock");
-      B (Rel LSelf W)];
-    (* Join #36 *) [B (Foreign "GetID");
-      B (Hook "join.before-heads");
-      B (Foreign "RawHeads");
-      B (Hook "join.before-entries");
-      B (Foreign "GetEntries");
-      B (Acq LSelf W);
-      B (Hook "join.locked");
-      B (ForeignObjRd "RawHeads");
-      B (Hook "join.diffed");
-      WaitChildren;
-      B (CapRd "err");
-      B (PtrRd "heads");
-      B (ForeignObjRd "RawHeads");
-      B (ObjRd "heads");
-      B (PtrWr "heads");
-      B (PtrRd "Clock");
-      B (PtrWr "Clock");
-      B (Rel LSelf W)];
-    (* Join #37 *) [B (Foreign "GetID");
-      B (Hook "join.before-heads");
-      B (Foreign "RawHeads");
-      B (Hook "join.before-entries");
-      B (Foreign "GetEntries");
-      B (Acq LSelf W);
-      B (Hook "join.locked");
-      B (ForeignObjRd "RawHeads");
-      B (Hook "join.diffed");
-      WaitChildren;
-      B (CapRd "err");
-      B (PtrRd "heads");
-      B (ForeignObjRd "RawHeads");
-      B (ObjRd "heads");
-      B (PtrWr "heads");
-      B (PtrRd "Entries");
-      B (ObjRd "Entries");
-      B (PtrWr "Entries");
-      B (PtrRd "Clock");
-      B (PtrWr "Clock");
-      B (Rel LSelf W)];
-    (* Join #38 *) [B (Foreign "GetID");
-      B (Hook "join.before-heads");
-      B (Foreign "RawHeads");
-      B (Hook "join.before-entries");
-      B (Foreign "GetEntries");
-      B (Acq LSelf W);
-      B (Hook "join.locked");
-      B (ForeignObjRd "RawHeads");
-      B (Hook "join.diffed");
-      WaitChildren;
-      B (CapRd "err");
-      B (PtrRd "heads");
-      B (ForeignObjRd "RawHeads");
-      B (ObjRd "heads");
-      B (PtrWr "heads");
-      B (PtrWr "Entries");
-      B (PtrRd "Clock");
-      B (PtrWr "Clock");
-      B (Rel LSelf W)];
-    (* Join #39 *) [B (Foreign "GetID");
-      B (Hook "join.before-heads");
-      B (Foreign "RawHeads");
-      B (Hook "join.before-entries");
-      B (Foreign "GetEntries");
-      B (Acq LSelf W);
-      B (Hook "join.locked");
-      B (ForeignObjRd "RawHeads");
-      B (Hook "join.diffed");
-      WaitChildren;
-      B (CapRd "err");
-      B (Rel LSelf W)];
-    (* Join #40 *) [B (Foreign "GetID");
-      B (Hook "join.before-heads");
-      B (Foreign "RawHeads");
-      B (Hook "join.before-entries");
-      B (Foreign "GetEntries");
-      B (Acq LSelf W);
-      B (Hook "join.locked");
-      B (ForeignObjRd "RawHeads");
-      B (PtrRd "Entries");
-      B (Hook "join.diffed");
-      Spawn [[Acq (LLocal "errLock") W; CapWr "err"; Rel (LLocal "errLock") W];
-        [PtrRd "Identity"];
-        [PtrRd "Identity"; Acq (LLocal "errLock") W; CapWr "err"; Rel (LLocal "errLock") W]];
-      Spawn [[Acq (LLocal "errLock") W; CapWr "err"; Rel (LLocal "errLock") W];
-        [PtrRd "Identity"];
-        [PtrRd "Identity"; Acq (LLocal "errLock") W; CapWr "err"; Rel (LLocal "errLock") W]];
-      WaitChildren;
-      B (CapRd "err");
-      B (PtrRd "Entries");
-      B (ObjWr "Entries");
-      B (PtrRd "heads");
-      B (ForeignObjRd "RawHeads");
-      B (ObjRd "heads");
-      B (PtrRd "Next");
-      B (ObjRd "Next");
-      B (PtrWr "heads");
-      B (ObjRd "Entries");
-      B (PtrWr "Entries");
-      B (PtrRd "Clock");
-      B (PtrWr "Clock");
-      B (Rel LSelf W)];
-    (* Join #41 *) [B (Foreign "GetID");
-      B (Hook "join.before-heads");
-      B (Foreign "RawHeads");
-      B (Hook "join.before-entries");
-      B (Foreign "GetEntries");
-      B (Acq LSelf W);
-      B (Hook "join.locked");
-      B (ForeignObjRd "RawHeads");
-      B (PtrRd "Entries");
-      B (Hook "join.diffed");
-      Spawn [[Acq (LLocal "errLock") W; CapWr "err"; Rel (LLocal "errLock") W];
-        [PtrRd "Identity"];
-        [PtrRd "Identity"; Acq (LLocal "errLock") W; CapWr "err"; Rel (LLocal "errLock") W]];
-      Spawn [[Acq (LLocal "errLock") W; CapWr "err"; Rel (LLocal "errLock") W];
-        [PtrRd "Identity"];
-        [PtrRd "Identity"; Acq (LLocal "errLock") W; CapWr "err"; Rel (LLocal "errLock") W]];
-      WaitChildren;
-      B (CapRd "err");
-      B (PtrRd "Entries");
-      B (ObjWr "Entries");
-      B (PtrRd "heads");
-      B (ForeignObjRd "RawHeads");
-      B (ObjRd "heads");
-      B (PtrRd "Next");
-      B (ObjRd "Next");
-      B (PtrWr "heads");
-      B (PtrRd "Clock");
-      B (PtrWr "Clock");
-      B (Rel LSelf W)];
-    (* Join #42 *) [B (Foreign "GetID");
-      B (Hook "join.before-heads");
-      B (Foreign "RawHeads");
-      B (Hook "join.before-entries");
-      B (Foreign "GetEntries");
-      B (Acq LSelf W);
-      B (Hook "join.locked");
-      B (ForeignObjRd "RawHeads");
-      B (PtrRd "Entries");
-      B (Hook "join.diffed");
-      Spawn [[Acq (LLocal "errLock") W; CapWr "err"; Rel (LLocal "errLock") W];
-        [PtrRd "Identity"];
-        [PtrRd "Identity"; Acq (LLocal "errLock") W; CapWr "err"; Rel (LLocal "errLock") W]];
-      Spawn [[Acq (LLocal "errLock") W; CapWr "err"; Rel (LLocal "errLock") W];
-        [PtrRd "Identity"];
-        [PtrRd "Identity"; Acq (LLocal "errLock") W; CapWr "err"; Rel (LLocal "errLock") W]];
-      WaitChildren;
-      B (CapRd "err");
-      B (PtrRd "Entries");
-      B (ObjWr "Entries");
-      B (PtrRd "heads");
-      B (ForeignObjRd "RawHeads");
-      B (ObjRd "heads");
-      B (PtrRd "Next");
-      B (ObjRd "Next");
-      B (PtrWr "heads");
-      B (PtrWr "Entries");
-      B (PtrRd "Clock");
-      B (PtrWr "Clock");
-      B (Rel LSelf W)];
-    (* Join #43 *) [B (Foreign "GetID");
-      B (Hook "join.before-heads");
-      B (Foreign "RawHeads");
-      B (Hook "join.before-entries");
-      B (Foreign "GetEntries");
-      B (Acq LSelf W);
-      B (Hook "join.locked");
-      B (ForeignObjRd "RawHeads");
-      B (PtrRd "Entries");
-      B (Hook "join.diffed");
-      Spawn [[Acq (LLocal "errLock") W; CapWr "err"; Rel (LLocal "errLock") W];
-        [PtrRd "Identity"];
-        [PtrRd "Identity"; Acq (LLocal "errLock") W; CapWr "err"; Rel (LLocal "errLock") W]];
-      Spawn [[Acq (LLocal "errLock") W; CapWr "err"; Rel (LLocal "errLock") W];
-        [PtrRd "Identity"];
-        [PtrRd "Identity"; Acq (LLocal "errLock") W; CapWr "err"; Rel (LLocal "errLock") W]];
-      WaitChildren;
-      B (CapRd "err");
-      B (PtrRd "Entries");
-      B (ObjWr "Entries");
-      B (PtrRd "heads");
-      B (ForeignObjRd "RawHeads");
-      B (ObjRd "heads");
-      B (PtrWr "heads");
-      B (ObjRd "Entries");
-      B (PtrWr "Entries");
-      B (PtrRd "Clock");
-      B (PtrWr "Clock");
-      B (Rel LSelf W)];
-    (* Join #44 *) [B (Foreign "GetID");
-      B (Hook "join.before-heads");
-      B (Foreign "RawHeads");
-      B (Hook "join.before-entries");
-      B (Foreign "GetEntries");
-      B (Acq LSelf W);
-      B (Hook "join.locked");
-      B (ForeignObjRd "RawHeads");
-      B (PtrRd "Entries");
-      B (Hook "join.diffed");
-      Spawn [[Acq (LLocal "errLock") W; CapWr "err"; Rel (LLocal "errLock") W];
-        [PtrRd "Identity"];
-        [PtrRd "Identity"; Acq (LLocal "errLock") W; CapWr "err"; Rel (LLocal "errLock") W]];
-      Spawn [[Acq (LLocal "errLock") W; CapWr "err"; Rel (LLocal "errLock") W];
-        [PtrRd "Identity"];
-        [PtrRd "Identity"; Acq (LLocal "errLock") W; CapWr "err"; Rel (LLocal "errLock") W]];
-      WaitChildren;
-      B (CapRd "err");
-      B (PtrRd "Entries");
-      B (ObjWr "Entries");
-      B (PtrRd "heads");
-      B (ForeignObjRd "RawHeads");
-      B (ObjRd "heads");
-      B (PtrWr "heads");
-      B (PtrRd "Clock");
-      B (PtrWr "Clock");
-      B (Rel LSelf W)];
-    (* Join #45 *) [B (Foreign "GetID");
-      B (Hook "join.before-heads");
-      B (Foreign "RawHeads");
-      B (Hook "join.before-entries");
-      B (Foreign "GetEntries");
-      B (Acq LSelf W);
-      B (Hook "join.locked");
-      B (ForeignObjRd "RawHeads");
-      B (PtrRd "Entries");
-      B (Hook "join.diffed");
-      Spawn [[Acq (LLocal "errLock") W; CapWr "err"; Rel (LLocal "errLock") W];
-        [PtrRd "Identity"];
-        [PtrRd "Identity"; Acq (LLocal "errLock") W; CapWr "err"; Rel (LLocal "errLock") W]];
-      Spawn [[Acq (LLocal "errLock") W; CapWr "err"; Rel (LLocal "errLock") W];
-        [PtrRd "Identity"];
-        [PtrRd "Identity"; Acq (LLocal "errLock") W; CapWr "err"; Rel (LLocal "errLock") W]];
-      WaitChildren;
-      B (CapRd "err");
-      B (PtrRd "Entries");
-      B (ObjWr "Entries");
-      B (PtrRd "heads");
-      B (ForeignObjRd "RawHeads");
-      B (ObjRd "heads");
-      B (PtrWr "heads");
-      B (PtrWr "Entries");
-      B (PtrRd "Clock");
-      B (PtrWr "Clock");
-      B (Rel LSelf W)];
-    (* Join #46 *) [B (Foreign "GetID");
-      B (Hook "join.before-heads");
-      B (Foreign "RawHeads");
-      B (Hook "join.before-entries");
-      B (Foreign "GetEntries");
-      B (Acq LSelf W);
-      B (Hook "join.locked");
-      B (ForeignObjRd "RawHeads");
-      B (PtrRd "Entries");
-      B (Hook "join.diffed");
-      Spawn [[Acq (LLocal "errLock") W; CapWr "err"; Rel (LLocal "errLock") W];
-        [PtrRd "Identity"];
-        [PtrRd "Identity"; Acq (LLocal "errLock") W; CapWr "err"; Rel (LLocal "errLock") W]];
-      Spawn [[Acq (LLocal "errLock") W; CapWr "err"; Rel (LLocal "errLock") W];
-        [PtrRd "Identity"];
-        [PtrRd "Identity"; Acq (LLocal "errLock") W; CapWr "err"; Rel (LLocal "errLock") W]];
-      WaitChildren;
-      B (CapRd "err");
-      B (PtrRd "Next");
-      B (ObjWr "Next");
-      B (PtrRd "Entries");
-      B (ObjWr "Entries");
-      B (PtrRd "heads");
-      B (ForeignObjRd "RawHeads");
-      B (ObjRd "heads");
-      B (ObjRd "Next");
-      B (PtrWr "heads");
-      B (ObjRd "Entries");
-      B (PtrWr "Entries");
-      B (PtrRd "Clock");
-      B (PtrWr "Clock");
-      B (Rel LSelf W)];
-    (* Join #47 *) [B (Foreign "GetID");
-      B (Hook "join.before-heads");
-      B (Foreign "RawHeads");
-      B (Hook "join.before-entries");
-      B (Foreign "GetEntries");
-      B (Acq LSelf W);
-      B (Hook "join.locked");
-      B (ForeignObjRd "RawHeads");
-      B (PtrRd "Entries");
-      B (Hook "join.diffed");
-      Spawn [[Acq (LLocal "errLock") W; CapWr "err"; Rel (LLocal "errLock") W];
-        [PtrRd "Identity"];
-        [PtrRd "Identity"; Acq (LLocal "errLock") W; CapWr "err"; Rel (LLocal "errLock") W]];
-      Spawn [[Acq (LLocal "errLock") W; CapWr "err"; Rel (LLocal "errLock") W];
-        [PtrRd "Identity"];
-        [PtrRd "Identity"; Acq (LLocal "errLock") W; CapWr "err"; Rel (LLocal "errLock") W]];
-      WaitChildren;
-      B (CapRd "err");
-      B (PtrRd "Next");
-      B (ObjWr "Next");
-      B (PtrRd "Entries");
-      B (ObjWr "Entries");
-      B (PtrRd "heads");
-      B (ForeignObjRd "RawHeads");
-      B (ObjRd "heads");
-      B (ObjRd "Next");
-      B (PtrWr "heads");
-      B (PtrRd "Clock");
-      B (PtrWr "Clock");
-      B (Rel LSelf W)];
-    (* Join #48 *) [B (Foreign "GetID");
-      B (Hook "join.before-heads");
-      B (Foreign "RawHeads");
-      B (Hook "join.before-entries");
-      B (Foreign "GetEntries");
-      B (Acq LSelf W);
-      B (Hook "join.locked");
-      B (ForeignObjRd "RawHeads");
-      B (PtrRd "Entries");
-      B (Hook "join.diffed");
-      Spawn [[Acq (LLocal "errLock") W; CapWr "err"; Rel (LLocal "errLock") W];
-        [PtrRd "Identity"];
-        [PtrRd "Identity"; Acq (LLocal "errLock") W; CapWr "err"; Rel (LLocal "errLock") W]];
-      Spawn [[Acq (LLocal "errLock") W; CapWr "err"; Rel (LLocal "errLock") W];
-        [PtrRd "Identity"];
-        [PtrRd "Identity"; Acq (LLocal "errLock") W; CapWr "err"; Rel (LLocal "errLock") W]];
-      WaitChildren;
-      B (CapRd "err");
-      B (PtrRd "Next");
-      B (ObjWr "Next");
-      B (PtrRd "Entries");
-      B (ObjWr "Entries");
-      B (PtrRd "heads");
-      B (ForeignObjRd "RawHeads");
-      B (ObjRd "heads");
-      B (ObjRd "Next");
-      B (PtrWr "heads");
-      B (PtrWr "Entries");
-      B (PtrRd "Clock");
-      B (PtrWr "Clock");
-      B (Rel LSelf W)];
-    (* Join #49 *) [B (Foreign "GetID");
-      B (Hook "join.before-heads");
-      B (Foreign "RawHeads");
-      B (Hook "join.before-entries");
-      B (Foreign "GetEntries");
-      B (Acq LSelf W);
-      B (Hook "join.locked");
-      B (ForeignObjRd "RawHeads");
-      B (PtrRd "Entries");
-      B (Hook "join.diffed");
-      Spawn [[Acq (LLocal "errLock") W; CapWr "err"; Rel (LLocal "errLock") W];
-        [PtrRd "Identity"];
-        [PtrRd "Identity"; Acq (LLocal "errLock") W; CapWr "err"; Rel (LLocal "errLock") W]];
-      Spawn [[Acq (LLocal "errLock") W; CapWr "err"; Rel (LLocal "errLock") W];
-        [PtrRd "Identity"];
-        [PtrRd "Identity"; Acq (LLocal "errLock") W; CapWr "err"; Rel (LLocal "errLock") W]];
-      WaitChildren;
-      B (CapRd "err");
-      B (PtrRd "Next");
-      B (ObjWr "Next");
-      B (PtrRd "Entries");
-      B (ObjWr "Entries");
-      B (PtrRd "heads");
-      B (ForeignObjRd "RawHeads");
-      B (ObjRd "heads");
-      B (PtrWr "heads");
-      B (ObjRd "Entries");
-      B (PtrWr "Entries");
-      B (PtrRd "Clock");
-      B (PtrWr "Clock");
-      B (Rel LSelf W)];
-    (* Join #50 *) [B (Foreign "GetID");
-      B (Hook "join.before-heads");
-      B (Foreign "RawHeads");
-      B (Hook "join.before-entries");
-      B (Foreign "GetEntries");
-      B (Acq LSelf W);
-      B (Hook "join.locked");
-      B (ForeignObjRd "RawHeads");
-      B (PtrRd "Entries");
-      B (Hook "join.diffed");
-      Spawn [[Acq (LLocal "errLock") W; CapWr "err"; Rel (LLocal "errLock") W];
-        [PtrRd "Identity"];
-        [PtrRd "Identity"; Acq (LLocal "errLock") W; CapWr "err"; Rel (LLocal "errLock") W]];
-      Spawn [[Acq (LLocal "errLock") W; CapWr "err"; Rel (LLocal "errLock") W];
-        [PtrRd "Identity"];
-        [PtrRd "Identity"; Acq (LLocal "errLock") W; CapWr "err"; Rel (LLocal "errLock") W]];
-      WaitChildren;
-      B (CapRd "err");
-      B (PtrRd "Next");
-      B (ObjWr "Next");
-      B (PtrRd "Entries");
-      B (ObjWr "Entries");
-      B (PtrRd "heads");
-      B (ForeignObjRd "RawHeads");
-      B (ObjRd "heads");
-      B (PtrWr "heads");
-      B (PtrRd "Clock");
-      B (PtrWr "Clock");
-      B (Rel LSelf W)];
-    (* Join #51 *) [B (Foreign "GetID");
-      B (Hook "join.before-heads");
-      B (Foreign "RawHeads");
-      B (Hook "join.before-entries");
-      B (Foreign "GetEntries");
-      B (Acq LSelf W);
-      B (Hook "join.locked");
-      B (ForeignObjRd "RawHeads");
-      B (PtrRd "Entries");
-      B (Hook "join.diffed");
-      Spawn [[Acq (LLocal "errLock") W; CapWr "err"; Rel (LLocal "errLock") W];
-        [PtrRd "Identity"];
-        [PtrRd "Identity"; Acq (LLocal "errLock") W; CapWr "err"; Rel (LLocal "errLock") W]];
-      Spawn [[Acq (LLocal "errLock") W; CapWr "err"; Rel (LLocal "errLock") W];
-        [PtrRd "Identity"];
-        [PtrRd "Identity"; Acq (LLocal "errLock") W; CapWr "err"; Rel (LLocal "errLock") W]];
-      WaitChildren;
-      B (CapRd "err");
-      B (PtrRd "Next");
-      B (ObjWr "Next");
-      B (PtrRd "Entries");
-      B (ObjWr "Entries");
-      B (PtrRd "heads");
-      B (ForeignObjRd "RawHeads");
-      B (ObjRd "heads");
-      B (PtrWr "heads");
-      B (PtrWr "Entries");
-      B (PtrRd "Clock");
-      B (PtrWr "Clock");
-      B (Rel LSelf W)];
-    (* Join #52 *) [B (Foreign "GetID");
-      B (Hook "join.before-heads");
-      B (Foreign "RawHeads");
-      B (Hook "join.before-entries");
-      B (Foreign "GetEntries");
-      B (Acq LSelf W);
-      B (Hook "join.locked");
-      B (ForeignObjRd "RawHeads");
-      B (PtrRd "Entries");
-      B (Hook "join.diffed");
-      Spawn [[Acq (LLocal "errLock") W; CapWr "err"; Rel (LLocal "errLock") W];
-        [PtrRd "Identity"];
-        [PtrRd "Identity"; Acq (LLocal "errLock") W; CapWr "err"; Rel (LLocal "errLock") W]];
-      Spawn [[Acq (LLocal "errLock") W; CapWr "err"; Rel (LLocal "errLock") W];
-        [PtrRd "Identity"];
-        [PtrRd "Identity"; Acq (LLocal "errLock") W; CapWr "err"; Rel (LLocal "errLock") W]];
-      WaitChildren;
-      B (CapRd "err");
-      B (PtrRd "heads");
-      B (ForeignObjRd "RawHeads");
-      B (ObjRd "heads");
-      B (PtrRd "Next");
-      B (ObjRd "Next");
-      B (PtrWr "heads");
-      B (PtrRd "Clock");
-      B (PtrWr "Clock");
-      B (Rel LSelf W)];
-    (* Join #53 *) [B (Foreign "GetID");
-      B (Hook "join.before-heads");
-      B (Foreign "RawHeads");
-      B (Hook "join.before-entries");
-      B (Foreign "GetEntries");
-      B (Acq LSelf W);
-      B (Hook "join.locked");
-      B (ForeignObjRd "RawHeads");
-      B (PtrRd "Entries");
-      B (Hook "join.diffed");
-      Spawn [[Acq (LLocal "errLock") W; CapWr "err"; Rel (LLocal "errLock") W];
-        [PtrRd "Identity"];
-        [PtrRd "Identity"; Acq (LLocal "errLock") W; CapWr "err"; Rel (LLocal "errLock") W]];
-      Spawn [[Acq (LLocal "errLock") W; CapWr "err"; Rel (LLocal "errLock") W];
-        [PtrRd "Identity"];
-        [PtrRd "Identity"; Acq (LLocal "errLock") W; CapWr "err"; Rel (LLocal "errLock") W]];
-      WaitChildren;
-      B (CapRd "err");
-      B (PtrRd "heads");
-      B (ForeignObjRd "RawHeads");
-      B (ObjRd "heads");
-      B (PtrRd "Next");
-      B (ObjRd "Next");
-      B (PtrWr "heads");
-      B (PtrRd "Entries");
-      B (ObjRd "Entries");
-      B (PtrWr "Entries");
-      B (PtrRd "Clock");
-      B (PtrWr "Clock");
-      B (Rel LSelf W)];
-    (* Join #54 *) [B (Foreign "GetID");
-      B (Hook "join.before-heads");
-      B (Foreign "RawHeads");
-      B (Hook "join.before-entries");
-      B (Foreign "GetEntries");
-      B (Acq LSelf W);
-      B (Hook "join.locked");
-      B (ForeignObjRd "RawHeads");
-      B (PtrRd "Entries");
-      B (Hook "join.diffed");
-      Spawn [[Acq (LLocal "errLock") W; CapWr "err"; Rel (LLocal "errLock") W];
-        [PtrRd "Identity"];
-        [PtrRd "Identity"; Acq (LLocal "errLock") W; CapWr "err"; Rel (LLocal "errLock") W]];
-      Spawn [[Acq (LLocal "errLock") W; CapWr "err"; Rel (LLocal "errLock") W];
-        [PtrRd "Identity"];
-        [PtrRd "Identity"; Acq (LLocal "errLock") W; CapWr "err"; Rel (LLocal "errLock") W]];
-      WaitChildren;
-      B (CapRd "err");
-      B (PtrRd "heads");
-      B (ForeignObjRd "RawHeads");
-      B (ObjRd "heads");
-      B (PtrRd "Next");
-      B (ObjRd "Next");
-      B (PtrWr "heads");
-      B (PtrWr "Entries");
-      B (PtrRd "Clock");
-      B (PtrWr "Clock");
-      B (Rel LSelf W)];
-    (* Join #55 *) [B (Foreign "GetID");
-      B (Hook "join.before-heads");
-      B (Foreign "RawHeads");
-      B (Hook "join.before-entries");
-      B (Foreign "GetEntries");
-      B (Acq LSelf W);
-      B (Hook "join.locked");
-      B (ForeignObjRd "RawHeads");
-      B (PtrRd "Entries");
-      B (Hook "join.diffed");
-      Spawn [[Acq (LLocal "errLock") W; CapWr "err"; Rel (LLocal "errLock") W];
-        [PtrRd "Identity"];
-        [PtrRd "Identity"; Acq (LLocal "errLock") W; CapWr "err"; Rel (LLocal "errLock") W]];
-      Spawn [[Acq (LLocal "errLock") W; CapWr "err"; Rel (LLocal "errLock") W];
-        [PtrRd "Identity"];
-        [PtrRd "Identity"; Acq (LLocal "errLock") W; CapWr "err"; Rel (LLocal "errLock") W]];
-      WaitChildren;
-      B (CapRd "err");
-      B (PtrRd "heads");
-      B (ForeignObjRd "RawHeads");
-      B (ObjRd "heads");
-      B (PtrWr "heads");
-      B (PtrRd "Clock");
-      B (PtrWr "Clock");
-      B (Rel LSelf W)];
-    (* Join #56 *) [B (Foreign "GetID");
-      B (Hook "join.before-heads");
-      B (Foreign "RawHeads");
-      B (Hook "join.before-entries");
-      B (Foreign "GetEntries");
-      B (Acq LSelf W);
-      B (Hook "join.locked");
-      B (ForeignObjRd "RawHeads");
-      B (PtrRd "Entries");
-      B (Hook "join.diffed");
-      Spawn [[Acq (LLocal "errLock") W; CapWr "err"; Rel (LLocal "errLock") W];
-        [PtrRd "Identity"];
-        [PtrRd "Identity"; Acq (LLocal "errLock") W; CapWr "err"; Rel (LLocal "errLock") W]];
-      Spawn [[Acq (LLocal "errLock") W; CapWr "err"; Rel (LLocal "errLock") W];
-        [PtrRd "Identity"];
-        [PtrRd "Identity"; Acq (LLocal "errLock") W; CapWr "err"; Rel (LLocal "errLock") W]];
-      WaitChildren;
-      B (CapRd "err");
-      B (PtrRd "heads");
-      B (ForeignObjRd "RawHeads");
-      B (ObjRd "heads");
-      B (PtrWr "heads");
-      B (PtrRd "Entries");
-      B (ObjRd "Entries");
-      B (PtrWr "Entries");
-      B (PtrRd "Clock");
-      B (PtrWr "Clock");
-      B (Rel LSelf W)];
-    (* Join #57 *) [B (Foreign "GetID");
-      B (Hook "join.before-heads");
-      B (Foreign "RawHeads");
-      B (Hook "join.before-entries");
-      B (Foreign "GetEntries");
-      B (Acq LSelf W);
-      B (Hook "join.locked");
-      B (ForeignObjRd "RawHeads");
-      B (PtrRd "Entries");
-      B (Hook "join.diffed");
-      Spawn [[Acq (LLocal "errLock") W; CapWr "err"; Rel (LLocal "errLock") W];
-        [PtrRd "Identity"];
-        [PtrRd "Identity"; Acq (LLocal "errLock") W; CapWr "err"; Rel (LLocal "errLock") W]];
-      Spawn [[Acq (LLocal "errLock") W; CapWr "err"; Rel (LLocal "errLock") W];
-        [PtrRd "Identity"];
-        [PtrRd "Identity"; Acq (LLocal "errLock") W; CapWr "err"; Rel (LLocal "errLock") W]];
-      WaitChildren;
-      B (CapRd "err");
-      B (PtrRd "heads");
-      B (ForeignObjRd "RawHeads");
-      B (ObjRd "heads");
-      B (PtrWr "heads");
-      B (PtrWr "Entries");
-      B (PtrRd "Clock");
-      B (PtrWr "Clock");
-      B (Rel LSelf W)];
-    (* Join #58 *) [B (Foreign "GetID");
-      B (Hook "join.before-heads");
-      B (Foreign "RawHeads");
-      B (Hook "join.before-entries");
-      B (Foreign "GetEntries");
-      B (Acq LSelf W);
-      B (Hook "join.locked");
-      B (ForeignObjRd "RawHeads");
-      B (PtrRd "Entries");
-      B (Hook "join.diffed");
-      Spawn [[Acq (LLocal "errLock") W; CapWr "err"; Rel (LLocal "errLock") W];
-        [PtrRd "Identity"];
-        [PtrRd "Identity"; Acq (LLocal "errLock") W; CapWr "err"; Rel (LLocal "errLock") W]];
-      Spawn [[Acq (LLocal "errLock") W; CapWr "err"; Rel (LLocal "errLock") W];
-        [PtrRd "Identity"];
-        [PtrRd "Identity"; Acq (LLocal "errLock") W; CapWr "err"; Rel (LLocal "errLock") W]];
-      WaitChildren;
-      B (CapRd "err");
-      B (Rel LSelf W)];
-    (* Join #59 *) [B (Foreign "GetID");
-      B (Hook "join.before-heads");
-      B (Foreign "RawHeads");
-      B (Hook "join.before-entries");
-      B (Foreign "GetEntries");
-      B (Acq LSelf W);
-      B (Hook "join.locked");
-      B (ForeignObjRd "RawHeads");
-      B (PtrRd "Entries");
-      B (Hook "join.diffed");
-      WaitChildren;
-      B (CapRd "err");
-      B (PtrRd "Entries");
-      B (ObjWr "Entries");
-      B (PtrRd "heads");
-      B (ForeignObjRd "RawHeads");
-      B (ObjRd "heads");
-      B (PtrRd "Next");
-      B (ObjRd "Next");
-      B (PtrWr "heads");
-      B (ObjRd "Entries");
-      B (PtrWr "Entries");
-      B (PtrRd "Clock");
-      B (PtrWr "Clock");
-      B (Rel LSelf W)];
-    (* Join #60 *) [B (Foreign "GetID");
-      B (Hook "join.before-heads");
-      B (Foreign "RawHeads");
-      B (Hook "join.before-entries");
-      B (Foreign "GetEntries");
-      B (Acq LSelf W);
-      B (Hook "join.locked");
-      B (ForeignObjRd "RawHeads");
-      B (PtrRd "Entries");
-      B (Hook "join.diffed");
-      WaitChildren;
-      B (CapRd "err");
-      B (PtrRd "Entries");
-      B (ObjWr "Entries");
-      B (PtrRd "heads");
-      B (ForeignObjRd "RawHeads");
-      B (ObjRd "heads");
-      B (PtrRd "Next");
-      B (ObjRd "Next");
-      B (PtrWr "heads");
-      B (PtrRd "Clock");
-      B (PtrWr "Clock");
-      B (Rel LSelf W)];
-    (* Join #61 *) [B (Foreign "GetID");
-      B (Hook "join.before-heads");
-      B (Foreign "RawHeads");
-      B (Hook "join.before-entries");
-      B (Foreign "GetEntries");
-      B (Acq LSelf W);
-      B (Hook "join.locked");
-      B (ForeignObjRd "RawHeads");
-      B (PtrRd "Entries");
-      B (Hook "join.diffed");
-      WaitChildren;
-      B (CapRd "err");
-      B (PtrRd "Entries");
-      B (ObjWr "Entries");
-      B (PtrRd "heads");
-      B (ForeignObjRd "RawHeads");
-      B (ObjRd "heads");
-      B (PtrRd "Next");
-      B (ObjRd "Next");
-      B (PtrWr "heads");
-      B (PtrWr "Entries");
-      B (PtrRd "Clock");
-      B (PtrWr "Clock");
-      B (Rel LSelf W)];
-    (* Join #62 *) [B (Foreign "GetID");
-      B (Hook "join.before-heads");
-      B (Foreign "RawHeads");
-      B (Hook "join.before-entries");
-      B (Foreign "GetEntries");
-      B (Acq LSelf W);
-      B (Hook "join.locked");
-      B (ForeignObjRd "RawHeads");
-      B (PtrRd "Entries");
-      B (Hook "join.diffed");
-      WaitChildren;
-      B (CapRd "err");
-      B (PtrRd "Entries");
-      B (ObjWr "Entries");
-      B (PtrRd "heads");
-      B (ForeignObjRd "RawHeads");
-      B (ObjRd "heads");
-      B (PtrWr "heads");
-      B (ObjRd "Entries");
-      B (PtrWr "Entries");
-      B (PtrRd "Clock");
-      B (PtrWr "Clock");
-      B (Rel LSelf W)];
-    (* Join #63 *) [B (Foreign "GetID");
-      B (Hook "join.before-heads");
-      B (Foreign "RawHeads");
-      B (Hook "join.before-entries");
-      B (Foreign "GetEntries");
-      B (Acq LSelf W);
-      B (Hook "join.locked");
-      B (ForeignObjRd "RawHeads");
-      B (PtrRd "Entries");
-      B (Hook "join.diffed");
-      WaitChildren;
-      B (CapRd "err");
-      B (PtrRd "Entries");
-      B (ObjWr "Entries");
-      B (PtrRd "heads");
-      B (ForeignObjRd "RawHeads");
-      B (ObjRd "heads");
-      B (PtrWr "heads");
-      B (PtrRd "Clock");
-      B (PtrWr "Clock");
-      B (Rel LSelf W)];
-    (* Join #64 *) [B (Foreign "GetID");
-      B (Hook "join.before-heads");
-      B (Foreign "RawHeads");
-      B (Hook "join.before-entries");
-      B (Foreign "GetEntries");
-      B (Acq LSelf W);
-      B (Hook "join.locked");
-      B (ForeignObjRd "RawHeads");
-      B (PtrRd "Entries");
-      B (Hook "join.diffed");
-      WaitChildren;
-      B (CapRd "err");
-      B (PtrRd "Entries");
-      B (ObjWr "Entries");
-      B (PtrRd "heads");
-      B (ForeignObjRd "RawHeads");
-      B (ObjRd "heads");
-      B (PtrWr "heads");
-      B (PtrWr "Entries");
-      B (PtrRd "Clock");
-      B (PtrWr "Clock");
-      B (Rel LSelf W)];
-    (* Join #65 *) [B (Foreign "GetID");
-      B (Hook "join.before-heads");
-      B (Foreign "RawHeads");
-      B (Hook "join.before-entries");
-      B (Foreign "GetEntries");
-      B (Acq LSelf W);
-      B (Hook "join.locked");
-      B (ForeignObjRd "RawHeads");
-      B (PtrRd "Entries");
-      B (Hook "join.diffed");
-      WaitChildren;
-      B (CapRd "err");
-      B (PtrRd "Next");
-      B (ObjWr "Next");
-      B (PtrRd "Entries");
-      B (ObjWr "Entries");
-      B (PtrRd "heads");
-      B (ForeignObjRd "RawHeads");
-      B (ObjRd "heads");
-      B (ObjRd "Next");
-      B (PtrWr "heads");
-      B (ObjRd "Entries");
-      B (PtrWr "Entries");
-      B (PtrRd "Clock");
-      B (PtrWr "Clock");
-      B (Rel LSelf W)];
-    (* Join #66 *) [B (Foreign "GetID");
-      B (Hook "join.before-heads");
-      B (Foreign "RawHeads");
-      B (Hook "join.before-entries");
-      B (Foreign "GetEntries");
-      B (Acq LSelf W);
-      B (Hook "join.locked");
-      B (ForeignObjRd "RawHeads");
-      B (PtrRd "Entries");
-      B (Hook "join.diffed");
-      WaitChildren;
-      B (CapRd "err");
-      B (PtrRd "Next");
-      B (ObjWr "Next");
-      B (PtrRd "Entries");
-      B (ObjWr "Entries");
-      B (PtrRd "heads");
-      B (ForeignObjRd "RawHeads");
-      B (ObjRd "heads");
-      B (ObjRd "Next");
-      B (PtrWr "heads");
-      B (PtrRd "Clock");
-      B (PtrWr "Clock");
-      B (Rel LSelf W)];
-    (* Join #67 *) [B (Foreign "GetID");
-      B (Hook "join.before-heads");
-      B (Foreign "RawHeads");
-      B (Hook "join.before-entries");
-      B (Foreign "GetEntries");
-      B (Acq LSelf W);
-      B (Hook "join.locked");
-      B (ForeignObjRd "RawHeads");
-      B (PtrRd "Entries");
-      B (Hook "join.diffed");
-      WaitChildren;
-      B (CapRd "err");
-      B (PtrRd "Next");
-      B (ObjWr "Next");
-      B (PtrRd "Entries");
-      B (ObjWr "Entries");
-      B (PtrRd "heads");
-      B (ForeignObjRd "RawHeads");
-      B (ObjRd "heads");
-      B (ObjRd "Next");
-      B (PtrWr "heads");
-      B (PtrWr "Entries");
-      B (PtrRd "Clock");
-      B (PtrWr "Clock");
-      B (Rel LSelf W)];
-    (* Join #68 *) [B (Foreign "GetID");
-      B (Hook "join.before-heads");
-      B (Foreign "RawHeads");
-      B (Hook "join.before-entries");
-      B (Foreign "GetEntries");
-      B (Acq LSelf W);
-      B (Hook "join.locked");
-      B (ForeignObjRd "RawHeads");
-      B (PtrRd "Entries");
-      B (Hook "join.diffed");
-      WaitChildren;
-      B (CapRd "err");
-      B (PtrRd "Next");
-      B (ObjWr "Next");
-      B (PtrRd "Entries");
-      B (ObjWr "Entries");
-      B (PtrRd "heads");
-      B (ForeignObjRd "RawHeads");
-      B (ObjRd "heads");
-      B (PtrWr "heads");
-      B (ObjRd "Entries");
-      B (PtrWr "Entries");
-      B (PtrRd "Clock");
-      B (PtrWr "Clock");
-      B (Rel LSelf W)];
-    (* Join #69 *) [B (Foreign "GetID");
-      B (Hook "join.before-heads");
-      B (Foreign "RawHeads");
-      B (Hook "join.before-entries");
-      B (Foreign "GetEntries");
-      B (Acq LSelf W);
-      B (Hook "join.locked");
-      B (ForeignObjRd "RawHeads");
-      B (PtrRd "Entries");
-      B (Hook "join.diffed");
-      WaitChildren;
-      B (CapRd "err");
-      B (PtrRd "Next");
-      B (ObjWr "Next");
-      B (PtrRd "Entries");
-      B (ObjWr "Entries");
-      B (PtrRd "heads");
-      B (ForeignObjRd "RawHeads");
-      B (ObjRd "heads");
-      B (PtrWr "heads");
-      B (PtrRd "Clock");
-      B (PtrWr "Clock");
-      B (Rel LSelf W)];
-    (* Join #70 *) [B (Foreign "GetID");
-      B (Hook "join.before-heads");
-      B (Foreign "RawHeads");
-      B (Hook "join.before-entries");
-      B (Foreign "GetEntries");
-      B (Acq LSelf W);
-      B (Hook "join.locked");
-      B (ForeignObjRd "RawHeads");
-      B (PtrRd "Entries");
-      B (Hook "join.diffed");
-      WaitChildren;
-      B (CapRd "err");
-      B (PtrRd "Next");
-      B (ObjWr "Next");
-      B (PtrRd "Entries");
-      B (ObjWr "Entries");
-      B (PtrRd "heads");
-      B (ForeignObjRd "RawHeads");
-      B (ObjRd "heads");
-      B (PtrWr "heads");
-      B (PtrWr "Entries");
-      B (PtrRd "Clock");
-      B (PtrWr "Clock");
-      B (Rel LSelf W)];
-    (* Join #71 *) [B (Foreign "GetID");
-      B (Hook "join.before-heads");
-      B (Foreign "RawHeads");
-      B (Hook "join.before-entries");
-      B (Foreign "GetEntries");
-      B (Acq LSelf W);
-      B (Hook "join.locked");
-      B (ForeignObjRd "RawHeads");
-      B (PtrRd "Entries");
-      B (Hook "join.diffed");
-      WaitChildren;
-      B (CapRd "err");
-      B (PtrRd "heads");
-      B (ForeignObjRd "RawHeads");
-      B (ObjRd "heads");
-      B (PtrRd "Next");
-      B (ObjRd "Next");
-      B (PtrWr "heads");
-      B (PtrRd "Clock");
-      B (PtrWr "Clock");
-      B (Rel LSelf W)];
-    (* Join #72 *) [B (Foreign "GetID");
-      B (Hook "join.before-heads");
-      B (Foreign "RawHeads");
-      B (Hook "join.before-entries");
-      B (Foreign "GetEntries");
-      B (Acq LSelf W);
-      B (Hook "join.locked");
-      B (ForeignObjRd "RawHeads");
-      B (PtrRd "Entries");
-      B (Hook "join.diffed");
-      WaitChildren;
-      B (CapRd "err");
-      B (PtrRd "heads");
-      B (ForeignObjRd "RawHeads");
-      B (ObjRd "heads");
-      B (PtrRd "Next");
-      B (ObjRd "Next");
-      B (PtrWr "heads");
-      B (PtrRd "Entries");
-      B (ObjRd "Entries");
-      B (PtrWr "Entries");
-      B (PtrRd "Clock");
-      B (PtrWr "Clock");
-      B (Rel LSelf W)];
-    (* Join #73 *) [B (Foreign "GetID");
-      B (Hook "join.before-heads");
-      B (Foreign "RawHeads");
-      B (Hook "join.before-entries");
-      B (Foreign "GetEntries");
-      B (Acq LSelf W);
-      B (Hook "join.locked");
-      B (ForeignObjRd "RawHeads");
-      B (PtrRd "Entries");
-      B (Hook "join.diffed");
-      WaitChildren;
-      B (CapRd "err");
-      B (PtrRd "heads");
-      B (ForeignObjRd "RawHeads");
-      B (ObjRd "heads");
-      B (PtrRd "Next");
-      B (ObjRd "Next");
-      B (PtrWr "heads");
-      B (PtrWr "Entries");
-      B (PtrRd "Clock");
-      B (PtrWr "Clock");
-      B (Rel LSelf W)];
-    (* Join #74 *) [B (Foreign "GetID");
-      B (Hook "join.before-heads");
-      B (Foreign "RawHeads");
-      B (Hook "join.before-entries");
-      B (Foreign "GetEntries");
-      B (Acq LSelf W);
-      B (Hook "join.locked");
-      B (ForeignObjRd "RawHeads");
-      B (PtrRd "Entries");
-      B (Hook "join.diffed");
-      WaitChildren;
-      B (CapRd "err");
-      B (PtrRd "heads");
-      B (ForeignObjRd "RawHeads");
-      B (ObjRd "heads");
-      B (PtrWr "heads");
-      B (PtrRd "Clock");
-      B (PtrWr "Clock");
-      B (Rel LSelf W)];
-    (* Join #75 *) [B (Foreign "GetID");
-      B (Hook "join.before-heads");
-      B (Foreign "RawHeads");
-      B (Hook "join.before-entries");
-      B (Foreign "GetEntries");
-      B (Acq LSelf W);
-      B (Hook "join.locked");
-      B (ForeignObjRd "RawHeads");
-      B (PtrRd "Entries");
-      B (Hook "join.diffed");
-      WaitChildren;
-      B (CapRd "err");
-      B (PtrRd "heads");
-      B (ForeignObjRd "RawHeads");
-      B (ObjRd "heads");
-      B (PtrWr "heads");
-      B (PtrRd "Entries");
-      B (ObjRd "Entries");
-      B (PtrWr "Entries");
-      B (PtrRd "Clock");
-      B (PtrWr "Clock");
-      B (Rel LSelf W)];
-    (* Join #76 *) [B (Foreign "GetID");
-      B (Hook "join.before-heads");
-      B (Foreign "RawHeads");
-      B (Hook "join.before-entries");
-      B (Foreign "GetEntries");
-      B (Acq LSelf W);
-      B (Hook "join.locked");
-      B (ForeignObjRd "RawHeads");
-      B (PtrRd "Entries");
-      B (Hook "join.diffed");
-      WaitChildren;
-      B (CapRd "err");
-      B (PtrRd "heads");
-      B (ForeignObjRd "RawHeads");
-      B (ObjRd "heads");
-      B (PtrWr "heads");
-      B (PtrWr "Entries");
-      B (PtrRd "Clock");
-      B (PtrWr "Clock");
-      B (Rel LSelf W)];
-    (* Join #77 *) [B (Foreign "GetID");
-      B (Hook "join.before-heads");
-      B (Foreign "RawHeads");
-      B (Hook "join.before-entries");
-      B (Foreign "GetEntries");
-      B (Acq LSelf W);
-      B (Hook "join.locked");
-      B (ForeignObjRd "RawHeads");
-      B (PtrRd "Entries");
-      B (Hook "join.diffed");
-      WaitChildren;
-      B (CapRd "err");
-      B (Rel LSelf W)];
-    (* Join #78 *) [B (Foreign "GetID");
-      B (Hook "join.before-heads");
-      B (Foreign "RawHeads");
-      B (Hook "join.before-entries");
-      B (Foreign "GetEntries");
-      B (Acq LSelf W);
-      B (Hook "join.locked");
-      B (ForeignObjRd "RawHeads");
-      B (PtrRd "Entries");
-      B (ObjRd "Entries");
-      B (Hook "join.diffed");
-      Spawn [[Acq (LLocal "errLock") W; CapWr "err"; Rel (LLocal "errLock") W];
-        [PtrRd "Identity"];
-        [PtrRd "Identity"; Acq (LLocal "errLock") W; CapWr "err"; Rel (LLocal "errLock") W]];
-      Spawn [[Acq (LLocal "errLock") W; CapWr "err"; Rel (LLocal "errLock") W];
-        [PtrRd "Identity"];
-        [PtrRd "Identity"; Acq (LLocal "errLock") W; CapWr "err"; Rel (LLocal "errLock") W]];
-      WaitChildren;
-      B (CapRd "err");
-      B (PtrRd "Entries");
-      B (ObjWr "Entries");
-      B (PtrRd "heads");
-      B (ForeignObjRd "RawHeads");
-      B (ObjRd "heads");
-      B (PtrRd "Next");
-      B (ObjRd "Next");
-      B (PtrWr "heads");
-      B (ObjRd "Entries");
-      B (PtrWr "Entries");
-      B (PtrRd "Clock");
-      B (PtrWr "Clock");
-      B (Rel LSelf W)];
-    (* Join #79 *) [B (Foreign "GetID");
-      B (Hook "join.before-heads");
-      B (Foreign "RawHeads");
-      B (Hook "join.before-entries");
-      B (Foreign "GetEntries");
-      B (Acq LSelf W);
-      B (Hook "join.locked");
-      B (ForeignObjRd "RawHeads");
-      B (PtrRd "Entries");
-      B (ObjRd "Entries");
-      B (Hook "join.diffed");
-      Spawn [[Acq (LLocal "errLock") W; CapWr "err"; Rel (LLocal "errLock") W];
-        [PtrRd "Identity"];
-        [PtrRd "Identity"; Acq (LLocal "errLock") W; CapWr "err"; Rel (LLocal "errLock") W]];
-      Spawn [[Acq (LLocal "errLock") W; CapWr "err"; Rel (LLocal "errLock") W];
-        [PtrRd "Identity"];
-        [PtrRd "Identity"; Acq (LLocal "errLock") W; CapWr "err"; Rel (LLocal "errLock") W]];
-      WaitChildren;
-      B (CapRd "err");
-      B (PtrRd "Entries");
-      B (ObjWr "Entries");
-      B (PtrRd "heads");
-      B (ForeignObjRd "RawHeads");
-      B (ObjRd "heads");
-      B (PtrRd "Next");
-      B (ObjRd "Next");
-      B (PtrWr "heads");
-      B (PtrRd "Clock");
-      B (PtrWr "Clock");
-      B (Rel LSelf W)];
-    (* Join #80 *) [B (Foreign "GetID");
-      B (Hook "join.before-heads");
-      B (Foreign "RawHeads");
-      B (Hook "join.before-entries");
-      B (Foreign "GetEntries");
-      B (Acq LSelf W);
-      B (Hook "join.locked");
-      B (ForeignObjRd "RawHeads");
-      B (PtrRd "Entries");
-      B (ObjRd "Entries");
-      B (Hook "join.diffed");
-      Spawn [[Acq (LLocal "errLock") W; CapWr "err"; Rel (LLocal "errLock") W];
-        [PtrRd "Identity"];
-        [PtrRd "Identity"; Acq (LLocal "errLock") W; CapWr "err"; Rel (LLocal "errLock") W]];
-      Spawn [[Acq (LLocal "errLock") W; CapWr "err"; Rel (LLocal "errLock") W];
-        [PtrRd "Identity"];
-        [PtrRd "Identity"; Acq (LLocal "errLock") W; CapWr "err"; Rel (LLocal "errLock") W]];
-      WaitChildren;
-      B (CapRd "err");
-      B (PtrRd "Entries");
-      B (ObjWr "Entries");
-      B (PtrRd "heads");
-      B (ForeignObjRd "RawHeads");
-      B (ObjRd "heads");
-      B (PtrRd "Next");
-      B (ObjRd "Next");
-      B (PtrWr "heads");
-      B (PtrWr "Entries");
-      B (PtrRd "Clock");
-      B (PtrWr "Clock");
-      B (Rel LSelf W)];
-    (* Join #81 *) [B (Foreign "GetID");
-      B (Hook "join.before-heads");
-      B (Foreign "RawHeads");
-      B (Hook "join.before-entries");
-      B (Foreign "GetEntries");
-      B (Acq LSelf W);
-      B (Hook "join.locked");
-      B (ForeignObjRd "RawHeads");
-      B (PtrRd "Entries");
-      B (ObjRd "Entries");
-      B (Hook "join.diffed");
-      Spawn [[Acq (LLocal "errLock") W; CapWr "err"; Rel (LLocal "errLock") W];
-        [PtrRd "Identity"];
-        [PtrRd "Identity"; Acq (LLocal "errLock") W; CapWr "err"; Rel (LLocal "errLock") W]];
-      Spawn [[Acq (LLocal "errLock") W; CapWr "err"; Rel (LLocal "errLock") W];
-        [PtrRd "Identity"];
-        [PtrRd "Identity"; Acq (LLocal "errLock") W; CapWr "err"; Rel (LLocal "errLock") W]];
-      WaitChildren;
-      B (CapRd "err");
-      B (PtrRd "Entries");
-      B (ObjWr "Entries");
-      B (PtrRd "heads");
-      B (ForeignObjRd "RawHeads");
-      B (ObjRd "heads");
-      B (PtrWr "heads");
-      B (ObjRd "Entries");
-      B (PtrWr "Entries");
-      B (PtrRd "Clock");
-      B (PtrWr "Clock");
-      B (Rel LSelf W)];
-    (* Join #82 *) [B (Foreign "GetID");
-      B (Hook "join.before-heads");
-      B (Foreign "RawHeads");
-      B (Hook "join.before-entries");
-      B (Foreign "GetEntries");
-      B (Acq LSelf W);
-      B (Hook "join.locked");
-      B (ForeignObjRd "RawHeads");
-      B (PtrRd "Entries");
-      B (ObjRd "Entries");
-      B (Hook "join.diffed");
-      Spawn [[Acq (LLocal "errLock") W; CapWr "err"; Rel (LLocal "errLock") W];
-        [PtrRd "Identity"];
-        [PtrRd "Identity"; Acq (LLocal "errLock") W; CapWr "err"; Rel (LLocal "errLock") W]];
-      Spawn [[Acq (LLocal "errLock") W; CapWr "err"; Rel (LLocal "errLock") W];
-        [PtrRd "Identity"];
-        [PtrRd "Identity"; Acq (LLocal "errLock") W; CapWr "err"; Rel (LLocal "errLock") W]];
-      WaitChildren;
-      B (CapRd "err");
-      B (PtrRd "Entries");
-      B (ObjWr "Entries");
-      B (PtrRd "heads");
-      B (ForeignObjRd "RawHeads");
-      B (ObjRd "heads");
-      B (PtrWr "heads");
-      B (PtrRd "Clock");
-      B (PtrWr "Clock");
-      B (Rel LSelf W)];
-    (* Join #83 *) [B (Foreign "GetID");
-      B (Hook "join.before-heads");
-      B (Foreign "RawHeads");
-      B (Hook "join.before-entries");
-      B (Foreign "GetEntries");
-      B (Acq LSelf W);
-      B (Hook "join.locked");
-      B (ForeignObjRd "RawHeads");
-      B (PtrRd "Entries");
-      B (ObjRd "Entries");
-      B (Hook "join.diffed");
-      Spawn [[Acq (LLocal "errLock") W; CapWr "err"; Rel (LLocal "errLock") W];
-        [PtrRd "Identity"];
-        [PtrRd "Identity"; Acq (LLocal "errLock") W; CapWr "err"; Rel (LLocal "errLock") W]];
-      Spawn [[Acq (LLocal "errLock") W; CapWr "err"; Rel (LLocal "errLock") W];
-        [PtrRd "Identity"];
-        [PtrRd "Identity"; Acq (LLocal "errLock") W; CapWr "err"; Rel (LLocal "errLock") W]];
-      WaitChildren;
-      B (CapRd "err");
-      B (PtrRd "Entries");
-      B (ObjWr "Entries");
-      B (PtrRd "heads");
-      B (ForeignObjRd "RawHeads");
-      B (ObjRd "heads");
-      B (PtrWr "heads");
-      B (PtrWr "Entries");
-      B (PtrRd "Clock");
-      B (PtrWr "Clock");
-      B (Rel LSelf W)];
-    (* Join #84 *) [B (Foreign "GetID");
-      B (Hook "join.before-heads");
-      B (Foreign "RawHeads");
-      B (Hook "join.before-entries");
-      B (Foreign "GetEntries");
-      B (Acq LSelf W);
-      B (Hook "join.locked");
-      B (ForeignObjRd "RawHeads");
-      B (PtrRd "Entries");
-      B (ObjRd "Entries");
-      B (Hook "join.diffed");
-      Spawn [[Acq (LLocal "errLock") W; CapWr "err"; Rel (LLocal "errLock") W];
-        [PtrRd "Identity"];
-        [PtrRd "Identity"; Acq (LLocal "errLock") W; CapWr "err"; Rel (LLocal "errLock") W]];
-      Spawn [[Acq (LLocal "errLock") W; CapWr "err"; Rel (LLocal "errLock") W];
-        [PtrRd "Identity"];
-        [PtrRd "Identity"; Acq (LLocal "errLock") W; CapWr "err"; Rel (LLocal "errLock") W]];
-      WaitChildren;
-      B (CapRd "err");
-      B (PtrRd "Next");
-      B (ObjWr "Next");
-      B (PtrRd "Entries");
-      B (ObjWr "Entries");
-      B (PtrRd "heads");
-      B (ForeignObjRd "RawHeads");
-      B (ObjRd "heads");
-      B (ObjRd "Next");
-      B (PtrWr "heads");
-      B (ObjRd "Entries");
-      B (PtrWr "Entries");
-      B (PtrRd "Clock");
-      B (PtrWr "Clock");
-      B (Rel LSelf W)];
-    (* Join #85 *) [B (Foreign "GetID");
-      B (Hook "join.before-heads");
-      B (Foreign "RawHeads");
-      B (Hook "join.before-entries");
-      B (Foreign "GetEntries");
-      B (Acq LSelf W);
-      B (Hook "join.locked");
-      B (ForeignObjRd "RawHeads");
-      B (PtrRd "Entries");
-      B (ObjRd "Entries");
-      B (Hook "join.diffed");
-      Spawn [[Acq (LLocal "errLock") W; CapWr "err"; Rel (LLocal "errLock") W];
-        [PtrRd "Identity"];
-        [PtrRd "Identity"; Acq (LLocal "errLock") W; CapWr "err"; Rel (LLocal "errLock") W]];
-      Spawn [[Acq (LLocal "errLock") W; CapWr "err"; Rel (LLocal "errLock") W];
-        [PtrRd "Identity"];
-        [PtrRd "Identity"; Acq (LLocal "errLock") W; CapWr "err"; Rel (LLocal "errLock") W]];
-      WaitChildren;
-      B (CapRd "err");
-      B (PtrRd "Next");
-      B (ObjWr "Next");
-      B (PtrRd "Entries");
-      B (ObjWr "Entries");
-      B (PtrRd "heads");
-      B (ForeignObjRd "RawHeads");
-      B (ObjRd "heads");
-      B (ObjRd "Next");
-      B (PtrWr "heads");
-      B (PtrRd "Clock");
-      B (PtrWr "Clock");
-      B (Rel LSelf W)];
-    (* Join #86 *) [B (Foreign "GetID");
-      B (Hook "join.before-heads");
-      B (Foreign "RawHeads");
-      B (Hook "join.before-entries");
-      B (Foreign "GetEntries");
-      B (Acq LSelf W);
-      B (Hook "join.locked");
-      B (ForeignObjRd "RawHeads");
-      B (PtrRd "Entries");
-      B (ObjRd "Entries");
-      B (Hook "join.diffed");
-      Spawn [[Acq (LLocal "errLock") W; CapWr "err"; Rel (LLocal "errLock") W];
-        [PtrRd "Identity"];
-        [PtrRd "Identity"; Acq (LLocal "errLock") W; CapWr "err"; Rel (LLocal "errLock") W]];
-      Spawn [[Acq (LLocal "errLock") W; CapWr "err"; Rel (LLocal "errLock") W];
-        [PtrRd "Identity"];
-        [PtrRd "Identity"; Acq (LLocal "errLock") W; CapWr "err"; Rel (LLocal "errLock") W]];
-      WaitChildren;
-      B (CapRd "err");
-      B (PtrRd "Next");
-      B (ObjWr "Next");
-      B (PtrRd "Entries");
-      B (ObjWr "Entries");
-      B (PtrRd "heads");
-      B (ForeignObjRd "RawHeads");
-      B (ObjRd "heads");
-      B (ObjRd "Next");
-      B (PtrWr "heads");
-      B (PtrWr "Entries");
-      B (PtrRd "Clock");
-      B (PtrWr "Clock");
-      B (Rel LSelf W)];
-    (* Join #87 *) [B (Foreign "GetID");
-      B (Hook "join.before-heads");
-      B (Foreign "RawHeads");
-      B (Hook "join.before-entries");
-      B (Foreign "GetEntries");
-      B (Acq LSelf W);
-      B (Hook "join.locked");
-      B (ForeignObjRd "RawHeads");
-      B (PtrRd "Entries");
-      B (ObjRd "Entries");
-      B (Hook "join.diffed");
-      Spawn [[Acq (LLocal "errLock") W; CapWr "err"; Rel (LLocal "errLock") W];
-        [PtrRd "Identity"];
-        [PtrRd "Identity"; Acq (LLocal "errLock") W; CapWr "err"; Rel (LLocal "errLock") W]];
-      Spawn [[Acq (LLocal "errLock") W; CapWr "err"; Rel (LLocal "errLock") W];
-        [PtrRd "Identity"];
-        [PtrRd "Identity"; Acq (LLocal "errLock") W; CapWr "err"; Rel (LLocal "errLock") W]];
-      WaitChildren;
-      B (CapRd "err");
-      B (PtrRd "Next");
-      B (ObjWr "Next");
-      B (PtrRd "Entries");
-      B (ObjWr "Entries");
-      B (PtrRd "heads");
-      B (ForeignObjRd "RawHeads");
-      B (ObjRd "heads");
-      B (PtrWr "heads");
-      B (ObjRd "Entries");
-      B (PtrWr "Entries");
-      B (PtrRd "Clock");
-      B (PtrWr "Clock");
-      B (Rel LSelf W)];
-    (* Join #88 *) [B (Foreign "GetID");
-      B (Hook "join.before-heads");
-      B (Foreign "RawHeads");
-      B (Hook "join.before-entries");
-      B (Foreign "GetEntries");
-      B (Acq LSelf W);
-      B (Hook "join.locked");
-      B (ForeignObjRd "RawHeads");
-      B (PtrRd "Entries");
-      B (ObjRd "Entries");
-      B (Hook "join.diffed");
-      Spawn [[Acq (LLocal "errLock") W; CapWr "err"; Rel (LLocal "errLock") W];
-        [PtrRd "Identity"];
-        [PtrRd "Identity"; Acq (LLocal "errLock") W; CapWr "err"; Rel (LLocal "errLock") W]];
-      Spawn [[Acq (LLocal "errLock") W; CapWr "err"; Rel (LLocal "errLock") W];
-        [PtrRd "Identity"];
-        [PtrRd "Identity"; Acq (LLocal "errLock") W; CapWr "err"; Rel (LLocal "errLock") W]];
-      WaitChildren;
-      B (CapRd "err");
-      B (PtrRd "Next");
-      B (ObjWr "Next");
-      B (PtrRd "Entries");
-      B (ObjWr "Entries");
-      B (PtrRd "heads");
-      B (ForeignObjRd "RawHeads");
-      B (ObjRd "heads");
-      B (PtrWr "heads");
-      B (PtrRd "Clock");
-      B (PtrWr "Clock");
-      B (Rel LSelf W)];
-    (* Join #89 *) [B (Foreign "GetID");
-      B (Hook "join.before-heads");
-      B (Foreign "RawHeads");
-      B (Hook "join.before-entries");
-      B (Foreign "GetEntries");
-      B (Acq LSelf W);
-      B (Hook "join.locked");
-      B (ForeignObjRd "RawHeads");
-      B (PtrRd "Entries");
-      B (ObjRd "Entries");
-      B (Hook "join.diffed");
-      Spawn [[Acq (LLocal "errLock") W; CapWr "err"; Rel (LLocal "errLock") W];
-        [PtrRd "Identity"];
-        [PtrRd "Identity"; Acq (LLocal "errLock") W; CapWr "err"; Rel (LLocal "errLock") W]];
-      Spawn [[Acq (LLocal "errLock") W; CapWr "err"; Rel (LLocal "errLock") W];
-        [PtrRd "Identity"];
-        [PtrRd "Identity"; Acq (LLocal "errLock") W; CapWr "err"; Rel (LLocal "errLock") W]];
-      WaitChildren;
-      B (CapRd "err");
-      B (PtrRd "Next");
-      B (ObjWr "Next");
-      B (PtrRd "Entries");
-      B (ObjWr "Entries");
-      B (PtrRd "heads");
-      B (ForeignObjRd "RawHeads");
-      B (ObjRd "heads");
-      B (PtrWr "heads");
-      B (PtrWr "Entries");
-      B (PtrRd "Clock");
-      B (PtrWr "Clock");
-      B (Rel LSelf W)];
-    (* Join #90 *) [B (Foreign "GetID");
-      B (Hook "join.before-heads");
-      B (Foreign "RawHeads");
-      B (Hook "join.before-entries");
-      B (Foreign "GetEntries");
-      B (Acq LSelf W);
-      B (Hook "join.locked");
-      B (ForeignObjRd "RawHeads");
-      B (PtrRd "Entries");
-      B (ObjRd "Entries");
-      B (Hook "join.diffed");
-      Spawn [[Acq (LLocal "errLock") W; CapWr "err"; Rel (LLocal "errLock") W];
-        [PtrRd "Identity"];
-        [PtrRd "Identity"; Acq (LLocal "errLock") W; CapWr "err"; Rel (LLocal "errLock") W]];
-      Spawn [[Acq (LLocal "errLock") W; CapWr "err"; Rel (LLocal "errLock") W];
-        [PtrRd "Identity"];
-        [PtrRd "Identity"; Acq (LLocal "errLock") W; CapWr "err"; Rel (LLocal "errLock") W]];
-      WaitChildren;
-      B (CapRd "err");
-      B (PtrRd "heads");
-      B (ForeignObjRd "RawHeads");
-      B (ObjRd "heads");
-      B (PtrRd "Next");
-      B (ObjRd "Next");
-      B (PtrWr "heads");
-      B (PtrRd "Clock");
-      B (PtrWr "Clock");
-      B (Rel LSelf W)];
-    (* Join #91 *) [B (Foreign "GetID");
-      B (Hook "join.before-heads");
-      B (Foreign "RawHeads");
-      B (Hook "join.before-entries");
-      B (Foreign "GetEntries");
-      B (Acq LSelf W);
-      B (Hook "join.locked");
-      B (ForeignObjRd "RawHeads");
-      B (PtrRd "Entries");
-      B (ObjRd "Entries");
-      B (Hook "join.diffed");
-      Spawn [[Acq (LLocal "errLock") W; CapWr "err"; Rel (LLocal "errLock") W];
-        [PtrRd "Identity"];
-        [PtrRd "Identity"; Acq (LLocal "errLock") W; CapWr "err"; Rel (LLocal "errLock") W]];
-      Spawn [[Acq (LLocal "errLock") W; CapWr "err"; Rel (LLocal "errLock") W];
-        [PtrRd "Identity"];
-        [PtrRd "Identity"; Acq (LLocal "errLock") W; CapWr "err"; Rel (LLocal "errLock") W]];
-      WaitChildren;
-      B (CapRd "err");
-      B (PtrRd "heads");
-      B (ForeignObjRd "RawHeads");
-      B (ObjRd "heads");
-      B (PtrRd "Next");
-      B (ObjRd "Next");
-      B (PtrWr "heads");
-      B (PtrRd "Entries");
-      B (ObjRd "Entries");
-      B (PtrWr "Entries");
-      B (PtrRd "Clock");
-      B (PtrWr "Clock");
-      B (Rel LSelf W)];
-    (* Join #92 *) [B (Foreign "GetID");
-      B (Hook "join.before-heads");
-      B (Foreign "RawHeads");
-      B (Hook "join.before-entries");
-      B (Foreign "GetEntries");
-      B (Acq LSelf W);
-      B (Hook "join.locked");
-      B (ForeignObjRd "RawHeads");
-      B (PtrRd "Entries");
-      B (ObjRd "Entries");
-      B (Hook "join.diffed");
-      Spawn [[Acq (LLocal "errLock") W; CapWr "err"; Rel (LLocal "errLock") W];
-        [PtrRd "Identity"];
-        [PtrRd "Identity"; Acq (LLocal "errLock") W; CapWr "err"; Rel (LLocal "errLock") W]];
-      Spawn [[Acq (LLocal "errLock") W; CapWr "err"; Rel (LLocal "errLock") W];
-        [PtrRd "Identity"];
-        [PtrRd "Identity"; Acq (LLocal "errLock") W; CapWr "err"; Rel (LLocal "errLock") W]];
-      WaitChildren;
-      B (CapRd "err");
-      B (PtrRd "heads");
-      B (ForeignObjRd "RawHeads");
-      B (ObjRd "heads");
-      B (PtrRd "Next");
-      B (ObjRd "Next");
-      B (PtrWr "heads");
-      B (PtrWr "Entries");
-      B (PtrRd "Clock");
-      B (PtrWr "Clock");
-      B (Rel LSelf W)];
-    (* Join #93 *) [B (Foreign "GetID");
-      B (Hook "join.before-heads");
-      B (Foreign "RawHeads");
-      B (Hook "join.before-entries");
-      B (Foreign "GetEntries");
-      B (Acq LSelf W);
-      B (Hook "join.locked");
-      B (ForeignObjRd "RawHeads");
-      B (PtrRd "Entries");
-      B (ObjRd "Entries");
-      B (Hook "join.diffed");
-      Spawn [[Acq (LLocal "errLock") W; CapWr "err"; Rel (LLocal "errLock") W];
-        [PtrRd "Identity"];
-        [PtrRd "Identity"; Acq (LLocal "errLock") W; CapWr "err"; Rel (LLocal "errLock") W]];
-      Spawn [[Acq (LLocal "errLock") W; CapWr "err"; Rel (LLocal "errLock") W];
-        [PtrRd "Identity"];
-        [PtrRd "Identity"; Acq (LLocal "errLock") W; CapWr "err"; Rel (LLocal "errLock") W]];
-      WaitChildren;
-      B (CapRd "err");
-      B (PtrRd "heads");
-      B (ForeignObjRd "RawHeads");
-      B (ObjRd "heads");
-      B (PtrWr "heads");
-      B (PtrRd "Clock");
-      B (PtrWr "Clock");
-      B (Rel LSelf W)];
-    (* Join #94 *) [B (Foreign "GetID");
-      B (Hook "join.before-heads");
-      B (Foreign "RawHeads");
-      B (Hook "join.before-entries");
-      B (Foreign "GetEntries");
-      B (Acq LSelf W);
-      B (Hook "join.locked");
-      B (ForeignObjRd "RawHeads");
-      B (PtrRd "Entries");
-      B (ObjRd "Entries");
-      B (Hook "join.diffed");
-      Spawn [[Acq (LLocal "errLock") W; CapWr "err"; Rel (LLocal "errLock") W];
-        [PtrRd "Identity"];
-        [PtrRd "Identity"; Acq (LLocal "errLock") W; CapWr "err"; Rel (LLocal "errLock") W]];
-      Spawn [[Acq (LLocal "errLock") W; CapWr "err"; Rel (LLocal "errLock") W];
-        [PtrRd "Identity"];
-        [PtrRd "Identity"; Acq (LLocal "errLock") W; CapWr "err"; Rel (LLocal "errLock") W]];
-      WaitChildren;
-      B (CapRd "err");
-      B (PtrRd "heads");
-      B (ForeignObjRd "RawHeads");
-      B (ObjRd "heads");
-      B (PtrWr "heads");
-      B (PtrRd "Entries");
-      B (ObjRd "Entries");
-      B (PtrWr "Entries");
-      B (PtrRd "Clock");
-      B (PtrWr "Clock");
-      B (Rel LSelf W)];
-    (* Join #95 *) [B (Foreign "GetID");
-      B (Hook "join.before-heads");
-      B (Foreign "RawHeads");
-      B (Hook "join.before-entries");
-      B (Foreign "GetEntries");
-      B (Acq LSelf W);
-      B (Hook "join.locked");
-      B (ForeignObjRd "RawHeads");
-      B (PtrRd "Entries");
-      B (ObjRd "Entries");
-      B (Hook "join.diffed");
-      Spawn [[Acq (LLocal "errLock") W; CapWr "err"; Rel (LLocal "errLock") W];
-        [PtrRd "Identity"];
-        [PtrRd "Identity"; Acq (LLocal "errLock") W; CapWr "err"; Rel (LLocal "errLock") W]];
-      Spawn [[Acq (LLocal "errLock") W; CapWr "err"; Rel (LLocal "errLock") W];
-        [PtrRd "Identity"];
-        [PtrRd "Identity"; Acq (LLocal "errLock") W; CapWr "err"; Rel (LLocal "errLock") W]];
-      WaitChildren;
-      B (CapRd "err");
-      B (PtrRd "heads");
-      B (ForeignObjRd "RawHeads");
-      B (ObjRd "heads");
-      B (PtrWr "heads");
-      B (PtrWr "Entries");
-      B (PtrRd "Clock");
-      B (PtrWr "Clock");
-      B (Rel LSelf W)];
-    (* Join #96 *) [B (Foreign "GetID");
-      B (Hook "join.before-heads");
-      B (Foreign "RawHeads");
-      B (Hook "join.before-entries");
-      B (Foreign "GetEntries");
-      B (Acq LSelf W);
-      B (Hook "join.locked");
-      B (ForeignObjRd "RawHeads");
-      B (PtrRd "Entries");
-      B (ObjRd "Entries");
-      B (Hook "join.diffed");
-      Spawn [[Acq (LLocal "errLock") W; CapWr "err"; Rel (LLocal "errLock") W];
-        [PtrRd "Identity"];
-        [PtrRd "Identity"; Acq (LLocal "errLock") W; CapWr "err"; Rel (LLocal "errLock") W]];
-      Spawn [[Acq (LLocal "errLock") W; CapWr "err"; Rel (LLocal "errLock") W];
-        [PtrRd "Identity"];
-        [PtrRd "Identity"; Acq (LLocal "errLock") W; CapWr "err"; Rel (LLocal "errLock") W]];
-      WaitChildren;
-      B (CapRd "err");
-      B (Rel LSelf W)];
-    (* Join #97 *) [B (Foreign "GetID");
-      B (Hook "join.before-heads");
-      B (Foreign "RawHeads");
-      B (Hook "join.before-entries");
-      B (Foreign "GetEntries");
-      B (Acq LSelf W);
-      B (Hook "join.locked");
-      B (ForeignObjRd "RawHeads");
-      B (PtrRd "Entries");
-      B (ObjRd "Entries");
-      B (Hook "join.diffed");
-      WaitChildren;
-      B (CapRd "err");
-      B (PtrRd "Entries");
-      B (ObjWr "Entries");
-      B (PtrRd "heads");
-      B (ForeignObjRd "RawHeads");
-      B (ObjRd "heads");
-      B (PtrRd "Next");
-      B (ObjRd "Next");
-      B (PtrWr "heads");
-      B (ObjRd "Entries");
-      B (PtrWr "Entries");
-      B (PtrRd "Clock");
-      B (PtrWr "Clock");
-      B (Rel LSelf W)];
-    (* Join #98 *) [B (Foreign "GetID");
-      B (Hook "join.before-heads");
-      B (Foreign "RawHeads");
-      B (Hook "join.before-entries");
-      B (Foreign "GetEntries");
-      B (Acq LSelf W);
-      B (Hook "join.locked");
-      B (ForeignObjRd "RawHeads");
-      B (PtrRd "Entries");
-      B (ObjRd "Entries");
-      B (Hook "join.diffed");
-      WaitChildren;
-      B (CapRd "err");
-      B (PtrRd "Entries");
-      B (ObjWr "Entries");
-      B (PtrRd "heads");
-      B (ForeignObjRd "RawHeads");
-      B (ObjRd "heads");
-      B (PtrRd "Next");
-      B (ObjRd "Next");
-      B (PtrWr "heads");
-      B (PtrRd "Clock");
-      B (PtrWr "Clock");
-      B (Rel LSelf W)];
-    (* Join #99 *) [B (Foreign "GetID");
-      B (Hook "join.before-heads");
-      B (Foreign "RawHeads");
-      B (Hook "join.before-entries");
-      B (Foreign "GetEntries");
-      B (Acq LSelf W);
-      B (Hook "join.locked");
-      B (ForeignObjRd "RawHeads");
-      B (PtrRd "Entries");
-      B (ObjRd "Entries");
-      B (Hook "join.diffed");
-      WaitChildren;
-      B (CapRd "err");
-      B (PtrRd "Entries");
-      B (ObjWr "Entries");
-      B (PtrRd "heads");
-      B (ForeignObjRd "RawHeads");
-      B (ObjRd "heads");
-      B (PtrRd "Next");
-      B (ObjRd "Next");
-      B (PtrWr "heads");
-      B (PtrWr "Entries");
-      B (PtrRd "Clock");
-      B (PtrWr "Clock");
-      B (Rel LSelf W)];
-    (* Join #100 *) [B (Foreign "GetID");
-      B (Hook "join.before-heads");
-      B (Foreign "RawHeads");
-      B (Hook "join.before-entries");
-      B (Foreign "GetEntries");
-      B (Acq LSelf W);
-      B (Hook "join.locked");
-      B (ForeignObjRd "RawHeads");
-      B (PtrRd "Entries");
-      B (ObjRd "Entries");
-      B (Hook "join.diffed");
-      WaitChildren;
-      B (CapRd "err");
-      B (PtrRd "Entries");
-      B (ObjWr "Entries");
-      B (PtrRd "heads");
-      B (ForeignObjRd "RawHeads");
-      B (ObjRd "heads");
-      B (PtrWr "heads");
-      B (ObjRd "Entries");
-      B (PtrWr "Entries");
-      B (PtrRd "Clock");
-      B (PtrWr "Clock");
-      B (Rel LSelf W)];
-    (* Join #101 *) [B (Foreign "GetID");
-      B (Hook "join.before-heads");
-      B (Foreign "RawHeads");
-      B (Hook "join.before-entries");
-      B (Foreign "GetEntries");
-      B (Acq LSelf W);
-      B (Hook "join.locked");
-      B (ForeignObjRd "RawHeads");
-      B (PtrRd "Entries");
-      B (ObjRd "Entries");
-      B (Hook "join.diffed");
-      WaitChildren;
-      B (CapRd "err");
-      B (PtrRd "Entries");
-      B (ObjWr "Entries");
-      B (PtrRd "heads");
-      B (ForeignObjRd "RawHeads");
-      B (ObjRd "heads");
-      B (PtrWr "heads");
-      B (PtrRd "Clock");
-      B (PtrWr "Clock");
-      B (Rel LSelf W)];
-    (* Join #102 *) [B (Foreign "GetID");
-      B (Hook "join.before-heads");
-      B (Foreign "RawHeads");
-      B (Hook "join.before-entries");
-      B (Foreign "GetEntries");
-      B (Acq LSelf W);
-      B (Hook "join.locked");
-      B (ForeignObjRd "RawHeads");
-      B (PtrRd "Entries");
-      B (ObjRd "Entries");
-      B (Hook "join.diffed");
-      WaitChildren;
-      B (CapRd "err");
-      B (PtrRd "Entries");
-      B (ObjWr "Entries");
-      B (PtrRd "heads");
-      B (ForeignObjRd "RawHeads");
-      B (ObjRd "heads");
-      B (PtrWr "heads");
-      B (PtrWr "Entries");
-      B (PtrRd "Clock");
-      B (PtrWr "Clock");
-      B (Rel LSelf W)];
-    (* Join #103 *) [B (Foreign "GetID");
-      B (Hook "join.before-heads");
-      B (Foreign "RawHeads");
-      B (Hook "join.before-entries");
-      B (Foreign "GetEntries");
-      B (Acq LSelf W);
-      B (Hook "join.locked");
-      B (ForeignObjRd "RawHeads");
-      B (PtrRd "Entries");
-      B (ObjRd "Entries");
-      B (Hook "join.diffed");
-      WaitChildren;
-      B (CapRd "err");
-      B (PtrRd "Next");
-      B (ObjWr "Next");
-      B (PtrRd "Entries");
-      B (ObjWr "Entries");
-      B (PtrRd "heads");
-      B (ForeignObjRd "RawHeads");
-      B (ObjRd "heads");
-      B (ObjRd "Next");
-      B (PtrWr "heads");
-      B (ObjRd "Entries");
-      B (PtrWr "Entries");
-      B (PtrRd "Clock");
-      B (PtrWr "Clock");
-      B (Rel LSelf W)];
-    (* Join #104 *) [B (Foreign "GetID");
-      B (Hook "join.before-heads");
-      B (Foreign "RawHeads");
-      B (Hook "join.before-entries");
-      B (Foreign "GetEntries");
-      B (Acq LSelf W);
-      B (Hook "join.locked");
-      B (ForeignObjRd "RawHeads");
-      B (PtrRd "Entries");
-      B (ObjRd "Entries");
-      B (Hook "join.diffed");
-      WaitChildren;
-      B (CapRd "err");
-      B (PtrRd "Next");
-      B (ObjWr "Next");
-      B (PtrRd "Entries");
-      B (ObjWr "Entries");
-      B (PtrRd "heads");
-      B (ForeignObjRd "RawHeads");
-      B (ObjRd "heads");
-      B (ObjRd "Next");
-      B (PtrWr "heads");
-      B (PtrRd "Clock");
-      B (PtrWr "Clock");
-      B (Rel LSelf W)];
-    (* Join #105 *) [B (Foreign "GetID");
-      B (Hook "join.before-heads");
-      B (Foreign "RawHeads");
-      B (Hook "join.before-entries");
-      B (Foreign "GetEntries");
-      B (Acq LSelf W);
-      B (Hook "join.locked");
-      B (ForeignObjRd "RawHeads");
-      B (PtrRd "Entries");
-      B (ObjRd "Entries");
-      B (Hook "join.diffed");
-      WaitChildren;
-      B (CapRd "err");
-      B (PtrRd "Next");
-      B (ObjWr "Next");
-      B (PtrRd "Entries");
-      B (ObjWr "Entries");
-      B (PtrRd "heads");
-      B (ForeignObjRd "RawHeads");
-      B (ObjRd "heads");
-      B (ObjRd "Next");
-      B (PtrWr "heads");
-      B (PtrWr "Entries");
-      B (PtrRd "Clock");
-      B (PtrWr "Clock");
-      B (Rel LSelf W)];
-    (* Join #106 *) [B (Foreign "GetID");
-      B (Hook "join.before-heads");
-      B (Foreign "RawHeads");
-      B (Hook "join.before-entries");
-      B (Foreign "GetEntries");
-      B (Acq LSelf W);
-      B (Hook "join.locked");
-      B (ForeignObjRd "RawHeads");
-      B (PtrRd "Entries");
-      B (ObjRd "Entries");
-      B (Hook "join.diffed");
-      WaitChildren;
-      B (CapRd "err");
-      B (PtrRd "Next");
-      B (ObjWr "Next");
-      B (PtrRd "Entries");
-      B (ObjWr "Entries");
-      B (PtrRd "heads");
-      B (ForeignObjRd "RawHeads");
-      B (ObjRd "heads");
-      B (PtrWr "heads");
-      B (ObjRd "Entries");
-      B (PtrWr "Entries");
-      B (PtrRd "Clock");
-      B (PtrWr "Clock");
-      B (Rel LSelf W)];
-    (* Join #107 *) [B (Foreign "GetID");
-      B (Hook "join.before-heads");
-      B (Foreign "RawHeads");
-      B (Hook "join.before-entries");
-      B (Foreign "GetEntries");
-      B (Acq LSelf W);
-      B (Hook "join.locked");
-      B (ForeignObjRd "RawHeads");
-      B (PtrRd "Entries");
-      B (ObjRd "Entries");
-      B (Hook "join.diffed");
-      WaitChildren;
-      B (CapRd "err");
-      B (PtrRd "Next");
-      B (ObjWr "Next");
-      B (PtrRd "Entries");
-      B (ObjWr "Entries");
-      B (PtrRd "heads");
-      B (ForeignObjRd "RawHeads");
-      B (ObjRd "heads");
-      B (PtrWr "heads");
-      B (PtrRd "Clock");
-      B (PtrWr "Clock");
-      B (Rel LSelf W)];
-    (* Join #108 *) [B (Foreign "GetID");
-      B (Hook "join.before-heads");
-      B (Foreign "RawHeads");
-      B (Hook "join.before-entries");
-      B (Foreign "GetEntries");
-      B (Acq LSelf W);
-      B (Hook "join.locked");
-      B (ForeignObjRd "RawHeads");
-      B (PtrRd "Entries");
-      B (ObjRd "Entries");
-      B (Hook "join.diffed");
-      WaitChildren;
-      B (CapRd "err");
-      B (PtrRd "Next");
-      B (ObjWr "Next");
-      B (PtrRd "Entries");
-      B (ObjWr "Entries");
-      B (PtrRd "heads");
-      B (ForeignObjRd "RawHeads");
-      B (ObjRd "heads");
-      B (PtrWr "heads");
-      B (PtrWr "Entries");
-      B (PtrRd "Clock");
-      B (PtrWr "Clock");
-      B (Rel LSelf W)];
-    (* Join #109 *) [B (Foreign "GetID");
-      B (Hook "join.before-heads");
-      B (Foreign "RawHeads");
-      B (Hook "join.before-entries");
-      B (Foreign "GetEntries");
-      B (Acq LSelf W);
-      B (Hook "join.locked");
-      B (ForeignObjRd "RawHeads");
-      B (PtrRd "Entries");
-      B (ObjRd "Entries");
-      B (Hook "join.diffed");
-      WaitChildren;
-      B (CapRd "err");
-      B (PtrRd "heads");
-      B (ForeignObjRd "RawHeads");
-      B (ObjRd "heads");
-      B (PtrRd "Next");
-      B (ObjRd "Next");
-      B (PtrWr "heads");
-      B (PtrRd "Clock");
-      B (PtrWr "Clock");
-      B (Rel LSelf W)];
-    (* Join #110 *) [B (Foreign "GetID");
-      B (Hook "join.before-heads");
-      B (Foreign "RawHeads");
-      B (Hook "join.before-entries");
-      B (Foreign "GetEntries");
-      B (Acq LSelf W);
-      B (Hook "join.locked");
-      B (ForeignObjRd "RawHeads");
-      B (PtrRd "Entries");
-      B (ObjRd "Entries");
-      B (Hook "join.diffed");
-      WaitChildren;
-      B (CapRd "err");
-      B (PtrRd "heads");
-      B (ForeignObjRd "RawHeads");
-      B (ObjRd "heads");
-      B (PtrRd "Next");
-      B (ObjRd "Next");
-      B (PtrWr "heads");
-      B (PtrRd "Entries");
-      B (ObjRd "Entries");
-      B (PtrWr "Entries");
-      B (PtrRd "Clock");
-      B (PtrWr "Clock");
-      B (Rel LSelf W)];
-    (* Join #111 *) [B (Foreign "GetID");
-      B (Hook "join.before-heads");
-      B (Foreign "RawHeads");
-      B (Hook "join.before-entries");
-      B (Foreign "GetEntries");
-      B (Acq LSelf W);
-      B (Hook "join.locked");
-      B (ForeignObjRd "RawHeads");
-      B (PtrRd "Entries");
-      B (ObjRd "Entries");
-      B (Hook "join.diffed");
-      WaitChildren;
-      B (CapRd "err");
-      B (PtrRd "heads");
-      B (ForeignObjRd "RawHeads");
-      B (ObjRd "heads");
-      B (PtrRd "Next");
-      B (ObjRd "Next");
-      B (PtrWr "heads");
-      B (PtrWr "Entries");
-      B (PtrRd "Clock");
-      B (PtrWr "Clock");
-      B (Rel LSelf W)];
-    (* Join #112 *) [B (Foreign "GetID");
-      B (Hook "join.before-heads");
-      B (Foreign "RawHeads");
-      B (Hook "join.before-entries");
-      B (Foreign "GetEntries");
-      B (Acq LSelf W);
-      B (Hook "join.locked");
-      B (ForeignObjRd "RawHeads");
-      B (PtrRd "Entries");
-      B (ObjRd "Entries");
-      B (Hook "join.diffed");
-      WaitChildren;
-      B (CapRd "err");
-      B (PtrRd "heads");
-      B (ForeignObjRd "RawHeads");
-      B (ObjRd "heads");
-      B (PtrWr "heads");
-      B (PtrRd "Clock");
-      B (PtrWr "Clock");
-      B (Rel LSelf W)];
-    (* Join #113 *) [B (Foreign "GetID");
-      B (Hook "join.before-heads");
-      B (Foreign "RawHeads");
-      B (Hook "join.before-entries");
-      B (Foreign "GetEntries");
-      B (Acq LSelf W);
-      B (Hook "join.locked");
-      B (ForeignObjRd "RawHeads");
-      B (PtrRd "Entries");
-      B (ObjRd "Entries");
-      B (Hook "join.diffed");
-      WaitChildren;
-      B (CapRd "err");
-      B (PtrRd "heads");
-      B (ForeignObjRd "RawHeads");
-      B (ObjRd "heads");
-      B (PtrWr "heads");
-      B (PtrRd "Entries");
-      B (ObjRd "Entries");
-      B (PtrWr "Entries");
-      B (PtrRd "Clock");
-      B (PtrWr "Clock");
-      B (Rel LSelf W)];
-    (* Join #114 *) [B (Foreign "GetID");
-      B (Hook "join.before-heads");
-      B (Foreign "RawHeads");
-      B (Hook "join.before-entries");
-      B (Foreign "GetEntries");
-      B (Acq LSelf W);
-      B (Hook "join.locked");
-      B (ForeignObjRd "RawHeads");
-      B (PtrRd "Entries");
-      B (ObjRd "Entries");
-      B (Hook "join.diffed");
-      WaitChildren;
-      B (CapRd "err");
-      B (PtrRd "heads");
-      B (ForeignObjRd "RawHeads");
-      B (ObjRd "heads");
-      B (PtrWr "heads");
-      B (PtrWr "Entries");
-      B (PtrRd "Clock");
-      B (PtrWr "Clock");
-      B (Rel LSelf W)];
-    (* Join #115 *) [B (Foreign "GetID");
-      B (Hook "join.before-heads");
-      B (Foreign "RawHeads");
-      B (Hook "join.before-entries");
-      B (Foreign "GetEntries");
-      B (Acq LSelf W);
-      B (Hook "join.locked");
-      B (ForeignObjRd "RawHeads");
-      B (PtrRd "Entries");
-      B (ObjRd "Entries");
-      B (Hook "join.diffed");
-      WaitChildren;
-      B (CapRd "err");
-      B (Rel LSelf W)];
-    (* Join #116 *) [B (Foreign "GetID");
-      B (Hook "join.before-heads");
-      B (Foreign "RawHeads");
-      B (Hook "join.before-entries");
-      B (Foreign "GetEntries");
-      B (Acq LSelf W);
-      B (Hook "join.locked");
-      B (ForeignObjRd "RawHeads");
-      B (PtrRd "Entries");
-      B (PtrWr "Entries");
-      B (Hook "join.diffed");
-      Spawn [[Acq (LLocal "errLock") W; CapWr "err"; Rel (LLocal "errLock") W];
-        [PtrRd "Identity"];
-        [PtrRd "Identity"; Acq (LLocal "errLock") W; CapWr "err"; Rel (LLocal "errLock") W]];
-      Spawn [[Acq (LLocal "errLock") W; CapWr "err"; Rel (LLocal "errLock") W];
-        [PtrRd "Identity"];
-        [PtrRd "Identity"; Acq (LLocal "errLock") W; CapWr "err"; Rel (LLocal "errLock") W]];
-      WaitChildren;
-      B (CapRd "err");
-      B (PtrRd "Entries");
-      B (ObjWr "Entries");
-      B (PtrRd "heads");
-      B (ForeignObjRd "RawHeads");
-      B (ObjRd "heads");
-      B (PtrRd "Next");
-      B (ObjRd "Next");
-      B (PtrWr "heads");
-      B (ObjRd "Entries");
-      B (PtrWr "Entries");
-      B (PtrRd "Clock");
-      B (PtrWr "Clock");
-      B (Rel LSelf W)];
-    (* Join #117 *) [B (Foreign "GetID");
-      B (Hook "join.before-heads");
-      B (Foreign "RawHeads");
-      B (Hook "join.before-entries");
-      B (Foreign "GetEntries");
-      B (Acq LSelf W);
-      B (Hook "join.locked");
-      B (ForeignObjRd "RawHeads");
-      B (PtrRd "Entries");
-      B (PtrWr "Entries");
-      B (Hook "join.diffed");
-      Spawn [[Acq (LLocal "errLock") W; CapWr "err"; Rel (LLocal "errLock") W];
-        [PtrRd "Identity"];
-        [PtrRd "Identity"; Acq (LLocal "errLock") W; CapWr "err"; Rel (LLocal "errLock") W]];
-      Spawn [[Acq (LLocal "errLock") W; CapWr "err"; Rel (LLocal "errLock") W];
-        [PtrRd "Identity"];
-        [PtrRd "Identity"; Acq (LLocal "errLock") W; CapWr "err"; Rel (LLocal "errLock") W]];
-      WaitChildren;
-      B (CapRd "err");
-      B (PtrRd "Entries");
-      B (ObjWr "Entries");
-      B (PtrRd "heads");
-      B (ForeignObjRd "RawHeads");
-      B (ObjRd "heads");
-      B (PtrRd "Next");
-      B (ObjRd "Next");
-      B (PtrWr "heads");
-      B (PtrRd "Clock");
-      B (PtrWr "Clock");
-      B (Rel LSelf W)];
-    (* Join #118 *) [B (Foreign "GetID");
-      B (Hook "join.before-heads");
-      B (Foreign "RawHeads");
-      B (Hook "join.before-entries");
-      B (Foreign "GetEntries");
-      B (Acq LSelf W);
-      B (Hook "join.locked");
-      B (ForeignObjRd "RawHeads");
-      B (PtrRd "Entries");
-      B (PtrWr "Entries");
-      B (Hook "join.diffed");
-      Spawn [[Acq (LLocal "errLock") W; CapWr "err"; Rel (LLocal "errLock") W];
-        [PtrRd "Identity"];
-        [PtrRd "Identity"; Acq (LLocal "errLock") W; CapWr "err"; Rel (LLocal "errLock") W]];
-      Spawn [[Acq (LLocal "errLock") W; CapWr "err"; Rel (LLocal "errLock") W];
-        [PtrRd "Identity"];
-        [PtrRd "Identity"; Acq (LLocal "errLock") W; CapWr "err"; Rel (LLocal "errLock") W]];
-      WaitChildren;
-      B (CapRd "err");
-      B (PtrRd "Entries");
-      B (ObjWr "Entries");
-      B (PtrRd "heads");
-      B (ForeignObjRd "RawHeads");
-      B (ObjRd "heads");
-      B (PtrRd "Next");
-      B (ObjRd "Next");
-      B (PtrWr "heads");
-      B (PtrWr "Entries");
-      B (PtrRd "Clock");
-      B (PtrWr "Clock");
-      B (Rel LSelf W)];
-    (* Join #119 *) [B (Foreign "GetID");
-      B (Hook "join.before-heads");
-      B (Foreign "RawHeads");
-      B (Hook "join.before-entries");
-      B (Foreign "GetEntries");
-      B (Acq LSelf W);
-      B (Hook "join.locked");
-      B (ForeignObjRd "RawHeads");
-      B (PtrRd "Entries");
-      B (PtrWr "Entries");
-      B (Hook "join.diffed");
-      Spawn [[Acq (LLocal "errLock") W; CapWr "err"; Rel (LLocal "errLock") W];
-        [PtrRd "Identity"];
-        [PtrRd "Identity"; Acq (LLocal "errLock") W; CapWr "err"; Rel (LLocal "errLock") W]];
-      Spawn [[Acq (LLocal "errLock") W; CapWr "err"; Rel (LLocal "errLock") W];
-        [PtrRd "Identity"];
-        [PtrRd "Identity"; Acq (LLocal "errLock") W; CapWr "err"; Rel (LLocal "errLock") W]];
-      WaitChildren;
-      B (CapRd "err");
-      B (PtrRd "Entries");
-      B (ObjWr "Entries");
-      B (PtrRd "heads");
-      B (ForeignObjRd "RawHeads");
-      B (ObjRd "heads");
-      B (PtrWr "heads");
-      B (ObjRd "Entries");
-      B (PtrWr "Entries");
-      B (PtrRd "Clock");
-      B (PtrWr "Clock");
-      B (Rel LSelf W)];
-    (* Join #120 *) [B (Foreign "GetID");
-      B (Hook "join.before-heads");
-      B (Foreign "RawHeads");
-      B (Hook "join.before-entries");
-      B (Foreign "GetEntries");
-      B (Acq LSelf W);
-      B (Hook "join.locked");
-      B (ForeignObjRd "RawHeads");
-      B (PtrRd "Entries");
-      B (PtrWr "Entries");
-      B (Hook "join.diffed");
-      Spawn [[Acq (LLocal "errLock") W; CapWr "err"; Rel (LLocal "errLock") W];
-        [PtrRd "Identity"];
-        [PtrRd "Identity"; Acq (LLocal "errLock") W; CapWr "err"; Rel (LLocal "errLock") W]];
-      Spawn [[Acq (LLocal "errLock") W; CapWr "err"; Rel (LLocal "errLock") W];
-        [PtrRd "Identity"];
-        [PtrRd "Identity"; Acq (LLocal "errLock") W; CapWr "err"; Rel (LLocal "errLock") W]];
-      WaitChildren;
-      B (CapRd "err");
-      B (PtrRd "Entries");
-      B (ObjWr "Entries");
-      B (PtrRd "heads");
-      B (ForeignObjRd "RawHeads");
-      B (ObjRd "heads");
-      B (PtrWr "heads");
-      B (PtrRd "Clock");
-      B (PtrWr "Clock");
-      B (Rel LSelf W)];
-    (* Join #121 *) [B (Foreign "GetID");
-      B (Hook "join.before-heads");
-      B (Foreign "RawHeads");
-      B (Hook "join.before-entries");
-      B (Foreign "GetEntries");
-      B (Acq LSelf W);
-      B (Hook "join.locked");
-      B (ForeignObjRd "RawHeads");
-      B (PtrRd "Entries");
-      B (PtrWr "Entries");
-      B (Hook "join.diffed");
-      Spawn [[Acq (LLocal "errLock") W; CapWr "err"; Rel (LLocal "errLock") W];
-        [PtrRd "Identity"];
-        [PtrRd "Identity"; Acq (LLocal "errLock") W; CapWr "err"; Rel (LLocal "errLock") W]];
-      Spawn [[Acq (LLocal "errLock") W; CapWr "err"; Rel (LLocal "errLock") W];
-        [PtrRd "Identity"];
-        [PtrRd "Identity"; Acq (LLocal "errLock") W; CapWr "err"; Rel (LLocal "errLock") W]];
-      WaitChildren;
-      B (CapRd "err");
-      B (PtrRd "Entries");
-      B (ObjWr "Entries");
-      B (PtrRd "heads");
-      B (ForeignObjRd "RawHeads");
-      B (ObjRd "heads");
-      B (PtrWr "heads");
-      B (PtrWr "Entries");
-      B (PtrRd "Clock");
-      B (PtrWr "Clock");
-      B (Rel LSelf W)];
-    (* Join #122 *) [B (Foreign "GetID");
-      B (Hook "join.before-heads");
-      B (Foreign "RawHeads");
-      B (Hook "join.before-entries");
-      B (Foreign "GetEntries");
-      B (Acq LSelf W);
-      B (Hook "join.locked");
-      B (ForeignObjRd "RawHeads");
-      B (PtrRd "Entries");
-      B (PtrWr "Entries");
-      B (Hook "join.diffed");
-      Spawn [[Acq (LLocal "errLock") W; CapWr "err"; Rel (LLocal "errLock") W];
-        [PtrRd "Identity"];
-        [PtrRd "Identity"; Acq (LLocal "errLock") W; CapWr "err"; Rel (LLocal "errLock") W]];
-      Spawn [[Acq (LLocal "errLock") W; CapWr "err"; Rel (LLocal "errLock") W];
-        [PtrRd "Identity"];
-        [PtrRd "Identity"; Acq (LLocal "errLock") W; CapWr "err"; Rel (LLocal "errLock") W]];
-      WaitChildren;
-      B (CapRd "err");
-      B (PtrRd "Next");
-      B (ObjWr "Next");
-      B (PtrRd "Entries");
-      B (ObjWr "Entries");
-      B (PtrRd "heads");
-      B (ForeignObjRd "RawHeads");
-      B (ObjRd "heads");
-      B (ObjRd "Next");
-      B (PtrWr "heads");
-      B (ObjRd "Entries");
-      B (PtrWr "Entries");
-      B (PtrRd "Clock");
-      B (PtrWr "Clock");
-      B (Rel LSelf W)];
-    (* Join #123 *) [B (Foreign "GetID");
-      B (Hook "join.before-heads");
-      B (Foreign "RawHeads");
-      B (Hook "join.before-entries");
-      B (Foreign "GetEntries");
-      B (Acq LSelf W);
-      B (Hook "join.locked");
-      B (ForeignObjRd "RawHeads");
-      B (PtrRd "Entries");
-      B (PtrWr "Entries");
-      B (Hook "join.diffed");
-      Spawn [[Acq (LLocal "errLock") W; CapWr "err"; Rel (LLocal "errLock") W];
-        [PtrRd "Identity"];
-        [PtrRd "Identity"; Acq (LLocal "errLock") W; CapWr "err"; Rel (LLocal "errLock") W]];
-      Spawn [[Acq (LLocal "errLock") W; CapWr "err"; Rel (LLocal "errLock") W];
-        [PtrRd "Identity"];
-        [PtrRd "Identity"; Acq (LLocal "errLock") W; CapWr "err"; Rel (LLocal "errLock") W]];
-      WaitChildren;
-      B (CapRd "err");
-      B (PtrRd "Next");
-      B (ObjWr "Next");
-      B (PtrRd "Entries");
-      B (ObjWr "Entries");
-      B (PtrRd "heads");
-      B (ForeignObjRd "RawHeads");
-      B (ObjRd "heads");
-      B (ObjRd "Next");
-      B (PtrWr "heads");
-      B (PtrRd "Clock");
-      B (PtrWr "Clock");
-      B (Rel LSelf W)];
-    (* Join #124 *) [B (Foreign "GetID");
-      B (Hook "join.before-heads");
-      B (Foreign "RawHeads");
-      B (Hook "join.before-entries");
-      B (Foreign "GetEntries");
-      B (Acq LSelf W);
-      B (Hook "join.locked");
-      B (ForeignObjRd "RawHeads");
-      B (PtrRd "Entries");
-      B (PtrWr "Entries");
-      B (Hook "join.diffed");
-      Spawn [[Acq (LLocal "errLock") W; CapWr "err"; Rel (LLocal "errLock") W];
-        [PtrRd "Identity"];
-        [PtrRd "Identity"; Acq (LLocal "errLock") W; CapWr "err"; Rel (LLocal "errLock") W]];
-      Spawn [[Acq (LLocal "errLock") W; CapWr "err"; Rel (LLocal "errLock") W];
-        [PtrRd "Identity"];
-        [PtrRd "Identity"; Acq (LLocal "errLock") W; CapWr "err"; Rel (LLocal "errLock") W]];
-      WaitChildren;
-      B (CapRd "err");
-      B (PtrRd "Next");
-      B (ObjWr "Next");
-      B (PtrRd "Entries");
-      B (ObjWr "Entries");
-      B (PtrRd "heads");
-      B (ForeignObjRd "RawHeads");
-      B (ObjRd "heads");
-      B (ObjRd "Next");
-      B (PtrWr "heads");
-      B (PtrWr "Entries");
-      B (PtrRd "Clock");
-      B (PtrWr "Clock");
-      B (Rel LSelf W)];
-    (* Join #125 *) [B (Foreign "GetID");
-      B (Hook "join.before-heads");
-      B (Foreign "RawHeads");
-      B (Hook "join.before-entries");
-      B (Foreign "GetEntries");
-      B (Acq LSelf W);
-      B (Hook "join.locked");
-      B (ForeignObjRd "RawHeads");
-      B (PtrRd "Entries");
-      B (PtrWr "Entries");
-      B (Hook "join.diffed");
-      Spawn [[Acq (LLocal "errLock") W; CapWr "err"; Rel (LLocal "errLock") W];
-        [PtrRd "Identity"];
-        [PtrRd "Identity"; Acq (LLocal "errLock") W; CapWr "err"; Rel (LLocal "errLock") W]];
-      Spawn [[Acq (LLocal "errLock") W; CapWr "err"; Rel (LLocal "errLock") W];
-        [PtrRd "Identity"];
-        [PtrRd "Identity"; Acq (LLocal "errLock") W; CapWr "err"; Rel (LLocal "errLock") W]];
-      WaitChildren;
-      B (CapRd "err");
-      B (PtrRd "Next");
-      B (ObjWr "Next");
-      B (PtrRd "Entries");
-      B (ObjWr "Entries");
-      B (PtrRd "heads");
-      B (ForeignObjRd "RawHeads");
-      B (ObjRd "heads");
-      B (PtrWr "heads");
-      B (ObjRd "Entries");
-      B (PtrWr "Entries");
-      B (PtrRd "Clock");
-      B (PtrWr "Clock");
-      B (Rel LSelf W)];
-    (* Join #126 *) [B (Foreign "GetID");
-      B (Hook "join.before-heads");
-      B (Foreign "RawHeads");
-      B (Hook "join.before-entries");
-      B (Foreign "GetEntries");
-      B (Acq LSelf W);
-      B (Hook "join.locked");
-      B (ForeignObjRd "RawHeads");
-      B (PtrRd "Entries");
-      B (PtrWr "Entries");
-      B (Hook "join.diffed");
-      Spawn [[Acq (LLocal "errLock") W; CapWr "err"; Rel (LLocal "errLock") W];
-        [PtrRd "Identity"];
-        [PtrRd "Identity"; Acq (LLocal "errLock") W; CapWr "err"; Rel (LLocal "errLock") W]];
-      Spawn [[Acq (LLocal "errLock") W; CapWr "err"; Rel (LLocal "errLock") W];
-        [PtrRd "Identity"];
-        [PtrRd "Identity"; Acq (LLocal "errLock") W; CapWr "err"; Rel (LLocal "errLock") W]];
-      WaitChildren;
-      B (CapRd "err");
-      B (PtrRd "Next");
-      B (ObjWr "Next");
-      B (PtrRd "Entries");
-      B (ObjWr "Entries");
-      B (PtrRd "heads");
-      B (ForeignObjRd "RawHeads");
-      B (ObjRd "heads");
-      B (PtrWr "heads");
-      B (PtrRd "Clock");
-      B (PtrWr "Clock");
-      B (Rel LSelf W)];
-    (* Join #127 *) [B (Foreign "GetID");
-      B (Hook "join.before-heads");
-      B (Foreign "RawHeads");
-      B (Hook "join.before-entries");
-      B (Foreign "GetEntries");
-      B (Acq LSelf W);
-      B (Hook "join.locked");
-      B (ForeignObjRd "RawHeads");
-      B (PtrRd "Entries");
-      B (PtrWr "Entries");
-      B (Hook "join.diffed");
-      Spawn [[Acq (LLocal "errLock") W; CapWr "err"; Rel (LLocal "errLock") W];
-        [PtrRd "Identity"];
-        [PtrRd "Identity"; Acq (LLocal "errLock") W; CapWr "err"; Rel (LLocal "errLock") W]];
-      Spawn [[Acq (LLocal "errLock") W; CapWr "err"; Rel (LLocal "errLock") W];
-        [PtrRd "Identity"];
-        [PtrRd "Identity"; Acq (LLocal "errLock") W; CapWr "err"; Rel (LLocal "errLock") W]];
-      WaitChildren;
-      B (CapRd "err");
-      B (PtrRd "Next");
-      B (ObjWr "Next");
-      B (PtrRd "Entries");
-      B (ObjWr "Entries");
-      B (PtrRd "heads");
-      B (ForeignObjRd "RawHeads");
-      B (ObjRd "heads");
-      B (PtrWr "heads");
-      B (PtrWr "Entries");
-      B (PtrRd "Clock");
-      B (PtrWr "Clock");
-      B (Rel LSelf W)];
-    (* Join #128 *) [B (Foreign "GetID");
-      B (Hook "join.before-heads");
-      B (Foreign "RawHeads");
-      B (Hook "join.before-entries");
-      B (Foreign "GetEntries");
-      B (Acq LSelf W);
-      B (Hook "join.locked");
-      B (ForeignObjRd "RawHeads");
-      B (PtrRd "Entries");
-      B (PtrWr "Entries");
-      B (Hook "join.diffed");
-      Spawn [[Acq (LLocal "errLock") W; CapWr "err"; Rel (LLocal "errLock") W];
-        [PtrRd "Identity"];
-        [PtrRd "Identity"; Acq (LLocal "errLock") W; CapWr "err"; Rel (LLocal "errLock") W]];
-      Spawn [[Acq (LLocal "errLock") W; CapWr "err"; Rel (LLocal "errLock") W];
-        [PtrRd "Identity"];
-        [PtrRd "Identity"; Acq (LLocal "errLock") W; CapWr "err"; Rel (LLocal "errLock") W]];
-      WaitChildren;
-      B (CapRd "err");
-      B (PtrRd "heads");
-      B (ForeignObjRd "RawHeads");
-      B (ObjRd "heads");
-      B (PtrRd "Next");
-      B (ObjRd "Next");
-      B (PtrWr "heads");
-      B (PtrRd "Clock");
-      B (PtrWr "Clock");
-      B (Rel LSelf W)];
-    (* Join #129 *) [B (Foreign "GetID");
-      B (Hook "join.before-heads");
-      B (Foreign "RawHeads");
-      B (Hook "join.before-entries");
-      B (Foreign "GetEntries");
-      B (Acq LSelf W);
-      B (Hook "join.locked");
-      B (ForeignObjRd "RawHeads");
-      B (PtrRd "Entries");
-      B (PtrWr "Entries");
-      B (Hook "join.diffed");
-      Spawn [[Acq (LLocal "errLock") W; CapWr "err"; Rel (LLocal "errLock") W];
-        [PtrRd "Identity"];
-        [PtrRd "Identity"; Acq (LLocal "errLock") W; CapWr "err"; Rel (LLocal "errLock") W]];
-      Spawn [[Acq (LLocal "errLock") W; CapWr "err"; Rel (LLocal "errLock") W];
-        [PtrRd "Identity"];
-        [PtrRd "Identity"; Acq (LLocal "errLock") W; CapWr "err"; Rel (LLocal "errLock") W]];
-      WaitChildren;
-      B (CapRd "err");
-      B (PtrRd "heads");
-      B (ForeignObjRd "RawHeads");
-      B (ObjRd "heads");
-      B (PtrRd "Next");
-      B (ObjRd "Next");
-      B (PtrWr "heads");
-      B (PtrRd "Entries");
-      B (ObjRd "Entries");
-      B (PtrWr "Entries");
-      B (PtrRd "Clock");
-      B (PtrWr "Clock");
-      B (Rel LSelf W)];
-    (* Join #130 *) [B (Foreign "GetID");
-      B (Hook "join.before-heads");
-      B (Foreign "RawHeads");
-      B (Hook "join.before-entries");
-      B (Foreign "GetEntries");
-      B (Acq LSelf W);
-      B (Hook "join.locked");
-      B (ForeignObjRd "RawHeads");
-      B (PtrRd "Entries");
-      B (PtrWr "Entries");
-      B (Hook "join.diffed");
-      Spawn [[Acq (LLocal "errLock") W; CapWr "err"; Rel (LLocal "errLock") W];
-        [PtrRd "Identity"];
-        [PtrRd "Identity"; Acq (LLocal "errLock") W; CapWr "err"; Rel (LLocal "errLock") W]];
-      Spawn [[Acq (LLocal "errLock") W; CapWr "err"; Rel (LLocal "errLock") W];
-        [PtrRd "Identity"];
-        [PtrRd "Identity"; Acq (LLocal "errLock") W; CapWr "err"; Rel (LLocal "errLock") W]];
-      WaitChildren;
-      B (CapRd "err");
-      B (PtrRd "heads");
-      B (ForeignObjRd "RawHeads");
-      B (ObjRd "heads");
-      B (PtrRd "Next");
-      B (ObjRd "Next");
-      B (PtrWr "heads");
-      B (PtrWr "Entries");
-      B (PtrRd "Clock");
-      B (PtrWr "Clock");
-      B (Rel LSelf W)];
-    (* Join #131 *) [B (Foreign "GetID");
-      B (Hook "join.before-heads");
-      B (Foreign "RawHeads");
-      B (Hook "join.before-entries");
-      B (Foreign "GetEntries");
-      B (Acq LSelf W);
-      B (Hook "join.locked");
-      B (ForeignObjRd "RawHeads");
-      B (PtrRd "Entries");
-      B (PtrWr "Entries");
-      B (Hook "join.diffed");
-      Spawn [[Acq (LLocal "errLock") W; CapWr "err"; Rel (LLocal "errLock") W];
-        [PtrRd "Identity"];
-        [PtrRd "Identity"; Acq (LLocal "errLock") W; CapWr "err"; Rel (LLocal "errLock") W]];
-      Spawn [[Acq (LLocal "errLock") W; CapWr "err"; Rel (LLocal "errLock") W];
-        [PtrRd "Identity"];
-        [PtrRd "Identity"; Acq (LLocal "errLock") W; CapWr "err"; Rel (LLocal "errLock") W]];
-      WaitChildren;
-      B (CapRd "err");
-      B (PtrRd "heads");
-      B (ForeignObjRd "RawHeads");
-      B (ObjRd "heads");
-      B (PtrWr "heads");
-      B (PtrRd "Clock");
-      B (PtrWr "Clock");
-      B (Rel LSelf W)];
-    (* Join #132 *) [B (Foreign "GetID");
-      B (Hook "join.before-heads");
-      B (Foreign "RawHeads");
-      B (Hook "join.before-entries");
-      B (Foreign "GetEntries");
-      B (Acq LSelf W);
-      B (Hook "join.locked");
-      B (ForeignObjRd "RawHeads");
-      B (PtrRd "Entries");
-      B (PtrWr "Entries");
-      B (Hook "join.diffed");
-      Spawn [[Acq (LLocal "errLock") W; CapWr "err"; Rel (LLocal "errLock") W];
-        [PtrRd "Identity"];
-        [PtrRd "Identity"; Acq (LLocal "errLock") W; CapWr "err"; Rel (LLocal "errLock") W]];
-      Spawn [[Acq (LLocal "errLock") W; CapWr "err"; Rel (LLocal "errLock") W];
-        [PtrRd "Identity"];
-        [PtrRd "Identity"; Acq (LLocal "errLock") W; CapWr "err"; Rel (LLocal "errLock") W]];
-      WaitChildren;
-      B (CapRd "err");
-      B (PtrRd "heads");
-      B (ForeignObjRd "RawHeads");
-      B (ObjRd "heads");
-      B (PtrWr "heads");
-      B (PtrRd "Entries");
-      B (ObjRd "Entries");
-      B (PtrWr "Entries");
-      B (PtrRd "Clock");
-      B (PtrWr "Clock");
-      B (Rel LSelf W)];
-    (* Join #133 *) [B (Foreign "GetID");
-      B (Hook "join.before-heads");
-      B (Foreign "RawHeads");
-      B (Hook "join.before-entries");
-      B (Foreign "GetEntries");
-      B (Acq LSelf W);
-      B (Hook "join.locked");
-      B (ForeignObjRd "RawHeads");
-      B (PtrRd "Entries");
-      B (PtrWr "Entries");
-      B (Hook "join.diffed");
-      Spawn [[Acq (LLocal "errLock") W; CapWr "err"; Rel (LLocal "errLock") W];
-        [PtrRd "Identity"];
-        [PtrRd "Identity"; Acq (LLocal "errLock") W; CapWr "err"; Rel (LLocal "errLock") W]];
-      Spawn [[Acq (LLocal "errLock") W; CapWr "err"; Rel (LLocal "errLock") W];
-        [PtrRd "Identity"];
-        [PtrRd "Identity"; Acq (LLocal "errLock") W; CapWr "err"; Rel (LLocal "errLock") W]];
-      WaitChildren;
-      B (CapRd "err");
-      B (PtrRd "heads");
-      B (ForeignObjRd "RawHeads");
-      B (ObjRd "heads");
-      B (PtrWr "heads");
-      B (PtrWr "Entries");
-      B (PtrRd "Clock");
-      B (PtrWr "Clock");
-      B (Rel LSelf W)];
-    (* Join #134 *) [B (Foreign "GetID");
-      B (Hook "join.before-heads");
-      B (Foreign "RawHeads");
-      B (Hook "join.before-entries");
-      B (Foreign "GetEntries");
-      B (Acq LSelf W);
-      B (Hook "join.locked");
-      B (ForeignObjRd "RawHeads");
-      B (PtrRd "Entries");
-      B (PtrWr "Entries");
-      B (Hook "join.diffed");
-      Spawn [[Acq (LLocal "errLock") W; CapWr "err"; Rel (LLocal "errLock") W];
-        [PtrRd "Identity"];
-        [PtrRd "Identity"; Acq (LLocal "errLock") W; CapWr "err"; Rel (LLocal "errLock") W]];
-      Spawn [[Acq (LLocal "errLock") W; CapWr "err"; Rel (LLocal "errLock") W];
-        [PtrRd "Identity"];
-        [PtrRd "Identity"; Acq (LLocal "errLock") W; CapWr "err"; Rel (LLocal "errLock") W]];
-      WaitChildren;
-      B (CapRd "err");
-      B (Rel LSelf W)];
-    (* Join #135 *) [B (Foreign "GetID");
-      B (Hook "join.before-heads");
-      B (Foreign "RawHeads");
-      B (Hook "join.before-entries");
-      B (Foreign "GetEntries");
-      B (Acq LSelf W);
-      B (Hook "join.locked");
-      B (ForeignObjRd "RawHeads");
-      B (PtrRd "Entries");
-      B (PtrWr "Entries");
-      B (Hook "join.diffed");
-      WaitChildren;
-      B (CapRd "err");
-      B (PtrRd "Entries");
-      B (ObjWr "Entries");
-      B (PtrRd "heads");
-      B (ForeignObjRd "RawHeads");
-      B (ObjRd "heads");
-      B (PtrRd "Next");
-      B (ObjRd "Next");
-      B (PtrWr "heads");
-      B (ObjRd "Entries");
-      B (PtrWr "Entries");
-      B (PtrRd "Clock");
-      B (PtrWr "Clock");
-      B (Rel LSelf W)];
-    (* Join #136 *) [B (Foreign "GetID");
-      B (Hook "join.before-heads");
-      B (Foreign "RawHeads");
-      B (Hook "join.before-entries");
-      B (Foreign "GetEntries");
-      B (Acq LSelf W);
-      B (Hook "join.locked");
-      B (ForeignObjRd "RawHeads");
-      B (PtrRd "Entries");
-      B (PtrWr "Entries");
-      B (Hook "join.diffed");
-      WaitChildren;
-      B (CapRd "err");
-      B (PtrRd "Entries");
-      B (ObjWr "Entries");
-      B (PtrRd "heads");
-      B (ForeignObjRd "RawHeads");
-      B (ObjRd "heads");
-      B (PtrRd "Next");
-      B (ObjRd "Next");
-      B (PtrWr "heads");
-      B (PtrRd "Clock");
-      B (PtrWr "Clock");
-      B (Rel LSelf W)];
-    (* Join #137 *) [B (Foreign "GetID");
-      B (Hook "join.before-heads");
-      B (Foreign "RawHeads");
-      B (Hook "join.before-entries");
-      B (Foreign "GetEntries");
-      B (Acq LSelf W);
-      B (Hook "join.locked");
-      B (ForeignObjRd "RawHeads");
-      B (PtrRd "Entries");
-      B (PtrWr "Entries");
-      B (Hook "join.diffed");
-      WaitChildren;
-      B (CapRd "err");
-      B (PtrRd "Entries");
-      B (ObjWr "Entries");
-      B (PtrRd "heads");
-      B (ForeignObjRd "RawHeads");
-      B (ObjRd "heads");
-      B (PtrRd "Next");
-      B (ObjRd "Next");
-      B (PtrWr "heads");
-      B (PtrWr "Entries");
-      B (PtrRd "Clock");
-      B (PtrWr "Clock");
-      B (Rel LSelf W)];
-    (* Join #138 *) [B (Foreign "GetID");
-      B (Hook "join.before-heads");
-      B (Foreign "RawHeads");
-      B (Hook "join.before-entries");
-      B (Foreign "GetEntries");
-      B (Acq LSelf W);
-      B (Hook "join.locked");
-      B (ForeignObjRd "RawHeads");
-      B (PtrRd "Entries");
-      B (PtrWr "Entries");
-      B (Hook "join.diffed");
-      WaitChildren;
-      B (CapRd "err");
-      B (PtrRd "Entries");
-      B (ObjWr "Entries");
-      B (PtrRd "heads");
-      B (ForeignObjRd "RawHeads");
-      B (ObjRd "heads");
-      B (PtrWr "heads");
-      B (ObjRd "Entries");
-      B (PtrWr "Entries");
-      B (PtrRd "Clock");
-      B (PtrWr "Clock");
-      B (Rel LSelf W)];
-    (* Join #139 *) [B (Foreign "GetID");
-      B (Hook "join.before-heads");
-      B (Foreign "RawHeads");
-      B (Hook "join.before-entries");
-      B (Foreign "GetEntries");
-      B (Acq LSelf W);
-      B (Hook "join.locked");
-      B (ForeignObjRd "RawHeads");
-      B (PtrRd "Entries");
-      B (PtrWr "Entries");
-      B (Hook "join.diffed");
-      WaitChildren;
-      B (CapRd "err");
-      B (PtrRd "Entries");
-      B (ObjWr "Entries");
-      B (PtrRd "heads");
-      B (ForeignObjRd "RawHeads");
-      B (ObjRd "heads");
-      B (PtrWr "heads");
-      B (PtrRd "Clock");
-      B (PtrWr "Clock");
-      B (Rel LSelf W)];
-    (* Join #140 *) [B (Foreign "GetID");
-      B (Hook "join.before-heads");
-      B (Foreign "RawHeads");
-      B (Hook "join.before-entries");
-      B (Foreign "GetEntries");
-      B (Acq LSelf W);
-      B (Hook "join.locked");
-      B (ForeignObjRd "RawHeads");
-      B (PtrRd "Entries");
-      B (PtrWr "Entries");
-      B (Hook "join.diffed");
-      WaitChildren;
-      B (CapRd "err");
-      B (PtrRd "Entries");
-      B (ObjWr "Entries");
-      B (PtrRd "heads");
-      B (ForeignObjRd "RawHeads");
-      B (ObjRd "heads");
-      B (PtrWr "heads");
-      B (PtrWr "Entries");
-      B (PtrRd "Clock");
-      B (PtrWr "Clock");
-      B (Rel LSelf W)];
-    (* Join #141 *) [B (Foreign "GetID");
-      B (Hook "join.before-heads");
-      B (Foreign "RawHeads");
-      B (Hook "join.before-entries");
-      B (Foreign "GetEntries");
-      B (Acq LSelf W);
-      B (Hook "join.locked");
-      B (ForeignObjRd "RawHeads");
-      B (PtrRd "Entries");
-      B (PtrWr "Entries");
-      B (Hook "join.diffed");
-      WaitChildren;
-      B (CapRd "err");
-      B (PtrRd "Next");
-      B (ObjWr "Next");
-      B (PtrRd "Entries");
-      B (ObjWr "Entries");
-      B (PtrRd "heads");
-      B (ForeignObjRd "RawHeads");
-      B (ObjRd "heads");
-      B (ObjRd "Next");
-      B (PtrWr "heads");
-      B (ObjRd "Entries");
-      B (PtrWr "Entries");
-      B (PtrRd "Clock");
-      B (PtrWr "Clock");
-      B (Rel LSelf W)];
-    (* Join #142 *) [B (Foreign "GetID");
-      B (Hook "join.before-heads");
-      B (Foreign "RawHeads");
-      B (Hook "join.before-entries");
-      B (Foreign "GetEntries");
-      B (Acq LSelf W);
-      B (Hook "join.locked");
-      B (ForeignObjRd "RawHeads");
-      B (PtrRd "Entries");
-      B (PtrWr "Entries");
-      B (Hook "join.diffed");
-      WaitChildren;
-      B (CapRd "err");
-      B (PtrRd "Next");
-      B (ObjWr "Next");
-      B (PtrRd "Entries");
-      B (ObjWr "Entries");
-      B (PtrRd "heads");
-      B (ForeignObjRd "RawHeads");
-      B (ObjRd "heads");
-      B (ObjRd "Next");
-      B (PtrWr "heads");
-      B (PtrRd "Clock");
-      B (PtrWr "Clock");
-      B (Rel LSelf W)];
-    (* Join #143 *) [B (Foreign "GetID");
-      B (Hook "join.before-heads");
-      B (Foreign "RawHeads");
-      B (Hook "join.before-entries");
-      B (Foreign "GetEntries");
-      B (Acq LSelf W);
-      B (Hook "join.locked");
-      B (ForeignObjRd "RawHeads");
-      B (PtrRd "Entries");
-      B (PtrWr "Entries");
-      B (Hook "join.diffed");
-      WaitChildren;
-      B (CapRd "err");
-      B (PtrRd "Next");
-      B (ObjWr "Next");
-      B (PtrRd "Entries");
-      B (ObjWr "Entries");
-      B (PtrRd "heads");
-      B (ForeignObjRd "RawHeads");
-      B (ObjRd "heads");
-      B (ObjRd "Next");
-      B (PtrWr "heads");
-      B (PtrWr "Entries");
-      B (PtrRd "Clock");
-      B (PtrWr "Clock");
-      B (Rel LSelf W)];
-    (* Join #144 *) [B (Foreign "GetID");
-      B (Hook "join.before-heads");
-      B (Foreign "RawHeads");
-      B (Hook "join.before-entries");
-      B (Foreign "GetEntries");
-      B (Acq LSelf W);
-      B (Hook "join.locked");
-      B (ForeignObjRd "RawHeads");
-      B (PtrRd "Entries");
-      B (PtrWr "Entries");
-      B (Hook "join.diffed");
-      WaitChildren;
-      B (CapRd "err");
-      B (PtrRd "Next");
-      B (ObjWr "Next");
-      B (PtrRd "Entries");
-      B (ObjWr "Entries");
-      B (PtrRd "heads");
-      B (ForeignObjRd "RawHeads");
-      B (ObjRd "heads");
-      B (PtrWr "heads");
-      B (ObjRd "Entries");
-      B (PtrWr "Entries");
-      B (PtrRd "Clock");
-      B (PtrWr "Clock");
-      B (Rel LSelf W)];
-    (* Join #145 *) [B (Foreign "GetID");
-      B (Hook "join.before-heads");
-      B (Foreign "RawHeads");
-      B (Hook "join.before-entries");
-      B (Foreign "GetEntries");
-      B (Acq LSelf W);
-      B (Hook "join.locked");
-      B (ForeignObjRd "RawHeads");
-      B (PtrRd "Entries");
-      B (PtrWr "Entries");
-      B (Hook "join.diffed");
-      WaitChildren;
-      B (CapRd "err");
-      B (PtrRd "Next");
-      B (ObjWr "Next");
-      B (PtrRd "Entries");
-      B (ObjWr "Entries");
-      B (PtrRd "heads");
-      B (ForeignObjRd "RawHeads");
-      B (ObjRd "heads");
-      B (PtrWr "heads");
-      B (PtrRd "Clock");
-      B (PtrWr "Clock");
-      B (Rel LSelf W)];
-    (* Join #146 *) [B (Foreign "GetID");
-      B (Hook "join.before-heads");
-      B (Foreign "RawHeads");
-      B (Hook "join.before-entries");
-      B (Foreign "GetEntries");
-      B (Acq LSelf W);
-      B (Hook "join.locked");
-      B (ForeignObjRd "RawHeads");
-      B (PtrRd "Entries");
-      B (PtrWr "Entries");
-      B (Hook "join.diffed");
-      WaitChildren;
-      B (CapRd "err");
-      B (PtrRd "Next");
-      B (ObjWr "Next");
-      B (PtrRd "Entries");
-      B (ObjWr "Entries");
-      B (PtrRd "heads");
-      B (ForeignObjRd "RawHeads");
-      B (ObjRd "heads");
-      B (PtrWr "heads");
-      B (PtrWr "Entries");
-      B (PtrRd "Clock");
-      B (PtrWr "Clock");
-      B (Rel LSelf W)];
-    (* Join #147 *) [B (Foreign "GetID");
-      B (Hook "join.before-heads");
-      B (Foreign "RawHeads");
-      B (Hook "join.before-entries");
-      B (Foreign "GetEntries");
-      B (Acq LSelf W);
-      B (Hook "join.locked");
-      B (ForeignObjRd "RawHeads");
-      B (PtrRd "Entries");
-      B (PtrWr "Entries");
-      B (Hook "join.diffed");
-      WaitChildren;
-      B (CapRd "err");
-      B (PtrRd "heads");
-      B (ForeignObjRd "RawHeads");
-      B (ObjRd "heads");
-      B (PtrRd "Next");
-      B (ObjRd "Next");
-      B (PtrWr "heads");
-      B (PtrRd "Clock");
-      B (PtrWr "Clock");
-      B (Rel LSelf W)];
-    (* Join #148 *) [B (Foreign "GetID");
-      B (Hook "join.before-heads");
-      B (Foreign "RawHeads");
-      B (Hook "join.before-entries");
-      B (Foreign "GetEntries");
-      B (Acq LSelf W);
-      B (Hook "join.locked");
-      B (ForeignObjRd "RawHeads");
-      B (PtrRd "Entries");
-      B (PtrWr "Entries");
-      B (Hook "join.diffed");
-      WaitChildren;
-      B (CapRd "err");
-      B (PtrRd "heads");
-      B (ForeignObjRd "RawHeads");
-      B (ObjRd "heads");
-      B (PtrRd "Next");
-      B (ObjRd "Next");
-      B (PtrWr "heads");
-      B (PtrRd "Entries");
-      B (ObjRd "Entries");
-      B (PtrWr "Entries");
-      B (PtrRd "Clock");
-      B (PtrWr "Clock");
-      B (Rel LSelf W)];
-    (* Join #149 *) [B (Foreign "GetID");
-      B (Hook "join.before-heads");
-      B (Foreign "RawHeads");
-      B (Hook "join.before-entries");
-      B (Foreign "GetEntries");
-      B (Acq LSelf W);
-      B (Hook "join.locked");
-      B (ForeignObjRd "RawHeads");
-      B (PtrRd "Entries");
-      B (PtrWr "Entries");
-      B (Hook "join.diffed");
-      WaitChildren;
-      B (CapRd "err");
-      B (PtrRd "heads");
-      B (ForeignObjRd "RawHeads");
-      B (ObjRd "heads");
-      B (PtrRd "Next");
-      B (ObjRd "Next");
-      B (PtrWr "heads");
-      B (PtrWr "Entries");
-      B (PtrRd "Clock");
-      B (PtrWr "Clock");
-      B (Rel LSelf W)];
-    (* Join #150 *) [B (Foreign "GetID");
-      B (Hook "join.before-heads");
-      B (Foreign "RawHeads");
-      B (Hook "join.before-entries");
-      B (Foreign "GetEntries");
-      B (Acq LSelf W);
-      B (Hook "join.locked");
-      B (ForeignObjRd "RawHeads");
-      B (PtrRd "Entries");
-      B (PtrWr "Entries");
-      B (Hook "join.diffed");
-      WaitChildren;
-      B (CapRd "err");
-      B (PtrRd "heads");
-      B (ForeignObjRd "RawHeads");
-      B (ObjRd "heads");
-      B (PtrWr "heads");
-      B (PtrRd "Clock");
-      B (PtrWr "Clock");
-      B (Rel LSelf W)];
-    (* Join #151 *) [B (Foreign "GetID");
-      B (Hook "join.before-heads");
-      B (Foreign "RawHeads");
-      B (Hook "join.before-entries");
-      B (Foreign "GetEntries");
-      B (Acq LSelf W);
-      B (Hook "join.locked");
-      B (ForeignObjRd "RawHeads");
-      B (PtrRd "Entries");
-      B (PtrWr "Entries");
-      B (Hook "join.diffed");
-      WaitChildren;
-      B (CapRd "err");
-      B (PtrRd "heads");
-      B (ForeignObjRd "RawHeads");
-      B (ObjRd "heads");
-      B (PtrWr "heads");
-      B (PtrRd "Entries");
-      B (ObjRd "Entries");
-      B (PtrWr "Entries");
-      B (PtrRd "Clock");
-      B (PtrWr "Clock");
-      B (Rel LSelf W)];
-    (* Join #152 *) [B (Foreign "GetID");
-      B (Hook "join.before-heads");
-      B (Foreign "RawHeads");
-      B (Hook "join.before-entries");
-      B (Foreign "GetEntries");
-      B (Acq LSelf W);
-      B (Hook "join.locked");
-      B (ForeignObjRd "RawHeads");
-      B (PtrRd "Entries");
-      B (PtrWr "Entries");
-      B (Hook "join.diffed");
-      WaitChildren;
-      B (CapRd "err");
-      B (PtrRd "heads");
-      B (ForeignObjRd "RawHeads");
-      B (ObjRd "heads");
-      B (PtrWr "heads");
-      B (PtrWr "Entries");
-      B (PtrRd "Clock");
-      B (PtrWr "Clock");
-      B (Rel LSelf W)];
-    (* Join #153 *) [B (Foreign "GetID");
-      B (Hook "join.before-heads");
-      B (Foreign "RawHeads");
-      B (Hook "join.before-entries");
-      B (Foreign "GetEntries");
-      B (Acq LSelf W);
-      B (Hook "join.locked");
-      B (ForeignObjRd "RawHeads");
-      B (PtrRd "Entries");
-      B (PtrWr "Entries");
-      B (Hook "join.diffed");
-      WaitChildren;
-      B (CapRd "err");
-      B (Rel LSelf W)];
-    (* Join #154 *) [B (Foreign "GetID");
-      B (Hook "join.before-heads");
-      B (Foreign "RawHeads");
-      B (Hook "join.before-entries");
-      B (Foreign "GetEntries");
-      B (Acq LSelf W);
-      B (Hook "join.locked");
-      B (ForeignObjRd "RawHeads");
-      B (PtrRd "Entries");
-      B (PtrWr "Entries");
-      B (ObjRd "Entries");
-      B (Hook "join.diffed");
-      Spawn [[Acq (LLocal "errLock") W; CapWr "err"; Rel (LLocal "errLock") W];
-        [PtrRd "Identity"];
-        [PtrRd "Identity"; Acq (LLocal "errLock") W; CapWr "err"; Rel (LLocal "errLock") W]];
-      Spawn [[Acq (LLocal "errLock") W; CapWr "err"; Rel (LLocal "errLock") W];
-        [PtrRd "Identity"];
-        [PtrRd "Identity"; Acq (LLocal "errLock") W; CapWr "err"; Rel (LLocal "errLock") W]];
-      WaitChildren;
-      B (CapRd "err");
-      B (PtrRd "Entries");
-      B (ObjWr "Entries");
-      B (PtrRd "heads");
-      B (ForeignObjRd "RawHeads");
-      B (ObjRd "heads");
-      B (PtrRd "Next");
-      B (ObjRd "Next");
-      B (PtrWr "heads");
-      B (ObjRd "Entries");
-      B (PtrWr "Entries");
-      B (PtrRd "Clock");
-      B (PtrWr "Clock");
-      B (Rel LSelf W)];
-    (* Join #155 *) [B (Foreign "GetID");
-      B (Hook "join.before-heads");
-      B (Foreign "RawHeads");
-      B (Hook "join.before-entries");
-      B (Foreign "GetEntries");
-      B (Acq LSelf W);
-      B (Hook "join.locked");
-      B (ForeignObjRd "RawHeads");
-      B (PtrRd "Entries");
-      B (PtrWr "Entries");
-      B (ObjRd "Entries");
-      B (Hook "join.diffed");
-      Spawn [[Acq (LLocal "errLock") W; CapWr "err"; Rel (LLocal "errLock") W];
-        [PtrRd "Identity"];
-        [PtrRd "Identity"; Acq (LLocal "errLock") W; CapWr "err"; Rel (LLocal "errLock") W]];
-      Spawn [[Acq (LLocal "errLock") W; CapWr "err"; Rel (LLocal "errLock") W];
-        [PtrRd "Identity"];
-        [PtrRd "Identity"; Acq (LLocal "errLock") W; CapWr "err"; Rel (LLocal "errLock") W]];
-      WaitChildren;
-      B (CapRd "err");
-      B (PtrRd "Entries");
-      B (ObjWr "Entries");
-      B (PtrRd "heads");
-      B (ForeignObjRd "RawHeads");
-      B (ObjRd "heads");
-      B (PtrRd "Next");
-      B (ObjRd "Next");
-      B (PtrWr "heads");
-      B (PtrRd "Clock");
-      B (PtrWr "Clock");
-      B (Rel LSelf W)];
-    (* Join #156 *) [B (Foreign "GetID");
-      B (Hook "join.before-heads");
-      B (Foreign "RawHeads");
-      B (Hook "join.before-entries");
-      B (Foreign "GetEntries");
-      B (Acq LSelf W);
-      B (Hook "join.locked");
-      B (ForeignObjRd "RawHeads");
-      B (PtrRd "Entries");
-      B (PtrWr "Entries");
-      B (ObjRd "Entries");
-      B (Hook "join.diffed");
-      Spawn [[Acq (LLocal "errLock") W; CapWr "err"; Rel (LLocal "errLock") W];
-        [PtrRd "Identity"];
-        [PtrRd "Identity"; Acq (LLocal "errLock") W; CapWr "err"; Rel (LLocal "errLock") W]];
-      Spawn [[Acq (LLocal "errLock") W; CapWr "err"; Rel (LLocal "errLock") W];
-        [PtrRd "Identity"];
-        [PtrRd "Identity"; Acq (LLocal "errLock") W; CapWr "err"; Rel (LLocal "errLock") W]];
-      WaitChildren;
-      B (CapRd "err");
-      B (PtrRd "Entries");
-      B (ObjWr "Entries");
-      B (PtrRd "heads");
-      B (ForeignObjRd "RawHeads");
-      B (ObjRd "heads");
-      B (PtrRd "Next");
-      B (ObjRd "Next");
-      B (PtrWr "heads");
-      B (PtrWr "Entries");
-      B (PtrRd "Clock");
-      B (PtrWr "Clock");
-      B (Rel LSelf W)];
-    (* Join #157 *) [B (Foreign "GetID");
-      B (Hook "join.before-heads");
-      B (Foreign "RawHeads");
-      B (Hook "join.before-entries");
-      B (Foreign "GetEntries");
-      B (Acq LSelf W);
-      B (Hook "join.locked");
-      B (ForeignObjRd "RawHeads");
-      B (PtrRd "Entries");
-      B (PtrWr "Entries");
-      B (ObjRd "Entries");
-      B (Hook "join.diffed");
-      Spawn [[Acq (LLocal "errLock") W; CapWr "err"; Rel (LLocal "errLock") W];
-        [PtrRd "Identity"];
-        [PtrRd "Identity"; Acq (LLocal "errLock") W; CapWr "err"; Rel (LLocal "errLock") W]];
-      Spawn [[Acq (LLocal "errLock") W; CapWr "err"; Rel (LLocal "errLock") W];
-        [PtrRd "Identity"];
-        [PtrRd "Identity"; Acq (LLocal "errLock") W; CapWr "err"; Rel (LLocal "errLock") W]];
-      WaitChildren;
-      B (CapRd "err");
-      B (PtrRd "Entries");
-      B (ObjWr "Entries");
-      B (PtrRd "heads");
-      B (ForeignObjRd "RawHeads");
-      B (ObjRd "heads");
-      B (PtrWr "heads");
-      B (ObjRd "Entries");
-      B (PtrWr "Entries");
-      B (PtrRd "Clock");
-      B (PtrWr "Clock");
-      B (Rel LSelf W)];
-    (* Join #158 *) [B (Foreign "GetID");
-      B (Hook "join.before-heads");
-      B (Foreign "RawHeads");
-      B (Hook "join.before-entries");
-      B (Foreign "GetEntries");
-      B (Acq LSelf W);
-      B (Hook "join.locked");
-      B (ForeignObjRd "RawHeads");
-      B (PtrRd "Entries");
-      B (PtrWr "Entries");
-      B (ObjRd "Entries");
-      B (Hook "join.diffed");
-      Spawn [[Acq (LLocal "errLock") W; CapWr "err"; Rel (LLocal "errLock") W];
-        [PtrRd "Identity"];
-        [PtrRd "Identity"; Acq (LLocal "errLock") W; CapWr "err"; Rel (LLocal "errLock") W]];
-      Spawn [[Acq (LLocal "errLock") W; CapWr "err"; Rel (LLocal "errLock") W];
-        [PtrRd "Identity"];
-        [PtrRd "Identity"; Acq (LLocal "errLock") W; CapWr "err"; Rel (LLocal "errLock") W]];
-      WaitChildren;
-      B (CapRd "err");
-      B (PtrRd "Entries");
-      B (ObjWr "Entries");
-      B (PtrRd "heads");
-      B (ForeignObjRd "RawHeads");
-      B (ObjRd "heads");
-      B (PtrWr "heads");
-      B (PtrRd "Clock");
-      B (PtrWr "Clock");
-      B (Rel LSelf W)];
-    (* Join #159 *) [B (Foreign "GetID");
-      B (Hook "join.before-heads");
-      B (Foreign "RawHeads");
-      B (Hook "join.before-entries");
-      B (Foreign "GetEntries");
-      B (Acq LSelf W);
-      B (Hook "join.locked");
-      B (ForeignObjRd "RawHeads");
-      B (PtrRd "Entries");
-      B (PtrWr "Entries");
-      B (ObjRd "Entries");
-      B (Hook "join.diffed");
-      Spawn [[Acq (LLocal "errLock") W; CapWr "err"; Rel (LLocal "errLock") W];
-        [PtrRd "Identity"];
-        [PtrRd "Identity"; Acq (LLocal "errLock") W; CapWr "err"; Rel (LLocal "errLock") W]];
-      Spawn [[Acq (LLocal "errLock") W; CapWr "err"; Rel (LLocal "errLock") W];
-        [PtrRd "Identity"];
-        [PtrRd "Identity"; Acq (LLocal "errLock") W; CapWr "err"; Rel (LLocal "errLock") W]];
-      WaitChildren;
-      B (CapRd "err");
-      B (PtrRd "Entries");
-      B (ObjWr "Entries");
-      B (PtrRd "heads");
-      B (ForeignObjRd "RawHeads");
-      B (ObjRd "heads");
-      B (PtrWr "heads");
-      B (PtrWr "Entries");
-      B (PtrRd "Clock");
-      B (PtrWr "Clock");
-      B (Rel LSelf W)];
-    (* Join #160 *) [B (Foreign "GetID");
-      B (Hook "join.before-heads");
-      B (Foreign "RawHeads");
-      B (Hook "join.before-entries");
-      B (Foreign "GetEntries");
-      B (Acq LSelf W);
-      B (Hook "join.locked");
-      B (ForeignObjRd "RawHeads");
-      B (PtrRd "Entries");
-      B (PtrWr "Entries");
-      B (ObjRd "Entries");
-      B (Hook "join.diffed");
-      Spawn [[Acq (LLocal "errLock") W; CapWr "err"; Rel (LLocal "errLock") W];
-        [PtrRd "Identity"];
-        [PtrRd "Identity"; Acq (LLocal "errLock") W; CapWr "err"; Rel (LLocal "errLock") W]];
-      Spawn [[Acq (LLocal "errLock") W; CapWr "err"; Rel (LLocal "errLock") W];
-        [PtrRd "Identity"];
-        [PtrRd "Identity"; Acq (LLocal "errLock") W; CapWr "err"; Rel (LLocal "errLock") W]];
-      WaitChildren;
-      B (CapRd "err");
-      B (PtrRd "Next");
-      B (ObjWr "Next");
-      B (PtrRd "Entries");
-      B (ObjWr "Entries");
-      B (PtrRd "heads");
-      B (ForeignObjRd "RawHeads");
-      B (ObjRd "heads");
-      B (ObjRd "Next");
-      B (PtrWr "heads");
-      B (ObjRd "Entries");
-      B (PtrWr "Entries");
-      B (PtrRd "Clock");
-      B (PtrWr "Clock");
-      B (Rel LSelf W)];
-    (* Join #161 *) [B (Foreign "GetID");
-      B (Hook "join.before-heads");
-      B (Foreign "RawHeads");
-      B (Hook "join.before-entries");
-      B (Foreign "GetEntries");
-      B (Acq LSelf W);
-      B (Hook "join.locked");
-      B (ForeignObjRd "RawHeads");
-      B (PtrRd "Entries");
-      B (PtrWr "Entries");
-      B (ObjRd "Entries");
-      B (Hook "join.diffed");
-      Spawn [[Acq (LLocal "errLock") W; CapWr "err"; Rel (LLocal "errLock") W];
-        [PtrRd "Identity"];
-        [PtrRd "Identity"; Acq (LLocal "errLock") W; CapWr "err"; Rel (LLocal "errLock") W]];
-      Spawn [[Acq (LLocal "errLock") W; CapWr "err"; Rel (LLocal "errLock") W];
-        [PtrRd "Identity"];
-        [PtrRd "Identity"; Acq (LLocal "errLock") W; CapWr "err"; Rel (LLocal "errLock") W]];
-      WaitChildren;
-      B (CapRd "err");
-      B (PtrRd "Next");
-      B (ObjWr "Next");
-      B (PtrRd "Entries");
-      B (ObjWr "Entries");
-      B (PtrRd "heads");
-      B (ForeignObjRd "RawHeads");
-      B (ObjRd "heads");
-      B (ObjRd "Next");
-      B (PtrWr "heads");
-      B (PtrRd "Clock");
-      B (PtrWr "Clock");
-      B (Rel LSelf W)];
-    (* Join #162 *) [B (Foreign "GetID");
-      B (Hook "join.before-heads");
-      B (Foreign "RawHeads");
-      B (Hook "join.before-entries");
-      B (Foreign "GetEntries");
-      B (Acq LSelf W);
-      B (Hook "join.locked");
-      B (ForeignObjRd "RawHeads");
-      B (PtrRd "Entries");
-      B (PtrWr "Entries");
-      B (ObjRd "Entries");
-      B (Hook "join.diffed");
-      Spawn [[Acq (LLocal "errLock") W; CapWr "err"; Rel (LLocal "errLock") W];
-        [PtrRd "Identity"];
-        [PtrRd "Identity"; Acq (LLocal "errLock") W; CapWr "err"; Rel (LLocal "errLock") W]];
-      Spawn [[Acq (LLocal "errLock") W; CapWr "err"; Rel (LLocal "errLock") W];
-        [PtrRd "Identity"];
-        [PtrRd "Identity"; Acq (LLocal "errLock") W; CapWr "err"; Rel (LLocal "errLock") W]];
-      WaitChildren;
-      B (CapRd "err");
-      B (PtrRd "Next");
-      B (ObjWr "Next");
-      B (PtrRd "Entries");
-      B (ObjWr "Entries");
-      B (PtrRd "heads");
-      B (ForeignObjRd "RawHeads");
-      B (ObjRd "heads");
-      B (ObjRd "Next");
-      B (PtrWr "heads");
-      B (PtrWr "Entries");
-      B (PtrRd "Clock");
-      B (PtrWr "Clock");
-      B (Rel LSelf W)];
-    (* Join #163 *) [B (Foreign "GetID");
-      B (Hook "join.before-heads");
-      B (Foreign "RawHeads");
-      B (Hook "join.before-entries");
-      B (Foreign "GetEntries");
-      B (Acq LSelf W);
-      B (Hook "join.locked");
-      B (ForeignObjRd "RawHeads");
-      B (PtrRd "Entries");
-      B (PtrWr "Entries");
-      B (ObjRd "Entries");
-      B (Hook "join.diffed");
-      Spawn [[Acq (LLocal "errLock") W; CapWr "err"; Rel (LLocal "errLock") W];
-        [PtrRd "Identity"];
-        [PtrRd "Identity"; Acq (LLocal "errLock") W; CapWr "err"; Rel (LLocal "errLock") W]];
-      Spawn [[Acq (LLocal "errLock") W; CapWr "err"; Rel (LLocal "errLock") W];
-        [PtrRd "Identity"];
-        [PtrRd "Identity"; Acq (LLocal "errLock") W; CapWr "err"; Rel (LLocal "errLock") W]];
-      WaitChildren;
-      B (CapRd "err");
-      B (PtrRd "Next");
-      B (ObjWr "Next");
-      B (PtrRd "Entries");
-      B (ObjWr "Entries");
-      B (PtrRd "heads");
-      B (ForeignObjRd "RawHeads");
-      B (ObjRd "heads");
-      B (PtrWr "heads");
-      B (ObjRd "Entries");
-      B (PtrWr "Entries");
-      B (PtrRd "Clock");
-      B (PtrWr "Clock");
-      B (Rel LSelf W)];
-    (* Join #164 *) [B (Foreign "GetID");
-      B (Hook "join.before-heads");
-      B (Foreign "RawHeads");
-      B (Hook "join.before-entries");
-      B (Foreign "GetEntries");
-      B (Acq LSelf W);
-      B (Hook "join.locked");
-      B (ForeignObjRd "RawHeads");
-      B (PtrRd "Entries");
-      B (PtrWr "Entries");
-      B (ObjRd "Entries");
-      B (Hook "join.diffed");
-      Spawn [[Acq (LLocal "errLock") W; CapWr "err"; Rel (LLocal "errLock") W];
-        [PtrRd "Identity"];
-        [PtrRd "Identity"; Acq (LLocal "errLock") W; CapWr "err"; Rel (LLocal "errLock") W]];
-      Spawn [[Acq (LLocal "errLock") W; CapWr "err"; Rel (LLocal "errLock") W];
-        [PtrRd "Identity"];
-        [PtrRd "Identity"; Acq (LLocal "errLock") W; CapWr "err"; Rel (LLocal "errLock") W]];
-      WaitChildren;
-      B (CapRd "err");
-      B (PtrRd "Next");
-      B (ObjWr "Next");
-      B (PtrRd "Entries");
-      B (ObjWr "Entries");
-      B (PtrRd "heads");
-      B (ForeignObjRd "RawHeads");
-      B (ObjRd "heads");
-      B (PtrWr "heads");
-      B (PtrRd "Clock");
-      B (PtrWr "Clock");
-      B (Rel LSelf W)];
-    (* Join #165 *) [B (Foreign "GetID");
-      B (Hook "join.before-heads");
-      B (Foreign "RawHeads");
-      B (Hook "join.before-entries");
-      B (Foreign "GetEntries");
-      B (Acq LSelf W);
-      B (Hook "join.locked");
-      B (ForeignObjRd "RawHeads");
-      B (PtrRd "Entries");
-      B (PtrWr "Entries");
-      B (ObjRd "Entries");
-      B (Hook "join.diffed");
-      Spawn [[Acq (LLocal "errLock") W; CapWr "err"; Rel (LLocal "errLock") W];
-        [PtrRd "Identity"];
-        [PtrRd "Identity"; Acq (LLocal "errLock") W; CapWr "err"; Rel (LLocal "errLock") W]];
-      Spawn [[Acq (LLocal "errLock") W; CapWr "err"; Rel (LLocal "errLock") W];
-        [PtrRd "Identity"];
-        [PtrRd "Identity"; Acq (LLocal "errLock") W; CapWr "err"; Rel (LLocal "errLock") W]];
-      WaitChildren;
-      B (CapRd "err");
-      B (PtrRd "Next");
-      B (ObjWr "Next");
-      B (PtrRd "Entries");
-      B (ObjWr "Entries");
-      B (PtrRd "heads");
-      B (ForeignObjRd "RawHeads");
-      B (ObjRd "heads");
-      B (PtrWr "heads");
-      B (PtrWr "Entries");
-      B (PtrRd "Clock");
-      B (PtrWr "Clock");
-      B (Rel LSelf W)];
-    (* Join #166 *) [B (Foreign "GetID");
-      B (Hook "join.before-heads");
-      B (Foreign "RawHeads");
-      B (Hook "join.before-entries");
-      B (Foreign "GetEntries");
-      B (Acq LSelf W);
-      B (Hook "join.locked");
-      B (ForeignObjRd "RawHeads");
-      B (PtrRd "Entries");
-      B (PtrWr "Entries");
-      B (ObjRd "Entries");
-      B (Hook "join.diffed");
-      Spawn [[Acq (LLocal "errLock") W; CapWr "err"; Rel (LLocal "errLock") W];
-        [PtrRd "Identity"];
-        [PtrRd "Identity"; Acq (LLocal "errLock") W; CapWr "err"; Rel (LLocal "errLock") W]];
-      Spawn [[Acq (LLocal "errLock") W; CapWr "err"; Rel (LLocal "errLock") W];
-        [PtrRd "Identity"];
-        [PtrRd "Identity"; Acq (LLocal "errLock") W; CapWr "err"; Rel (LLocal "errLock") W]];
-      WaitChildren;
-      B (CapRd "err");
-      B (PtrRd "heads");
-      B (ForeignObjRd "RawHeads");
-      B (ObjRd "heads");
-      B (PtrRd "Next");
-      B (ObjRd "Next");
-      B (PtrWr "heads");
-      B (PtrRd "Clock");
-      B (PtrWr "Clock");
-      B (Rel LSelf W)];
-    (* Join #167 *) [B (Foreign "GetID");
-      B (Hook "join.before-heads");
-      B (Foreign "RawHeads");
-      B (Hook "join.before-entries");
-      B (Foreign "GetEntries");
-      B (Acq LSelf W);
-      B (Hook "join.locked");
-      B (ForeignObjRd "RawHeads");
-      B (PtrRd "Entries");
-      B (PtrWr "Entries");
-      B (ObjRd "Entries");
-      B (Hook "join.diffed");
-      Spawn [[Acq (LLocal "errLock") W; CapWr "err"; Rel (LLocal "errLock") W];
-        [PtrRd "Identity"];
-        [PtrRd "Identity"; Acq (LLocal "errLock") W; CapWr "err"; Rel (LLocal "errLock") W]];
-      Spawn [[Acq (LLocal "errLock") W; CapWr "err"; Rel (LLocal "errLock") W];
-        [PtrRd "Identity"];
-        [PtrRd "Identity"; Acq (LLocal "errLock") W; CapWr "err"; Rel (LLocal "errLock") W]];
-      WaitChildren;
-      B (CapRd "err");
-      B (PtrRd "heads");
-      B (ForeignObjRd "RawHeads");
-      B (ObjRd "heads");
-      B (PtrRd "Next");
-      B (ObjRd "Next");
-      B (PtrWr "heads");
-      B (PtrRd "Entries");
-      B (ObjRd "Entries");
-      B (PtrWr "Entries");
-      B (PtrRd "Clock");
-      B (PtrWr "Clock");
-      B (Rel LSelf W)];
-    (* Join #168 *) [B (Foreign "GetID");
-      B (Hook "join.before-heads");
-      B (Foreign "RawHeads");
-      B (Hook "join.before-entries");
-      B (Foreign "GetEntries");
-      B (Acq LSelf W);
-      B (Hook "join.locked");
-      B (ForeignObjRd "RawHeads");
-      B (PtrRd "Entries");
-      B (PtrWr "Entries");
-      B (ObjRd "Entries");
-      B (Hook "join.diffed");
-      Spawn [[Acq (LLocal "errLock") W; CapWr "err"; Rel (LLocal "errLock") W];
-        [PtrRd "Identity"];
-        [PtrRd "Identity"; Acq (LLocal "errLock") W; CapWr "err"; Rel (LLocal "errLock") W]];
-      Spawn [[Acq (LLocal "errLock") W; CapWr "err"; Rel (LLocal "errLock") W];
-        [PtrRd "Identity"];
-        [PtrRd "Identity"; Acq (LLocal "errLock") W; CapWr "err"; Rel (LLocal "errLock") W]];
-      WaitChildren;
-      B (CapRd "err");
-      B (PtrRd "heads");
-      B (ForeignObjRd "RawHeads");
-      B (ObjRd "heads");
-      B (PtrRd "Next");
-      B (ObjRd "Next");
-      B (PtrWr "heads");
-      B (PtrWr "Entries");
-      B (PtrRd "Clock");
-      B (PtrWr "Clock");
-      B (Rel LSelf W)];
-    (* Join #169 *) [B (Foreign "GetID");
-      B (Hook "join.before-heads");
-      B (Foreign "RawHeads");
-      B (Hook "join.before-entries");
-      B (Foreign "GetEntries");
-      B (Acq LSelf W);
-      B (Hook "join.locked");
-      B (ForeignObjRd "RawHeads");
-      B (PtrRd "Entries");
-      B (PtrWr "Entries");
-      B (ObjRd "Entries");
-      B (Hook "join.diffed");
-      Spawn [[Acq (LLocal "errLock") W; CapWr "err"; Rel (LLocal "errLock") W];
-        [PtrRd "Identity"];
-        [PtrRd "Identity"; Acq (LLocal "errLock") W; CapWr "err"; Rel (LLocal "errLock") W]];
-      Spawn [[Acq (LLocal "errLock") W; CapWr "err"; Rel (LLocal "errLock") W];
-        [PtrRd "Identity"];
-        [PtrRd "Identity"; Acq (LLocal "errLock") W; CapWr "err"; Rel (LLocal "errLock") W]];
-      WaitChildren;
-      B (CapRd "err");
-      B (PtrRd "heads");
-      B (ForeignObjRd "RawHeads");
-      B (ObjRd "heads");
-      B (PtrWr "heads");
-      B (PtrRd "Clock");
-      B (PtrWr "Clock");
-      B (Rel LSelf W)];
-    (* Join #170 *) [B (Foreign "GetID");
-      B (Hook "join.before-heads");
-      B (Foreign "RawHeads");
-      B (Hook "join.before-entries");
-      B (Foreign "GetEntries");
-      B (Acq LSelf W);
-      B (Hook "join.locked");
-      B (ForeignObjRd "RawHeads");
-      B (PtrRd "Entries");
-      B (PtrWr "Entries");
-      B (ObjRd "Entries");
-      B (Hook "join.diffed");
-      Spawn [[Acq (LLocal "errLock") W; CapWr "err"; Rel (LLocal "errLock") W];
-        [PtrRd "Identity"];
-        [PtrRd "Identity"; Acq (LLocal "errLock") W; CapWr "err"; Rel (LLocal "errLock") W]];
-      Spawn [[Acq (LLocal "errLock") W; CapWr "err"; Rel (LLocal "errLock") W];
-        [PtrRd "Identity"];
-        [PtrRd "Identity"; Acq (LLocal "errLock") W; CapWr "err"; Rel (LLocal "errLock") W]];
-      WaitChildren;
-      B (CapRd "err");
-      B (PtrRd "heads");
-      B (ForeignObjRd "RawHeads");
-      B (ObjRd "heads");
-      B (PtrWr "heads");
-      B (PtrRd "Entries");
-      B (ObjRd "Entries");
-      B (PtrWr "Entries");
-      B (PtrRd "Clock");
-      B (PtrWr "Clock");
-      B (Rel LSelf W)];
-    (* Join #171 *) [B (Foreign "GetID");
-      B (Hook "join.before-heads");
-      B (Foreign "RawHeads");
-      B (Hook "join.before-entries");
-      B (Foreign "GetEntries");
-      B (Acq LSelf W);
-      B (Hook "join.locked");
-      B (ForeignObjRd "RawHeads");
-      B (PtrRd "Entries");
-      B (PtrWr "Entries");
-      B (ObjRd "Entries");
-      B (Hook "join.diffed");
-      Spawn [[Acq (LLocal "errLock") W; CapWr "err"; Rel (LLocal "errLock") W];
-        [PtrRd "Identity"];
-        [PtrRd "Identity"; Acq (LLocal "errLock") W; CapWr "err"; Rel (LLocal "errLock") W]];
-      Spawn [[Acq (LLocal "errLock") W; CapWr "err"; Rel (LLocal "errLock") W];
-        [PtrRd "Identity"];
-        [PtrRd "Identity"; Acq (LLocal "errLock") W; CapWr "err"; Rel (LLocal "errLock") W]];
-      WaitChildren;
-      B (CapRd "err");
-      B (PtrRd "heads");
-      B (ForeignObjRd "RawHeads");
-      B (ObjRd "heads");
-      B (PtrWr "heads");
-      B (PtrWr "Entries");
-      B (PtrRd "Clock");
-      B (PtrWr "Clock");
-      B (Rel LSelf W)];
-    (* Join #172 *) [B (Foreign "GetID");
-      B (Hook "join.before-heads");
-      B (Foreign "RawHeads");
-      B (Hook "join.before-entries");
-      B (Foreign "GetEntries");
-      B (Acq LSelf W);
-      B (Hook "join.locked");
-      B (ForeignObjRd "RawHeads");
-      B (PtrRd "Entries");
-      B (PtrWr "Entries");
-      B (ObjRd "Entries");
-      B (Hook "join.diffed");
-      Spawn [[Acq (LLocal "errLock") W; CapWr "err"; Rel (LLocal "errLock") W];
-        [PtrRd "Identity"];
-        [PtrRd "Identity"; Acq (LLocal "errLock") W; CapWr "err"; Rel (LLocal "errLock") W]];
-      Spawn [[Acq (LLocal "errLock") W; CapWr "err"; Rel (LLocal "errLock") W];
-        [PtrRd "Identity"];
-        [PtrRd "Identity"; Acq (LLocal "errLock") W; CapWr "err"; Rel (LLocal "errLock") W]];
-      WaitChildren;
-      B (CapRd "err");
-      B (Rel LSelf W)];
-    (* Join #173 *) [B (Foreign "GetID");
-      B (Hook "join.before-heads");
-      B (Foreign "RawHeads");
-      B (Hook "join.before-entries");
-      B (Foreign "GetEntries");
-      B (Acq LSelf W);
-      B (Hook "join.locked");
-      B (ForeignObjRd "RawHeads");
-      B (PtrRd "Entries");
-      B (PtrWr "Entries");
-      B (ObjRd "Entries");
-      B (Hook "join.diffed");
-      WaitChildren;
-      B (CapRd "err");
-      B (PtrRd "Entries");
-      B (ObjWr "Entries");
-      B (PtrRd "heads");
-      B (ForeignObjRd "RawHeads");
-      B (ObjRd "heads");
-      B (PtrRd "Next");
-      B (ObjRd "Next");
-      B (PtrWr "heads");
-      B (ObjRd "Entries");
-      B (PtrWr "Entries");
-      B (PtrRd "Clock");
-      B (PtrWr "Clock");
-      B (Rel LSelf W)];
-    (* Join #174 *) [B (Foreign "GetID");
-      B (Hook "join.before-heads");
-      B (Foreign "RawHeads");
-      B (Hook "join.before-entries");
-      B (Foreign "GetEntries");
-      B (Acq LSelf W);
-      B (Hook "join.locked");
-      B (ForeignObjRd "RawHeads");
-      B (PtrRd "Entries");
-      B (PtrWr "Entries");
-      B (ObjRd "Entries");
-      B (Hook "join.diffed");
-      WaitChildren;
-      B (CapRd "err");
-      B (PtrRd "Entries");
-      B (ObjWr "Entries");
-      B (PtrRd "heads");
-      B (ForeignObjRd "RawHeads");
-      B (ObjRd "heads");
-      B (PtrRd "Next");
-      B (ObjRd "Next");
-      B (PtrWr "heads");
-      B (PtrRd "Clock");
-      B (PtrWr "Clock");
-      B (Rel LSelf W)];
-    (* Join #175 *) [B (Foreign "GetID");
-      B (Hook "join.before-heads");
-      B (Foreign "RawHeads");
-      B (Hook "join.before-entries");
-      B (Foreign "GetEntries");
-      B (Acq LSelf W);
-      B (Hook "join.locked");
-      B (ForeignObjRd "RawHeads");
-      B (PtrRd "Entries");
-      B (PtrWr "Entries");
-      B (ObjRd "Entries");
-      B (Hook "join.diffed");
-      WaitChildren;
-      B (CapRd "err");
-      B (PtrRd "Entries");
-      B (ObjWr "Entries");
-      B (PtrRd "heads");
-      B (ForeignObjRd "RawHeads");
-      B (ObjRd "heads");
-      B (PtrRd "Next");
-      B (ObjRd "Next");
-      B (PtrWr "heads");
-      B (PtrWr "Entries");
-      B (PtrRd "Clock");
-      B (PtrWr "Clock");
-      B (Rel LSelf W)];
-    (* Join #176 *) [B (Foreign "GetID");
-      B (Hook "join.before-heads");
-      B (Foreign "RawHeads");
-      B (Hook "join.before-entries");
-      B (Foreign "GetEntries");
-      B (Acq LSelf W);
-      B (Hook "join.locked");
-      B (ForeignObjRd "RawHeads");
-      B (PtrRd "Entries");
-      B (PtrWr "Entries");
-      B (ObjRd "Entries");
-      B (Hook "join.diffed");
-      WaitChildren;
-      B (CapRd "err");
-      B (PtrRd "Entries");
-      B (ObjWr "Entries");
-      B (PtrRd "heads");
-      B (ForeignObjRd "RawHeads");
-      B (ObjRd "heads");
-      B (PtrWr "heads");
-      B (ObjRd "Entries");
-      B (PtrWr "Entries");
-      B (PtrRd "Clock");
-      B (PtrWr "Clock");
-      B (Rel LSelf W)];
-    (* Join #177 *) [B (Foreign "GetID");
-      B (Hook "join.before-heads");
-      B (Foreign "RawHeads");
-      B (Hook "join.before-entries");
-      B (Foreign "GetEntries");
-      B (Acq LSelf W);
-      B (Hook "join.locked");
-      B (ForeignObjRd "RawHeads");
-      B (PtrRd "Entries");
-      B (PtrWr "Entries");
-      B (ObjRd "Entries");
-      B (Hook "join.diffed");
-      WaitChildren;
-      B (CapRd "err");
-      B (PtrRd "Entries");
-      B (ObjWr "Entries");
-      B (PtrRd "heads");
-      B (ForeignObjRd "RawHeads");
-      B (ObjRd "heads");
-      B (PtrWr "heads");
-      B (PtrRd "Clock");
-      B (PtrWr "Clock");
-      B (Rel LSelf W)];
-    (* Join #178 *) [B (Foreign "GetID");
-      B (Hook "join.before-heads");
-      B (Foreign "RawHeads");
-      B (Hook "join.before-entries");
-      B (Foreign "GetEntries");
-      B (Acq LSelf W);
-      B (Hook "join.locked");
-      B (ForeignObjRd "RawHeads");
-      B (PtrRd "Entries");
-      B (PtrWr "Entries");
-      B (ObjRd "Entries");
-      B (Hook "join.diffed");
-      WaitChildren;
-      B (CapRd "err");
-      B (PtrRd "Entries");
-      B (ObjWr "Entries");
-      B (PtrRd "heads");
-      B (ForeignObjRd "RawHeads");
-      B (ObjRd "heads");
-      B (PtrWr "heads");
-      B (PtrWr "Entries");
-      B (PtrRd "Clock");
-      B (PtrWr "Clock");
-      B (Rel LSelf W)];
-    (* Join #179 *) [B (Foreign "GetID");
-      B (Hook "join.before-heads");
-      B (Foreign "RawHeads");
-      B (Hook "join.before-entries");
-      B (Foreign "GetEntries");
-      B (Acq LSelf W);
-      B (Hook "join.locked");
-      B (ForeignObjRd "RawHeads");
-      B (PtrRd "Entries");
-      B (PtrWr "Entries");
-      B (ObjRd "Entries");
-      B (Hook "join.diffed");
-      WaitChildren;
-      B (CapRd "err");
-      B (PtrRd "Next");
-      B (ObjWr "Next");
-      B (PtrRd "Entries");
-      B (ObjWr "Entries");
-      B (PtrRd "heads");
-      B (ForeignObjRd "RawHeads");
-      B (ObjRd "heads");
-      B (ObjRd "Next");
-      B (PtrWr "heads");
-      B (ObjRd "Entries");
-      B (PtrWr "Entries");
-      B (PtrRd "Clock");
-      B (PtrWr "Clock");
-      B (Rel LSelf W)];
-    (* Join #180 *) [B (Foreign "GetID");
-      B (Hook "join.before-heads");
-      B (Foreign "RawHeads");
-      B (Hook "join.before-entries");
-      B (Foreign "GetEntries");
-      B (Acq LSelf W);
-      B (Hook "join.locked");
-      B (ForeignObjRd "RawHeads");
-      B (PtrRd "Entries");
-      B (PtrWr "Entries");
-      B (ObjRd "Entries");
-      B (Hook "join.diffed");
-      WaitChildren;
-      B (CapRd "err");
-      B (PtrRd "Next");
-      B (ObjWr "Next");
-      B (PtrRd "Entries");
-      B (ObjWr "Entries");
-      B (PtrRd "heads");
-      B (ForeignObjRd "RawHeads");
-      B (ObjRd "heads");
-      B (ObjRd "Next");
-      B (PtrWr "heads");
-      B (PtrRd "Clock");
-      B (PtrWr "Clock");
-      B (Rel LSelf W)];
-    (* Join #181 *) [B (Foreign "GetID");
-      B (Hook "join.before-heads");
-      B (Foreign "RawHeads");
-      B (Hook "join.before-entries");
-      B (Foreign "GetEntries");
-      B (Acq LSelf W);
-      B (Hook "join.locked");
-      B (ForeignObjRd "RawHeads");
-      B (PtrRd "Entries");
-      B (PtrWr "Entries");
-      B (ObjRd "Entries");
-      B (Hook "join.diffed");
-      WaitChildren;
-      B (CapRd "err");
-      B (PtrRd "Next");
-      B (ObjWr "Next");
-      B (PtrRd "Entries");
-      B (ObjWr "Entries");
-      B (PtrRd "heads");
-      B (ForeignObjRd "RawHeads");
-      B (ObjRd "heads");
-      B (ObjRd "Next");
-      B (PtrWr "heads");
-      B (PtrWr "Entries");
-      B (PtrRd "Clock");
-      B (PtrWr "Clock");
-      B (Rel LSelf W)];
-    (* Join #182 *) [B (Foreign "GetID");
-      B (Hook "join.before-heads");
-      B (Foreign "RawHeads");
-      B (Hook "join.before-entries");
-      B (Foreign "GetEntries");
-      B (Acq LSelf W);
-      B (Hook "join.locked");
-      B (ForeignObjRd "RawHeads");
-      B (PtrRd "Entries");
-      B (PtrWr "Entries");
-      B (ObjRd "Entries");
-      B (Hook "join.diffed");
-      WaitChildren;
-      B (CapRd "err");
-      B (PtrRd "Next");
-      B (ObjWr "Next");
-      B (PtrRd "Entries");
-      B (ObjWr "Entries");
-      B (PtrRd "heads");
-      B (ForeignObjRd "RawHeads");
-      B (ObjRd "heads");
-      B (PtrWr "heads");
-      B (ObjRd "Entries");
-      B (PtrWr "Entries");
-      B (PtrRd "Clock");
-      B (PtrWr "Clock");
-      B (Rel LSelf W)];
-    (* Join #183 *) [B (Foreign "GetID");
-      B (Hook "join.before-heads");
-      B (Foreign "RawHeads");
-      B (Hook "join.before-entries");
-      B (Foreign "GetEntries");
-      B (Acq LSelf W);
-      B (Hook "join.locked");
-      B (ForeignObjRd "RawHeads");
-      B (PtrRd "Entries");
-      B (PtrWr "Entries");
-      B (ObjRd "Entries");
-      B (Hook "join.diffed");
-      WaitChildren;
-      B (CapRd "err");
-      B (PtrRd "Next");
-      B (ObjWr "Next");
-      B (PtrRd "Entries");
-      B (ObjWr "Entries");
-      B (PtrRd "heads");
-      B (ForeignObjRd "RawHeads");
-      B (ObjRd "heads");
-      B (PtrWr "heads");
-      B (PtrRd "Clock");
-      B (PtrWr "Clock");
-      B (Rel LSelf W)];
-    (* Join #184 *) [B (Foreign "GetID");
-      B (Hook "join.before-heads");
-      B (Foreign "RawHeads");
-      B (Hook "join.before-entries");
-      B (Foreign "GetEntries");
-      B (Acq LSelf W);
-      B (Hook "join.locked");
-      B (ForeignObjRd "RawHeads");
-      B (PtrRd "Entries");
-      B (PtrWr "Entries");
-      B (ObjRd "Entries");
-      B (Hook "join.diffed");
-      WaitChildren;
-      B (CapRd "err");
-      B (PtrRd "Next");
-      B (ObjWr "Next");
-      B (PtrRd "Entries");
-      B (ObjWr "Entries");
-      B (PtrRd "heads");
-      B (ForeignObjRd "RawHeads");
-      B (ObjRd "heads");
-      B (PtrWr "heads");
-      B (PtrWr "Entries");
-      B (PtrRd "Clock");
-      B (PtrWr "Clock");
-      B (Rel LSelf W)];
-    (* Join #185 *) [B (Foreign "GetID");
-      B (Hook "join.before-heads");
-      B (Foreign "RawHeads");
-      B (Hook "join.before-entries");
-      B (Foreign "GetEntries");
-      B (Acq LSelf W);
-      B (Hook "join.locked");
-      B (ForeignObjRd "RawHeads");
-      B (PtrRd "Entries");
-      B (PtrWr "Entries");
-      B (ObjRd "Entries");
-      B (Hook "join.diffed");
-      WaitChildren;
-      B (CapRd "err");
-      B (PtrRd "heads");
-      B (ForeignObjRd "RawHeads");
-      B (ObjRd "heads");
-      B (PtrRd "Next");
-      B (ObjRd "Next");
-      B (PtrWr "heads");
-      B (PtrRd "Clock");
-      B (PtrWr "Clock");
-      B (Rel LSelf W)];
-    (* Join #186 *) [B (Foreign "GetID");
-      B (Hook "join.before-heads");
-      B (Foreign "RawHeads");
-      B (Hook "join.before-entries");
-      B (Foreign "GetEntries");
-      B (Acq LSelf W);
-      B (Hook "join.locked");
-      B (ForeignObjRd "RawHeads");
-      B (PtrRd "Entries");
-      B (PtrWr "Entries");
-      B (ObjRd "Entries");
-      B (Hook "join.diffed");
-      WaitChildren;
-      B (CapRd "err");
-      B (PtrRd "heads");
-      B (ForeignObjRd "RawHeads");
-      B (ObjRd "heads");
-      B (PtrRd "Next");
-      B (ObjRd "Next");
-      B (PtrWr "heads");
-      B (PtrRd "Entries");
-      B (ObjRd "Entries");
-      B (PtrWr "Entries");
-      B (PtrRd "Clock");
-      B (PtrWr "Clock");
-      B (Rel LSelf W)];
-    (* Join #187 *) [B (Foreign "GetID");
-      B (Hook "join.before-heads");
-      B (Foreign "RawHeads");
-      B (Hook "join.before-entries");
-      B (Foreign "GetEntries");
-      B (Acq LSelf W);
-      B (Hook "join.locked");
-      B (ForeignObjRd "RawHeads");
-      B (PtrRd "Entries");
-      B (PtrWr "Entries");
-      B (ObjRd "Entries");
-      B (Hook "join.diffed");
-      WaitChildren;
-      B (CapRd "err");
-      B (PtrRd "heads");
-      B (ForeignObjRd "RawHeads");
-      B (ObjRd "heads");
-      B (PtrRd "Next");
-      B (ObjRd "Next");
-      B (PtrWr "heads");
-      B (PtrWr "Entries");
-      B (PtrRd "Clock");
-      B (PtrWr "Clock");
-      B (Rel LSelf W)];
-    (* Join #188 *) [B (Foreign "GetID");
-      B (Hook "join.before-heads");
-      B (Foreign "RawHeads");
-      B (Hook "join.before-entries");
-      B (Foreign "GetEntries");
-      B (Acq LSelf W);
-      B (Hook "join.locked");
-      B (ForeignObjRd "RawHeads");
-      B (PtrRd "Entries");
-      B (PtrWr "Entries");
-      B (ObjRd "Entries");
-      B (Hook "join.diffed");
-      WaitChildren;
-      B (CapRd "err");
-      B (PtrRd "heads");
-      B (ForeignObjRd "RawHeads");
-      B (ObjRd "heads");
-      B (PtrWr "heads");
-      B (PtrRd "Clock");
-      B (PtrWr "Clock");
-      B (Rel LSelf W)];
-    (* Join #189 *) [B (Foreign "GetID");
-      B (Hook "join.before-heads");
-      B (Foreign "RawHeads");
-      B (Hook "join.before-entries");
-      B (Foreign "GetEntries");
-      B (Acq LSelf W);
-      B (Hook "join.locked");
-      B (ForeignObjRd "RawHeads");
-      B (PtrRd "Entries");
-      B (PtrWr "Entries");
-      B (ObjRd "Entries");
-      B (Hook "join.diffed");
-      WaitChildren;
-      B (CapRd "err");
-      B (PtrRd "heads");
-      B (ForeignObjRd "RawHeads");
-      B (ObjRd "heads");
-      B (PtrWr "heads");
-      B (PtrRd "Entries");
-      B (ObjRd "Entries");
-      B (PtrWr "Entries");
-      B (PtrRd "Clock");
-      B (PtrWr "Clock");
-      B (Rel LSelf W)];
-    (* Join #190 *) [B (Foreign "GetID");
-      B (Hook "join.before-heads");
-      B (Foreign "RawHeads");
-      B (Hook "join.before-entries");
-      B (Foreign "GetEntries");
-      B (Acq LSelf W);
-      B (Hook "join.locked");
-      B (ForeignObjRd "RawHeads");
-      B (PtrRd "Entries");
-      B (PtrWr "Entries");
-      B (ObjRd "Entries");
-      B (Hook "join.diffed");
-      WaitChildren;
-      B (CapRd "err");
-      B (PtrRd "heads");
-      B (ForeignObjRd "RawHeads");
-      B (ObjRd "heads");
-      B (PtrWr "heads");
-      B (PtrWr "Entries");
-      B (PtrRd "Clock");
-      B (PtrWr "Clock");
-      B (Rel LSelf W)];
-    (* Join #191 *) [B (Foreign "GetID");
-      B (Hook "join.before-heads");
-      B (Foreign "RawHeads");
-      B (Hook "join.before-entries");
-      B (Foreign "GetEntries");
-      B (Acq LSelf W);
-      B (Hook "join.locked");
-      B (ForeignObjRd "RawHeads");
-      B (PtrRd "Entries");
-      B (PtrWr "Entries");
-      B (ObjRd "Entries");
-      B (Hook "join.diffed");
-      WaitChildren;
-      B (CapRd "err");
-      B (Rel LSelf W)]
-  ]);
-  ("Len", [
-    (* Len #0 *) [B (Acq LSelf R);
-      B (PtrRd "Entries");
-      B (ObjRd "Entries");
-      B (Rel LSelf R)]
-  ]);
-  ("RawHeads", [
-    (* RawHeads #0 *) [B (Acq LSelf R);
-      B (PtrRd "heads");
-      B (Rel LSelf R)]
-  ]);
-  ("SetIdentity", [
-    (* SetIdentity #0 *) [B (Acq LSelf W);
-      B (PtrWr "Identity");
-      B (PtrRd "Clock");
-      B (PtrRd "heads");
-      B (ObjRd "heads");
-      B (PtrWr "Clock");
-      B (Rel LSelf W)]
-  ]);
-  ("ToJSONLog", [
-    (* ToJSONLog #0 *) [B (Acq LSelf R);
-      B (PtrRd "heads");
-      B (Rel LSelf R);
-      B (ObjRd "heads")]
-  ]);
-  ("ToMultihash", [
-    (* ToMultihash #0 *) [B (Hook "tomultihash.start");
-      B (Acq LSelf R);
-      B (PtrRd "heads");
-      B (Rel LSelf R);
-      B (ObjRd "heads")];
-    (* ToMultihash #1 *) [B (Hook "tomultihash.start");
-      B (Acq LSelf R);
-      B (PtrRd "heads");
-      B (Rel LSelf R);
-      B (ObjRd "heads");
-      B (Hook "tomultihash.before-write")]
-  ]);
-  ("ToSnapshot", [
-    (* ToSnapshot #0 *) [B (Acq LSelf R);
-      B (PtrRd "heads");
-      B (ObjRd "heads");
-      B (PtrRd "Entries");
-      B (ObjRd "Entries");
-      B (Rel LSelf R)];
-    (* ToSnapshot #1 *) [B (Acq LSelf R);
-      B (PtrRd "heads");
-      B (ObjRd "heads");
-      B (Rel LSelf R)]
-  ]);
-  ("ToString", [
-    (* ToString #0 *) [B (Acq LSelf R);
-      B (PtrRd "heads");
-      B (ObjRd "heads");
-      B (PtrRd "Entries");
-      B (ObjRd "Entries");
-      B (Rel LSelf R)];
-    (* ToString #1 *) [B (Acq LSelf R);
-      B (PtrRd "heads");
-      B (ObjRd "heads");
-      B (PtrRd "Entries");
-      B (ObjRd "Entries");
-      B (Rel LSelf R);
-      B (Acq LSelf R);
-      B (PtrRd "heads");
-      B (ObjRd "heads");
-      B (PtrRd "Entries");
-      B (ObjRd "Entries");
-      B (Rel LSelf R)];
-    (* ToString #2 *) [B (Acq LSelf R);
-      B (PtrRd "heads");
-      B (ObjRd "heads");
-      B (PtrRd "Entries");
-      B (ObjRd "Entries");
-      B (Rel LSelf R);
-      B (Acq LSelf R);
-      B (PtrRd "heads");
-      B (ObjRd "heads");
-      B (Rel LSelf R)];
-    (* ToString #3 *) [B (Acq LSelf R);
-      B (PtrRd "heads");
-      B (ObjRd "heads");
-      B (PtrRd "Entries");
-      B (ObjRd "Entries");
-      B (Rel LSelf R);
-      B (Acq LSelf R);
-      B (PtrRd "heads");
-      B (Rel LSelf R)];
-    (* ToString #4 *) [B (Acq LSelf R);
-      B (PtrRd "heads");
-      B (ObjRd "heads");
-      B (Rel LSelf R)];
-    (* ToString #5 *) [B (Acq LSelf R);
-      B (PtrRd "heads");
-      B (ObjRd "heads");
-      B (Rel LSelf R);
-      B (Acq LSelf R);
-      B (PtrRd "heads");
-      B (ObjRd "heads");
-      B (PtrRd "Entries");
-      B (ObjRd "Entries");
-      B (Rel LSelf R)];
-    (* ToString #6 *) [B (Acq LSelf R);
-      B (PtrRd "heads");
-      B (ObjRd "heads");
-      B (Rel LSelf R);
-      B (Acq LSelf R);
-      B (PtrRd "heads");
-      B (ObjRd "heads");
-      B (Rel LSelf R)];
-    (* ToString #7 *) [B (Acq LSelf R);
-      B (PtrRd "heads");
-      B (ObjRd "heads");
-      B (Rel LSelf R);
-      B (Acq LSelf R);
-      B (PtrRd "heads");
-      B (Rel LSelf R)];
-    (* ToString #8 *) [B (Acq LSelf R);
-      B (PtrRd "heads");
-      B (Rel LSelf R)];
-    (* ToString #9 *) [B (Acq LSelf R);
-      B (PtrRd "heads");
-      B (Rel LSelf R);
-      B (Acq LSelf R);
-      B (PtrRd "heads");
-      B (ObjRd "heads");
-      B (PtrRd "Entries");
-      B (ObjRd "Entries");
-      B (Rel LSelf R)];
-    (* ToString #10 *) [B (Acq LSelf R);
-      B (PtrRd "heads");
-      B (Rel LSelf R);
-      B (Acq LSelf R);
-      B (PtrRd "heads");
-      B (ObjRd "heads");
-      B (Rel LSelf R)];
-    (* ToString #11 *) [B (Acq LSelf R);
-      B (PtrRd "heads");
-      B (Rel LSelf R);
-      B (Acq LSelf R);
-      B (PtrRd "heads");
-      B (Rel LSelf R)]
-  ]);
-  ("Values", [
-    (* Values #0 *) [B (Acq LSelf R);
-      B (PtrRd "heads");
-      B (ObjRd "heads");
-      B (PtrRd "Entries");
-      B (ObjRd "Entries");
-      B (Rel LSelf R)];
-    (* Values #1 *) [B (Acq LSelf R);
-      B (PtrRd "heads");
-      B (ObjRd "heads");
-      B (Rel LSelf R)];
-    (* Values #2 *) [B (Acq LSelf R);
-      B (PtrRd "heads");
-      B (Rel LSelf R)]
-  ])
-].
-
-Definition helpers : list (string * list path) := [
-  ("difference", [
-    (* difference #0 *) [];
-    (* difference #1 *) [B (PtrRd "Entries")];
-    (* difference #2 *) [B (PtrRd "Entries");
-      B (ObjRd "Entries")];
-    (* difference #3 *) [B (PtrRd "Entries");
-      B (PtrWr "Entries")];
-    (* difference #4 *) [B (PtrRd "Entries");
-      B (PtrWr "Entries");
-      B (ObjRd "Entries")]
-  ]);
-  ("sortedHeads", [
-    (* sortedHeads #0 *) []
-  ]);
-  ("toMultihash", [
-    (* toMultihash #0 *) [B (Hook "tomultihash.start");
-      B (Acq LSelf R);
-      B (PtrRd "heads");
-      B (Rel LSelf R);
-      B (ObjRd "heads")];
-    (* toMultihash #1 *) [B (Hook "tomultihash.start");
-      B (Acq LSelf R);
-      B (PtrRd "heads");
-      B (Rel LSelf R);
-      B (ObjRd "heads");
-      B (Hook "tomultihash.before-write")]
-  ]);
-  ("traverse", [
-    (* traverse #0 *) [];
-    (* traverse #1 *) [B (PtrRd "Entries");
-      B (ObjRd "Entries")]
-  ]);
-  ("values", [
-    (* values #0 *) [B (PtrRd "heads")];
-    (* values #1 *) [B (PtrRd "heads");
-      B (ObjRd "heads")];
-    (* values #2 *) [B (PtrRd "heads");
-      B (ObjRd "heads");
-      B (PtrRd "Entries");
-      B (ObjRd "Entries")]
-  ])
-].
-
-Definition omap_ops : list (string * list path) := [
-  ("At", [
-    (* At #0 *) [B (Acq LSelf R);
-      B (PtrRd "keys");
-      B (ObjRd "keys");
-      B (Acq LSelf R);
-      B (Acq LSelf R);
-      B (PtrRd "values");
-      B (ObjRd "values");
-      B (Rel LSelf R);
-      B (Rel LSelf R);
-      B (Rel LSelf R)];
-    (* At #1 *) [B (Acq LSelf R);
-      B (PtrRd "keys");
-      B (ObjRd "keys");
-      B (Rel LSelf R)]
-  ]);
-  ("Copy", [
-    (* Copy #0 *) [B (Acq LSelf R);
-      B (PtrRd "values");
-      B (ObjRd "values");
-      B (PtrRd "keys");
-      B (ObjRd "keys");
-      B (Rel LSelf R)]
-  ]);
-  ("Get", [
-    (* Get #0 *) [B (Acq LSelf R);
-      B (PtrRd "values");
-      B (ObjRd "values");
-      B (Rel LSelf R)]
-  ]);
-  ("Keys", [
-    (* Keys #0 *) [B (Acq LSelf R);
-      B (PtrRd "keys");
-      B (Rel LSelf R)]
-  ]);
-  ("Len", [
-    (* Len #0 *) [B (Acq LSelf R);
-      B (PtrRd "keys");
-      B (ObjRd "keys");
-      B (Rel LSelf R)]
-  ]);
-  ("Merge", [
-    (* Merge #0 *) [B (Acq LSelf R);
-      B (PtrRd "keys");
-      B (Rel LSelf R);
-      B (Acq LSelf R);
-      B (PtrRd "values");
-      B (ObjRd "values");
-      B (Rel LSelf R);
-      B (Foreign "Keys")];
-    (* Merge #1 *) [B (Acq LSelf R);
-      B (PtrRd "keys");
-      B (Rel LSelf R);
-      B (Acq LSelf R);
-      B (PtrRd "values");
-      B (ObjRd "values");
-      B (Rel LSelf R);
-      B (Foreign "Keys");
-      B (Foreign "Get")];
-    (* Merge #2 *) [B (Acq LSelf R);
-      B (PtrRd "keys");
-      B (Rel LSelf R);
-      B (Foreign "Keys")];
-    (* Merge #3 *) [B (Acq LSelf R);
-      B (PtrRd "keys");
-      B (Rel LSelf R);
-      B (Foreign "Keys");
-      B (Foreign "Get")]
-  ]);
-  ("Reverse", [
-    (* Reverse #0 *) [B (Acq LSelf W);
-      B (PtrRd "keys");
-      B (ObjRd "keys");
-      B (ObjWr "keys");
-      B (Rel LSelf W)];
-    (* Reverse #1 *) [B (Acq LSelf W);
-      B (PtrRd "keys");
-      B (ObjRd "keys");
-      B (Rel LSelf W)]
-  ]);
-  ("Set", [
-    (* Set #0 *) [B (Acq LSelf W);
-      B (PtrRd "values");
-      B (ObjRd "values");
-      B (ObjWr "values");
-      B (Rel LSelf W)];
-    (* Set #1 *) [B (Acq LSelf W);
-      B (PtrRd "values");
-      B (ObjRd "values");
-      B (PtrRd "keys");
-      B (ObjRd "keys");
-      B (PtrWr "keys");
-      B (ObjWr "values");
-      B (Rel LSelf W)]
-  ]);
-  ("Slice", [
-    (* Slice #0 *) [B (Acq LSelf R);
-      B (PtrRd "keys");
-      B (ObjRd "keys");
-      B (Acq LSelf R);
-      B (Acq LSelf R);
-      B (PtrRd "values");
-      B (ObjRd "values");
-      B (Rel LSelf R);
-      B (Rel LSelf R);
-      B (Rel LSelf R)];
-    (* Slice #1 *) [B (Acq LSelf R);
-      B (PtrRd "keys");
-      B (ObjRd "keys");
-      B (Rel LSelf R)]
-  ]);
-  ("UnsafeGet", [
-    (* UnsafeGet #0 *) [B (Acq LSelf R);
-      B (Acq LSelf R);
-      B (PtrRd "values");
-      B (ObjRd "values");
-      B (Rel LSelf R);
-      B (Rel LSelf R)]
-  ])
-].
-
-(* fields of IPFSLog assigned outside the constructor or mutated in place *)
-Definition guarded_fields : list string := ["Clock"; "Entries"; "Identity"; "Next"; "heads"].
-Definition ptr_written_fields : list string := ["Clock"; "Entries"; "Identity"; "heads"].
-Definition map_fields : list string := ["Entries"; "Next"; "heads"].
-(* guarded map fields whose object is never mutated after publication (no ObjWr anywhere) *)
-Definition obj_readonly_fields : list string := ["heads"].
-Definition no_objwr_heads : bool := true.
-(* methods returning the value of a guarded field (an alias of the internal object) *)
-Definition returns_field : list (string * string) := [("RawHeads", "heads")].
-Definition captured_vars : list (string * list string) := [("Join", ["err"])].
-Definition local_mutexes : list (string * list string) := [("Join", ["errLock"])].
-(* OrderedMap methods by whether they take the map's write lock *)
-Definition omap_writers : list string := ["Reverse"; "Set"].
-Definition omap_readers : list string := ["At"; "Copy"; "Get"; "Keys"; "Len"; "Merge"; "Slice"; "UnsafeGet"].
-Definition omap_guarded_fields : list string := ["keys"; "values"].
+(* genlocks refused to translate the current /repo source; regenerated on the next run *)
+Definition translator_refused : unit := tt.
